@@ -6,6 +6,7 @@ import (
 	"go/token"
 	"go/types"
 	"regexp"
+	"strconv"
 	"strings"
 
 	"golang.org/x/tools/go/ssa"
@@ -17,37 +18,42 @@ import (
 // rests on (which call must have succeeded before which), the agreement
 // between the writers and the readers of the on-disk formats, and the
 // visibility filters of the read paths. No crash state is ever materialised.
+//
+// Every rule is stated on the effective body of an entry point (see "Effective
+// bodies" below) and finds the internal helpers it talks about by role, so
+// that extracting, inlining or renaming an unexported helper, turning a
+// closure into a method, or reshaping control flow does not change a verdict.
 
 func init() {
 	register(&PropSpec{
 		ID:    "C03",
 		Title: "Disk stores survive a crash at any instant without losing or tearing blobs",
-		Explanation: "Decided (structural necessary conditions of the crash argument, over every CFG path of the anchored functions): " +
-			"F-order — in files.(*Storage).ReceiveBlob the single VFS.Rename has as source the Name() of the file returned by the VFS.TempFile call and as destination blobPath(ref) of the received ref (the very function the readers use); every call that writes into that temp file, then Sync() on it, then Close() on it have all succeeded (err==nil edge) on every path to the Rename, Sync precedes Close, and every return whose error may be nil is behind the success edge of the Rename. " +
-			"F-cleanup (= C13 G-tmp) — after TempFile succeeds every path to a return passes the registration of a deferred cleanup (or an explicit VFS.Remove) of that temp file unless the Rename succeeded; the deferred cleanup removes the file whenever its success flag is false; the flag is set only behind the Rename's success edge. " +
-			"F-visible — every VFS.Open/Stat/Lstat/Remove in package files takes blobPath(ref) (which ends in blobFileBaseName, whose constant format ends in the extension), or the receive path's own temp file, or is the enumeration's directory-entry stat; in readBlobs every channel send is behind strings.HasSuffix(name, ext)==true for the very name the sent ref is computed from, with the same ext constant as the writer and TrimSuffix; the TempFile prefix ends in a constant tail that can never complete the extension and contains no '*'; every VFS implementation's TempFile only appends to the prefix (os.CreateTemp pattern, or prefix+hex/decimal suffix). " +
-			"D-order — in diskpacked.(*storage).append the index Set is behind the success edges of writer.Sync(), which is behind the success edges of every data write into s.writer (header and body) and behind the written-count == br.Size test; every maybe-nil return is behind the Set's success edge. In diskpacked.ReceiveBlob the duplicate-ack return (the only nil-error return that is not append's verdict) is behind {meta found, os.Stat(filename(m.file)) ok, fi.Size() >= m.offset+m.size}; the last is decided on linear forms: some dominating ordering comparison, normalised to F >= 0 and flattened through +, -, conversions, locals and one-expression helpers, is F = fi.Size() - m.offset - m.size + k with k <= 0 and no other term (so `fi.Size()-m.offset >= int64(m.size)` is the same guard, and a guard that omits the offset or the size, or has a sign wrong, is a violation). " +
-			"D-reindex-agreement — the header writer in append (constant format: open delimiter, ref, separator, size, close delimiter; size printed base-10 from a 32-bit unsigned) and the three header readers (walkPack, readHeader, delete) use the same three delimiter bytes, base 10 and 32 bits, and delete's walk-back length counts exactly the literal bytes of the format; the deleted-marker regexp matches exactly what delete writes (and no real blobref) and both pack walkers consult it; index rows are written by append and by reindex through the same codec (blob.Ref.String → blobMeta.String) and parseBlobMeta reads the same fields in the same order. " +
-			"D-dele-order — in diskpacked.delete the header is rewritten to the deleted marker (WriteAt succeeded) before the body is destroyed (punch hole / zero fill), so a pack walk never reports a live header over a destroyed body; RemoveBlobs commits the index deletions only after all delete workers were joined (delete reads the row it is about to lose). " +
-			"D-walk-extent — a pack walker reports an entry (walkPack calls its walker / StreamBlobs sends) only where a read of the header's declared size succeeded or the extent was compared with the pack file's size, i.e. a header whose body was torn by a crash is not reported as a blob. Value clause (H7, on linear forms: integer expressions flattened through +, -, multiplication by a constant, integer conversions, local variables with one reaching store, len of a made slice and helpers that return one expression of their parameters; two loads of a variable are the same term only if no store can execute between them): (a) walkPack — on the edge that reaches the walker call some ordering comparison mentioning the file size, normalised to F >= 0, satisfies F = fileSize - OFF - SIZE exactly (all coefficients and the constant), where OFF and SIZE are the very offset and size arguments handed to the walker (which Reindex writes into the index row); so the quantity compared is the end of the reported body: it contains the entry's start, the header length consumed and the parsed size, in whatever algebraic arrangement. A comparison whose form lacks a term of OFF (header length, start offset) or differs by a constant is a violation ('extent computed from a stale position' / 'off by n'): an append torn inside the uncounted bytes would be indexed, or an intact last entry dropped. If an exact-length read is used instead, its length must equal SIZE. (b) StreamBlobs — the successful exact-length read (ReadFull buffer length / ReadAtLeast minimum / CopyN or Discard count) has as length exactly the uint32 size the sent blob is constructed with (pkg/blob constructor argument). " +
-			"F-destroy — who may destroy a path of the file-per-blob store. A table of path-destroying primitives (os/syscall/pkg-sftp: Remove, RemoveAll, Rename source and destination, Truncate, Create, WriteFile, OpenFile with write access or O_TRUNC unless O_CREATE|O_EXCL) is closed under parameter forwarding through static calls and through dispatch on files.VFS (every implementer's method contributes its effects to every interface invoke). Every site in packages files, localdisk and the VFS implementers' packages at which the destroyed path is computed (not merely forwarded), and every invoke of a destroying VFS method anywhere in the module, must be one of: the path is Name() of the file the same call obtained from VFS.TempFile; the path lies in a directory os.MkdirTemp created in the same call; the site is reached only from RemoveBlobs of a blobserver.BlobRemover (static callers only, no function-value or interface use); the effect is rename-over in ReceiveBlob itself (the atomic publish, whose operands and order F-order decides); the effect is rmdir; or the effect is a non-recursive unlink of a path that a successful VFS.ReadDirNames of the same value dominates (an empty-directory clean-up; a recursive primitive reachable from any VFS implementation's RemoveDir is a violation here). Functions that forward a path parameter must be VFS methods or unexported and never used as values. " +
-			"D-destroy — who may destroy bytes of a pack. (1) no function of package diskpacked removes, renames, truncates or re-creates a file by path (OpenFile without O_TRUNC is the only path-level write access, and the handle must stay local or become storage.writer). (2) every call in the package that writes, WriteAts, truncates, seeks or takes the descriptor of an *os.File, or hands one to a writer/hook, is classified by the handle's origin: handles from os.Open cannot write; the live append handle (storage.writer) may be written only in append, sought only neutrally (Seek(0, SeekCurrent/SeekEnd)) and moved back/truncated only as the roll-back of the current failed append — the offset is s.size (or the handle's position) read before the call's first write and first s.size update, and no return that may report success is reachable afterwards (a roll-back helper is followed through its static call sites); a handle opened writable locally may be modified only in a function reached only from RemoveBlobs, behind a successful meta(<ref parameter>) lookup, on filename(row.file), at WriteAt positions derived from row.offset, Seek(row.offset, SeekStart), exactly row.size bytes behind that Seek, or a hook call with exactly (row.offset, row.size) (a zero-fill helper is followed likewise). (3) index rows are deleted (Delete on the KeyValue or a batch; Wipe never) only in functions reached only from RemoveBlobs, with key String() of one of the refs passed in. " +
-			"NOT decided: that a blob path is not aliased by another spelling, destroyers outside these packages (tools operating on the directory), whether Name() of a VFS.TempFile result is the created path, that storage.size equals the pack's length between calls (the roll-back offset is only shown to be the value captured before this call's writes), roll-backs placed in function literals/defers (reported undecided), torn writes and what a particular crash image looks like, fsync/rename semantics of the OS or of a remote VFS (sftp's Sync is a no-op), directory fsync, durability of the KV index file, what HashName()/Digest() may contain, recovery behaviour other than D-walk-extent (re-opening a pack with a torn tail; that Reindex stores the walker's arguments unchanged), whether the offset handed to the walker is itself the true body offset (the '+1' for the opening delimiter and the header length are only required to be the SAME in the reported offset and in the compared extent — dropping the +1 in both places is invisible here), that the file size compared with belongs to the pack being walked, that the walk continues at offset+size, that reads start at the body offset, integer overflow/wrap-around and narrowing conversions in the extent arithmetic (forms are over the integers), a second, stricter comparison next to an exact one, extent guards hidden in helpers with control flow or in methods of the row type (reported as violation/undecided, not followed), removal crash states (index row still present over a zeroed body), equality of fetched bytes with received bytes.",
+		Explanation: "Decided (structural necessary conditions of the crash argument, over every CFG path). Sites are looked for in the EFFECTIVE BODY of an entry point (the interface method: ReceiveBlob, EnumerateBlobs, StreamBlobs, RemoveBlobs): the function plus, transitively (depth 5), the unexported functions/methods of its package and the function literals it calls statically (call or defer; not go), with a helper's parameters standing for the caller's arguments and a followed call's results for the value every non-zero return yields. 'P succeeded before Q' holds across a call when, at the frame where the two call chains part, the helper call's error is nil on the way to Q and inside the helper every return that may report success (for a boolean predicate: every return that may yield the value known at Q) is behind P's success edge or returns P's own error; branch conditions known at a site are those of its function, of the call sites up its chain, and of every success/true return of a followed helper whose result the site is behind; where a call does not dominate the site because errors are chained through one variable (`err = a(); if err == nil { err = b() }; if err != nil { return }`), all CFG paths to the site are explored with the nil-ness of the call's error (and of the phis it flows into) deciding the feasible branches, and the call must have run and returned nil on each. Internal helpers are identified by role, never by name. " +
+			"F-order — in the effective body of files.(*Storage).ReceiveBlob there is exactly one VFS.TempFile and one VFS.Rename; the Rename's source is Name() of the TempFile result and its destination is an expression of the store and the received ref only (helpers of one basic block are inlined into the expression, others are compared by identity); every call that writes into that temp file, then Sync() on it, then Close() on it have all succeeded on every path to the Rename, Sync precedes Close, and every return of ReceiveBlob whose error may be nil is behind the Rename's success (or returns the verdict of the helper that contains it). " +
+			"F-cleanup (= C13 G-tmp) — after TempFile succeeds (level by level up its call chain) every path to a return passes the registration of a deferred cleanup (a literal or a method whose body removes tmp.Name()), an explicit VFS.Remove of it, or a helper that always removes it, unless the Rename succeeded; the deferred cleanup removes the file whenever its success flag (a bool of ReceiveBlob it reads as a captured variable or through a pointer parameter) is false; every store to the flag — in ReceiveBlob, in literals, or through the pointer in helpers — is `false` or behind the Rename's success; a flag whose address goes anywhere else is undecided. " +
+			"F-visible — every VFS.Open/Stat/Lstat/Remove in package files takes the very path expression ReceiveBlob publishes under, applied to one blob ref (whatever the path helper is called, or spelled out), or Name() of the receive's own temp file in every frame the function runs in (helpers: only if reached only from ReceiveBlob), or is a Stat in the enumeration's effective body; the published file name is fmt.Sprintf of a constant format ending in a literal extension; every send of a blob.SizedRef in the effective body of EnumerateBlobs is behind strings.HasSuffix(name, ext)==true (directly or through a predicate helper) for the very name the sent ref derives from, with the same ext as the writer and TrimSuffix; the TempFile prefix ends in a constant tail that can never complete the extension and contains no '*'; every VFS implementation's TempFile only appends to the prefix. " +
+			"D-order — in the effective body of the packed store's ReceiveBlob (append and what it calls) there is exactly one index Set; it is behind the success of Sync() on the live append handle (the store's *os.File field), which is behind the success of every data write into that handle (header and body) and behind `written count == br.Size`; every return of ReceiveBlob that may report success is behind the Set's success, or is the verdict of the followed helper in which that holds, or is the duplicate-ack, which is behind {a successful row lookup ((ref)->(row,error) function of the package) of the received ref, os.Stat(<pack path>(row.<pack>)) ok, a comparison whose linear form is fi.Size() - row.offset - row.size + k >= 0 with k <= 0} — the pack path is the expression the live handle is opened under, the row fields are identified by type. " +
+			"D-reindex-agreement — the header writer (constant format: open delimiter, ref, separator, size, close delimiter; size printed base-10 from a 32-bit unsigned) and every header-reading unit of the package (each function that parses/formats a header size, widened to its single caller while it lacks the other roles) use the same three delimiter bytes, base 10 and 32 bits, and the in-place header rewrite's walk-back length counts exactly the literal bytes of the format; the deleted-marker regexp (the package-level regexp the pack walkers match header refs against) matches exactly what the rewrite writes (and no real blobref) and every pack walker (StreamBlobs; every function with a (…, offset int64, size uint32) callback) consults it; every index row written in the package is (blob.Ref.String(), <row>.String()), at least once inside and once outside the receive path, and the row parser (the fmt.Sscan into the row's fields) reads the same fields in the same order. " +
+			"D-dele-order — wherever the package opens a pack writable into a local handle (the removal), the header is rewritten (WriteAt succeeded) before the body is destroyed (punch hole / zero fill) in the effective body of that unit; RemoveBlobs commits the index deletions only after all delete workers were joined. " +
+			"D-walk-extent — a pack walker reports an entry only where a read of the header's declared size succeeded or the extent was compared with the pack file's size; value clause on linear forms (integer expressions flattened through +, -, multiplication by a constant, conversions, locals with one reaching store, len of a made slice, helper parameters and one-expression helpers): (a) the pack walk — F = fileSize - OFF - SIZE exactly for the offset and size handed to the walker; (b) StreamBlobs — the successful exact-length read has as length exactly the uint32 size the sent blob is constructed with. " +
+			"F-destroy — who may destroy a path of the file-per-blob store: a table of path-destroying primitives closed under parameter forwarding (static calls, files.VFS dispatch); every root site must destroy Name() of a file the call (or, for a helper's file parameter, every caller) obtained from VFS.TempFile, a path inside a fresh os.MkdirTemp dir, be reached only from RemoveBlobs, be the rename-over of the publish (in ReceiveBlob or a helper only it calls), rmdir, or a non-recursive unlink of a directory a successful VFS.ReadDirNames of the same value dominates (in the effective body). " +
+			"D-destroy — who may destroy bytes of a pack: no path-level destroyer in package diskpacked; the live append handle is written only in the receive path's effective body, sought only neutrally, and moved back/truncated only as the roll-back of the current failed receive: the offset resolves (through helper parameters) to the store's byte counter (the int64 field the receive path advances by written counts) or the handle's position, read before every data write and every update of that counter, and no success return of ReceiveBlob is reachable afterwards (followed up the call chain on the helper's failure edge); a handle opened writable locally may be modified only below RemoveBlobs, behind a successful row lookup of the ref parameter, on the pack path of row.<pack>, within the row's extent (checked in the effective body of the opening function, so helpers may compute the extent from a row parameter); index rows are deleted only below RemoveBlobs with key String() of a ref that comes from the refs passed in (through helper parameters). " +
+			"NOT decided: helpers that are exported, live in another package, are called through values/interfaces or run as goroutines (their bodies are not part of an effective body: a site moved there is reported missing); helpers that signal success other than by a nil error or a boolean predicate; roll-backs placed in deferred calls (undecided); marker fills not written as index loops starting at a constant; that a blob path is not aliased by another spelling; destroyers outside these packages; whether Name() of a VFS.TempFile result is the created path; that the byte counter equals the pack's length between calls; torn writes and what a particular crash image looks like; fsync/rename semantics of the OS or of a remote VFS; directory fsync; durability of the KV index file; what HashName()/Digest() may contain; recovery behaviour other than D-walk-extent; whether the offset handed to the walker is itself the true body offset; that the file size compared with belongs to the pack being walked; integer overflow in the extent arithmetic; removal crash states (index row still present over a zeroed body); equality of fetched bytes with received bytes.",
 		RuleDocs: map[string]string{
-			"F-order":             "files.(*Storage).ReceiveBlob: Rename(tmp.Name(), blobPath(ref)) is dominated by the success edges of all writes into tmp, tmp.Sync(), tmp.Close(); nil-error returns are dominated by Rename success",
-			"F-cleanup":           "F-order(iii), shared with C13 as G-tmp: temp-file cleanup registered right after TempFile succeeds, removes unless the success flag is set, flag set only after Rename succeeded",
-			"F-visible":           "every VFS path access in package files is blobPath(ref)/own temp/enumeration stat; readBlobs sends only behind HasSuffix(name, ext); temp names cannot end in ext; VFS.TempFile implementations append only",
-			"D-order":             "diskpacked.append: data writes → size check → Sync → index.Set → nil return, each on the success edge of the previous; ReceiveBlob duplicate-ack behind {meta, Stat, a comparison whose linear form is fi.Size() - m.offset - m.size + k >= 0, k <= 0}",
-			"D-reindex-agreement": "pack header writer vs. readers (delimiters, base, bit size, walk-back length), deleted-marker regexp vs. what delete writes, index row codec shared by append/reindex/parseBlobMeta",
-			"D-dele-order":        "diskpacked.delete: header rewrite succeeded before body destruction; RemoveBlobs: join of delete workers precedes the index CommitBatch",
-			"F-destroy":           "files/localdisk/VFS implementers: every computed path handed (directly, through forwarding helpers or through files.VFS dispatch) to a removing/renaming/truncating primitive is the receive's own TempFile name, inside a fresh MkdirTemp dir, reached only from RemoveBlobs, the publishing Rename's destination in ReceiveBlob, or a non-recursive removal of a directory just listed by ReadDirNames",
-			"D-destroy":           "diskpacked: no path-level destroyer; storage.writer written only in append, rewound/truncated only as roll-back of the current failed append to the offset captured before its first write; locally opened writable packs modified only below RemoveBlobs within the removed blob's row extent; index rows deleted only below RemoveBlobs for the refs passed in",
-			"D-walk-extent":       "pack walkers (walkPack's walker call, StreamBlobs' send): an entry is reported only after its body was read in full or its extent was compared with the file size; and (linear forms) what was compared with the file size is exactly offset+size of the arguments handed to the walker, resp. the length read is exactly the size the sent blob is declared with",
+			"F-order":             "effective body of files.(*Storage).ReceiveBlob: Rename(tmp.Name(), <expression of store and received ref>) is dominated by the success edges of all writes into tmp, tmp.Sync(), tmp.Close() (also when these sit in helpers); nil-error returns are dominated by Rename success",
+			"F-cleanup":           "F-order(iii), shared with C13 as G-tmp: temp-file cleanup (deferred literal or method, explicit Remove, or always-removing helper) registered right after TempFile succeeds, removes unless the success flag (captured or passed by pointer) is set, flag set only after Rename succeeded",
+			"F-visible":           "every VFS path access in package files is the published path expression of one ref / the receive's own temp / an enumeration stat; enumeration sends only behind HasSuffix(name, ext) (directly or via a predicate helper); temp names cannot end in ext; VFS.TempFile implementations append only",
+			"D-order":             "effective body of the packed store's ReceiveBlob: data writes → size check → Sync → index.Set → success return, each on the success edge of the previous, across helpers; duplicate-ack behind {row lookup of the ref, Stat of the row's pack path, a comparison whose linear form is fi.Size() - row.offset - row.size + k >= 0, k <= 0}",
+			"D-reindex-agreement": "pack header writer vs. every header-reading unit (delimiters, base, bit size, walk-back length), deleted-marker regexp vs. what the header rewrite writes, index row codec shared by every row writer and the row parser; all found by role",
+			"D-dele-order":        "the unit that opens a pack writable locally: header rewrite succeeded before body destruction; RemoveBlobs: join of delete workers precedes the index CommitBatch (across helpers)",
+			"F-destroy":           "files/localdisk/VFS implementers: every computed path handed (directly, through forwarding helpers or through files.VFS dispatch) to a removing/renaming/truncating primitive is the receive's own TempFile name (also as a helper's file parameter, for all callers), inside a fresh MkdirTemp dir, reached only from RemoveBlobs, the publishing Rename's destination, or a non-recursive removal of a directory just listed by ReadDirNames",
+			"D-destroy":           "diskpacked: no path-level destroyer; the live append handle written only in the receive path, rewound/truncated only as roll-back of the current failed receive to the offset captured before its first write (no success return reachable afterwards, across helpers); locally opened writable packs modified only below RemoveBlobs within the removed blob's row extent; index rows deleted only below RemoveBlobs for the refs passed in",
+			"D-walk-extent":       "pack walkers (every function with a (…, offset, size) callback; StreamBlobs' send): an entry is reported only after its body was read in full or its extent was compared with the file size; and (linear forms) what was compared with the file size is exactly offset+size of the arguments handed to the walker, resp. the length read is exactly the size the sent blob is declared with",
 		},
 		Run:       runC03,
 		DesignRef: "DESIGN.md §4 C03",
-		Technique: "static analysis: dominance on err==nil edges (must-precede) over go/ssa, value dependence, CFG path exploration for the cleanup pairing, constant/format-string table agreement between writers and readers; linear-form (leaf multiset + constant) equality between the extent a guard compares with the file size and the extent that is reported/indexed; who-may-destroy: a table of path/handle-destroying primitives closed under parameter forwarding (static calls, files.VFS dispatch), classification of each root site by value dependence of the destroyed path/extent and by who-may-reach (static callers, function-value uses, interface invoke sites)",
-		LevelText: "Decides structural necessary conditions only: the write ordering (write→sync→close→rename→ack; write→sync→index→ack; header-marked-deleted→body destroyed), the visibility filters (.dat only), the agreement of the on-disk codecs between writers and readers, that a pack walk reports an entry only behind a guard on exactly the extent it reports (consistency of the guard with the reported offset and size, not correctness of the offset itself), and that no code of the two stores other than the requested removal (and the roll-back of a failed, unacknowledged append) can destroy a final blob file, bytes of a pack or an index row. Does not decide the behaviour on any concrete crash image, OS/VFS durability semantics, or recovery.",
+		Technique: "static analysis over go/ssa on effective bodies (entry point + statically called unexported same-package helpers and literals, parameters bound to arguments, per-call-chain frames): dominance on err==nil edges carried across calls by helper summaries (every success return behind the event), with a path-sensitive fallback for chained errors, branch facts carried across calls (call chain, success/true returns of followed helpers), value dependence across frames, CFG path exploration for the cleanup pairing and for 'no success exit reachable after a roll-back', constant/format-string table agreement between writers and readers, structural equality of path expressions (one-block helpers inlined), linear-form equality between the extent a guard compares with the file size and the extent that is reported/indexed; who-may-destroy: a table of path/handle-destroying primitives closed under parameter forwarding, classification of each root site by value dependence (for helper parameters: at every static call site) and by who-may-reach; anchors resolved by role (interface implementer, field type, signature shape, data flow), never by the name of an internal helper",
+		LevelText: "Decides structural necessary conditions only: the write ordering (write→sync→close→rename→ack; write→sync→index→ack; header-marked-deleted→body destroyed), the visibility filters (.dat only, same path expression for writer and readers), the agreement of the on-disk codecs between writers and readers, that a pack walk reports an entry only behind a guard on exactly the extent it reports, and that no code of the two stores other than the requested removal (and the roll-back of a failed, unacknowledged append) can destroy a final blob file, bytes of a pack or an index row. The conditions are stated on effective bodies, so they are insensitive to extracting/inlining/renaming unexported helpers, closure↔method, if↔switch, early returns and hoisted locals; code moved into exported functions, other packages, goroutines or function values is not followed (reported as a missing site). Does not decide the behaviour on any concrete crash image, OS/VFS durability semantics, or recovery.",
 	})
 }
 
@@ -229,15 +235,6 @@ func c03Format(f string) (lits, verbs []string, ok bool) {
 	return lits, verbs, true
 }
 
-// c03StaticCall returns v's origin as a call to the given function, or nil.
-func c03StaticCall(v ssa.Value, callee *ssa.Function) *ssa.Call {
-	c, ok := originValue(v).(*ssa.Call)
-	if !ok || c.Call.StaticCallee() != callee {
-		return nil
-	}
-	return c
-}
-
 func c03CallIs(v ssa.Value, pkgPath, recv, name string) *ssa.Call {
 	c, ok := originValue(v).(*ssa.Call)
 	if !ok || !funcIs(c.Call.StaticCallee(), pkgPath, recv, name) {
@@ -279,121 +276,107 @@ func c03FieldRead(v ssa.Value) (name string, base ssa.Value, ok bool) {
 	return "", nil, false
 }
 
-// c03Holds reports whether struct base (an Alloc whose only whole-value store
-// is val, or val itself) holds the value val.
-func c03Holds(base, val ssa.Value) bool {
-	if base == nil || val == nil {
-		return false
-	}
-	if sameOrigin(base, val) {
-		return true
-	}
-	al, ok := base.(*ssa.Alloc)
-	if !ok {
-		return false
-	}
-	n := 0
-	okv := false
-	for _, st := range c03StoresInto(al) {
-		if st.Addr == ssa.Value(al) {
-			n++
-			okv = sameOrigin(st.Val, val)
-		}
-	}
-	return n == 1 && okv
-}
-
 func c03Line(p *Program, pos token.Pos) int { return p.Fset.Position(pos).Line }
 
 // ---------------------------------------------------------------------------
-// anchors of files.(*Storage).ReceiveBlob
+// anchors of files.(*Storage).ReceiveBlob (in its effective body)
 
 type c03Recv struct {
 	p       *Program
 	fn      *ssa.Function
 	vfs     *types.Interface
-	temp    *ssa.Call // the VFS.TempFile call, nil unless exactly one
-	nTemp   int
-	tmp     ssa.Value // its file result
-	renames []CallSite
+	e       *c03Eff
+	temps   []c03Site // the VFS.TempFile sites
+	temp    c03Site   // valid iff exactly one
+	tmp     c03Val    // its file result
+	renames []c03Site
 }
 
+var c03RecvCache = map[*ssa.Function]*c03Recv{}
+
 func c03FilesAnchors(p *Program) *c03Recv {
-	a := &c03Recv{p: p}
-	a.fn = p.Func(c03PkgFiles, "Storage", "ReceiveBlob")
+	c03CacheGuard(p)
+	fn := p.Func(c03PkgFiles, "Storage", "ReceiveBlob")
+	if a, ok := c03RecvCache[fn]; ok {
+		return a
+	}
+	a := &c03Recv{p: p, fn: fn}
+	c03RecvCache[fn] = a
 	a.vfs = p.Iface(c03PkgFiles, "VFS")
-	for _, c := range CallsIn(a.fn, false) {
-		if c.Value() == nil {
+	a.e = c03EffOf(p, fn)
+	for _, s := range a.e.calls(false) {
+		if s.value() == nil {
 			continue
 		}
+		c := s.call()
 		if c.IsMethod("TempFile", a.vfs) {
-			a.nTemp++
-			a.temp = c.Value()
+			a.temps = append(a.temps, s)
 		}
 		if c.IsMethod("Rename", a.vfs) {
-			a.renames = append(a.renames, c)
+			a.renames = append(a.renames, s)
 		}
 	}
-	if a.nTemp != 1 {
-		a.temp = nil
-	} else {
-		a.tmp = ResultValue(a.temp, 0)
+	if len(a.temps) == 1 {
+		a.temp = a.temps[0]
+		a.tmp = c03Val{a.temp.fr, ResultValue(a.temp.value(), 0)}
 	}
 	return a
 }
 
-func (a *c03Recv) isTmp(v ssa.Value) bool { return a.tmp != nil && sameOrigin(v, a.tmp) }
+func (a *c03Recv) isTmp(v c03Val) bool { return a.tmp.v != nil && v.v != nil && a.e.same(v, a.tmp) }
 
 // isTmpName: v is tmp.Name().
-func (a *c03Recv) isTmpName(v ssa.Value) bool {
-	c, ok := originValue(v).(*ssa.Call)
+func (a *c03Recv) isTmpName(v c03Val) bool {
+	o := a.e.origin(v, false)
+	c, ok := o.v.(*ssa.Call)
 	if !ok || !c.Call.IsInvoke() || c.Call.Method.Name() != "Name" {
 		return false
 	}
-	return a.isTmp(c.Call.Value)
+	return a.isTmp(c03Val{o.fr, c.Call.Value})
 }
 
-// tmpMethod lists the invokes of method name on the temp file in ReceiveBlob itself.
-func (a *c03Recv) tmpMethod(name string) []*ssa.Call {
-	var out []*ssa.Call
-	for _, c := range CallsIn(a.fn, false) {
-		if v := c.Value(); v != nil && v.Call.IsInvoke() && v.Call.Method.Name() == name && a.isTmp(v.Call.Value) {
-			out = append(out, v)
+// tmpMethod lists the invokes of method name on the temp file in the effective body.
+func (a *c03Recv) tmpMethod(name string) []c03Site {
+	var out []c03Site
+	for _, s := range a.e.calls(false) {
+		if v := s.value(); v != nil && v.Call.IsInvoke() && v.Call.Method.Name() == name && a.isTmp(c03Val{s.fr, v.Call.Value}) {
+			out = append(out, s)
 		}
 	}
 	return out
 }
 
-// renameOK: the Rename succeeded on every path to instruction at.
-func (a *c03Recv) renameOK(at ssa.Instruction) bool {
+// renameOK: the Rename succeeded on every path to the site.
+func (a *c03Recv) renameOK(at c03Site) bool {
 	for _, rc := range a.renames {
-		if ok, _ := SuccessDominates(rc.Value(), at); ok {
+		if ok, _ := a.e.succDom(rc, at); ok {
 			return true
 		}
 	}
 	return false
 }
 
-// writeSites lists the calls in ReceiveBlob that hand the temp file to a
-// writer (io.Copy(tmp, ...), tmp.Write(...)); wrappers lists calls that take
-// the temp file and return another io.Writer (not followed).
-func (a *c03Recv) writeSites() (writes []*ssa.Call, wrappers []*ssa.Call) {
-	for _, c := range CallsIn(a.fn, false) {
-		v := c.Value()
-		if v == nil || v == a.temp {
+// writeSites lists the calls of the effective body that hand the temp file to
+// a writer (io.Copy(tmp, ...), tmp.Write(...)); wrappers lists calls that take
+// the temp file and return another io.Writer (not followed). Calls of helpers
+// that are part of the effective body are not sites: their bodies are.
+func (a *c03Recv) writeSites() (writes []c03Site, wrappers []c03Site) {
+	for _, s := range a.e.calls(false) {
+		v := s.value()
+		if v == nil || s == a.temp || a.e.kid(s) != nil {
 			continue
 		}
-		if v.Call.IsInvoke() && a.isTmp(v.Call.Value) {
+		if v.Call.IsInvoke() && a.isTmp(c03Val{s.fr, v.Call.Value}) {
 			switch v.Call.Method.Name() {
 			case "Name", "Sync", "Close":
 				continue
 			}
-			writes = append(writes, v)
+			writes = append(writes, s)
 			continue
 		}
 		uses := false
 		for _, arg := range v.Call.Args {
-			if a.isTmp(arg) {
+			if a.isTmp(c03Val{s.fr, arg}) {
 				uses = true
 			}
 		}
@@ -403,11 +386,11 @@ func (a *c03Recv) writeSites() (writes []*ssa.Call, wrappers []*ssa.Call) {
 		res := v.Call.Signature().Results()
 		if res.Len() >= 1 && !isErrorType(res.At(0).Type()) {
 			if _, isIface := res.At(0).Type().Underlying().(*types.Interface); isIface && c03HasMethod(res.At(0).Type(), "Write") {
-				wrappers = append(wrappers, v)
+				wrappers = append(wrappers, s)
 				continue
 			}
 		}
-		writes = append(writes, v)
+		writes = append(writes, s)
 	}
 	return
 }
@@ -422,6 +405,87 @@ func c03HasMethod(t types.Type, name string) bool {
 	return false
 }
 
+// c03BlobRefLeaf is the leaf function of blob-path expressions: the receiver
+// and any value of type blob.Ref.
+func c03BlobRefLeaf(v ssa.Value) string {
+	if c03IsReceiverParam(v) {
+		return "RECV"
+	}
+	if IsNamed(v.Type(), "perkeep.org/pkg/blob", "Ref") {
+		if _, isPtr := v.Type().(*types.Pointer); !isPtr {
+			return "REF"
+		}
+	}
+	return ""
+}
+
+// c03Publish is the path function of the file-per-blob store, by role: the
+// expression (of the receiver and the received ref) that ReceiveBlob's Rename
+// publishes to.
+type c03Publish struct {
+	ok     bool
+	detail string
+	expr   *c03Expr
+	str    string
+	funcs  map[*ssa.Function]bool
+	fields map[string]bool
+}
+
+var c03PublishCache = map[*ssa.Function]*c03Publish{}
+
+func c03PublishPath(p *Program) *c03Publish {
+	a := c03FilesAnchors(p)
+	if pb, ok := c03PublishCache[a.fn]; ok {
+		return pb
+	}
+	pb := &c03Publish{detail: "ReceiveBlob has no single VFS.Rename"}
+	c03PublishCache[a.fn] = pb
+	if len(a.renames) != 1 {
+		return pb
+	}
+	rc := a.renames[0]
+	dest := a.e.origin(c03Val{rc.fr, rc.call().Args()[2]}, false)
+	refParam := c03ParamOfType(a.fn, "perkeep.org/pkg/blob", "Ref")
+	rd := c03NewRender(p, c03BlobRefLeaf)
+	x := rd.expr(dest.v, nil, 0)
+	pb.expr, pb.str, pb.funcs, pb.fields = x, x.String(), rd.funcs, rd.fields
+	switch {
+	case !x.pure():
+		pb.detail = "Rename's destination is not an expression of the store and the received ref only (" + pb.str + "): readers (fetch/stat/remove) cannot compute it from the ref"
+	case refParam == nil:
+		pb.detail = "ReceiveBlob has no single blob.Ref parameter"
+	default:
+		vs := rd.leaves["REF"]
+		if len(vs) == 0 {
+			pb.detail = "Rename's destination does not depend on the received ref (" + pb.str + ")"
+			break
+		}
+		pb.ok = true
+		for _, v := range vs {
+			if !a.e.same(c03Val{a.e.frameOf(dest.fr, v), v}, c03Val{a.e.root, refParam}) {
+				pb.ok = false
+				pb.detail = "Rename's destination is computed from a ref other than the received ref parameter: the blob lands under another ref's name"
+			}
+		}
+	}
+	return pb
+}
+
+// c03IsBlobPath: v is the publishing path function applied to one blob ref.
+func c03IsBlobPath(p *Program, v ssa.Value) bool {
+	pb := c03PublishPath(p)
+	if !pb.ok {
+		return false
+	}
+	rd := c03NewRender(p, c03BlobRefLeaf)
+	x := rd.expr(v, nil, 0)
+	if x.String() != pb.str {
+		return false
+	}
+	_, one := rd.oneLeaf("REF")
+	return one
+}
+
 // ---------------------------------------------------------------------------
 // F-order
 
@@ -429,10 +493,11 @@ func c03RuleFOrder(p *Program, r *Reporter) {
 	const rule = "F-order"
 	r.Floor(rule, 7)
 	a := c03FilesAnchors(p)
+	e := a.e
 	fk := FuncKey(a.fn)
 	site := p.Pos(a.fn.Pos())
-	if a.temp == nil {
-		r.Violation(rule, fk+"#rename-source", site, fmt.Sprintf("ReceiveBlob has %d VFS.TempFile calls (want exactly 1): the blob is not staged in one temp file, so a crash can leave a torn file under its final name", a.nTemp))
+	if len(a.temps) != 1 {
+		r.Violation(rule, fk+"#rename-source", site, fmt.Sprintf("ReceiveBlob has %d VFS.TempFile calls (want exactly 1): the blob is not staged in one temp file, so a crash can leave a torn file under its final name", len(a.temps)))
 		return
 	}
 	if len(a.renames) != 1 {
@@ -440,88 +505,84 @@ func c03RuleFOrder(p *Program, r *Reporter) {
 		return
 	}
 	rc := a.renames[0]
-	ren := rc.Value()
-	rsite := p.Pos(rc.Pos())
-	args := rc.Args() // receiver, old, new
+	rsite := p.Pos(rc.call().Pos())
+	args := rc.call().Args() // receiver, old, new
 
 	// (i) source and destination
-	r.Check(a.isTmpName(args[1]), rule, fk+"#rename-source", rsite,
+	r.Check(a.isTmpName(c03Val{rc.fr, args[1]}), rule, fk+"#rename-source", rsite,
 		"Rename's source is Name() of the file returned by the TempFile call",
 		"Rename's source is not Name() of the file returned by the TempFile call: the synced bytes and the renamed file may differ")
-	refParam := c03ParamOfType(a.fn, "perkeep.org/pkg/blob", "Ref")
-	destRef, isBP := c03BlobPathOf(p, args[2])
-	okDest := isBP && refParam != nil && sameOrigin(destRef, refParam)
-	r.Check(okDest, rule, fk+"#rename-dest", rsite,
-		"Rename's destination is blobPath(<the received ref>), the function every reader opens",
-		"Rename's destination is not blobPath(<the received ref parameter>): readers (fetch/stat/remove) would look elsewhere or the blob lands under another ref's name")
+	pb := c03PublishPath(p)
+	r.Check(pb.ok, rule, fk+"#rename-dest", rsite,
+		"Rename's destination is an expression of the store and the received ref only ("+pb.str+"); F-visible decides that every reader opens the same expression of its ref",
+		pb.detail)
 
 	// (ii) writes -> Sync -> Close -> Rename, each on the success edge
-	syncs := a.tmpMethod("Sync")
-	var sync *ssa.Call
+	var sync c03Site
 	why := "no Sync() call on the temp file"
-	for _, s := range syncs {
-		ok, w := SuccessDominates(s, ren)
+	for _, s := range a.tmpMethod("Sync") {
+		ok, w := e.succDom(s, rc)
 		if ok {
 			sync = s
 			break
 		}
-		why = "Sync() at line " + fmt.Sprint(c03Line(p, s.Pos())) + ": " + w
+		why = "Sync() at line " + fmt.Sprint(c03Line(p, s.in.Pos())) + ": " + w
 	}
-	r.Check(sync != nil, rule, fk+"#sync-before-rename", rsite,
+	r.Check(sync.valid(), rule, fk+"#sync-before-rename", rsite,
 		"the Rename is on the err==nil edge of Sync() on the temp file",
 		"the Rename is not dominated by a successful Sync() of the temp file ("+why+"): after a crash the renamed .dat may be empty or torn")
 
 	writes, wrappers := a.writeSites()
 	switch {
 	case len(wrappers) > 0:
-		r.Undecided(rule, fk+"#write-before-sync", p.Pos(wrappers[0].Pos()),
-			"the temp file is wrapped into another io.Writer ("+(CallSite{a.fn, wrappers[0]}).CalleeKey()+"); writes through the wrapper are not followed")
+		r.Undecided(rule, fk+"#write-before-sync", p.Pos(wrappers[0].in.Pos()),
+			"the temp file is wrapped into another io.Writer ("+wrappers[0].call().CalleeKey()+"); writes through the wrapper are not followed")
 	case len(writes) == 0:
 		r.Violation(rule, fk+"#write-before-sync", site, "no call writes into the temp file")
-	case sync == nil:
+	case !sync.valid():
 		r.Violation(rule, fk+"#write-before-sync", site, "no successful Sync() dominates the Rename, so no write is known to be synced")
 	default:
 		bad := ""
 		for _, w := range writes {
-			if ok, wy := SuccessDominates(w, sync); !ok {
+			if ok, wy := e.succDom(w, sync); !ok {
 				bad = fmt.Sprintf("write %s at line %d is not known to have succeeded before Sync() (%s): bytes written after or without the sync can be lost while the rename survives",
-					(CallSite{a.fn, w}).CalleeKey(), c03Line(p, w.Pos()), wy)
+					w.call().CalleeKey(), c03Line(p, w.in.Pos()), wy)
 			}
 		}
-		r.Check(bad == "", rule, fk+"#write-before-sync", p.Pos(sync.Pos()),
+		r.Check(bad == "", rule, fk+"#write-before-sync", p.Pos(sync.in.Pos()),
 			fmt.Sprintf("all %d write site(s) into the temp file succeeded (err==nil edge) before Sync()", len(writes)), bad)
 	}
 
-	closes := a.tmpMethod("Close")
-	var cls *ssa.Call
+	var cls c03Site
 	why = "no Close() call on the temp file"
-	for _, c := range closes {
-		ok, w := SuccessDominates(c, ren)
+	for _, c := range a.tmpMethod("Close") {
+		ok, w := e.succDom(c, rc)
 		if ok {
 			cls = c
 			break
 		}
-		why = "Close() at line " + fmt.Sprint(c03Line(p, c.Pos())) + ": " + w
+		why = "Close() at line " + fmt.Sprint(c03Line(p, c.in.Pos())) + ": " + w
 	}
-	r.Check(cls != nil, rule, fk+"#close-before-rename", rsite,
+	r.Check(cls.valid(), rule, fk+"#close-before-rename", rsite,
 		"the Rename is on the err==nil edge of Close() on the temp file",
 		"the Rename is not dominated by a successful Close() of the temp file ("+why+"): a failed close (delayed write error) would still be published")
-	okSC := sync != nil && cls != nil && Precedes(sync, cls)
+	okSC := sync.valid() && cls.valid() && e.precedes(sync, cls)
 	r.Check(okSC, rule, fk+"#sync-before-close", rsite,
 		"Sync() precedes Close()", "Sync() does not precede Close() on the temp file: the data is closed unsynced (or Sync runs on a closed file)")
 
 	// (iv) acknowledgement only after the rename
 	bad := ""
 	n := 0
-	for _, nr := range MaybeNilErrorReturns(a.fn) {
+	for _, nr := range e.maybeNilReturns(e.root) {
 		n++
 		at := ssa.Instruction(nr.Ret)
 		if nr.From != nil && nr.From != nr.Ret.Block() {
 			at = c03Last(nr.From)
 		}
-		if !a.renameOK(at) {
-			bad = fmt.Sprintf("the return at line %d may return a nil error without the Rename having succeeded: a receive is acknowledged for a blob that is not in place", c03Line(p, nr.Ret.Pos()))
+		if a.renameOK(c03Site{e.root, at}) || c03ReturnsVerdictOf(e, rc, nr) {
+			continue
 		}
+		bad = fmt.Sprintf("the return at line %d may return a nil error without the Rename having succeeded: a receive is acknowledged for a blob that is not in place", c03Line(p, nr.Ret.Pos()))
 	}
 	if n == 0 {
 		bad = "ReceiveBlob has no return whose error may be nil"
@@ -530,27 +591,24 @@ func c03RuleFOrder(p *Program, r *Reporter) {
 		fmt.Sprintf("all %d maybe-nil-error return(s) are on the err==nil edge of the Rename", n), bad)
 }
 
-// c03BlobPathOf recognises the path of a blob's .dat file: a call of
-// (*Storage).blobPath, or its body inlined — filepath.Join(blobDirectory(ref),
-// blobFileBaseName(ref)). It returns the ref argument.
-func c03BlobPathOf(p *Program, v ssa.Value) (ref ssa.Value, ok bool) {
-	if c := c03StaticCall(v, p.Func(c03PkgFiles, "Storage", "blobPath")); c != nil && len(c.Call.Args) == 2 {
-		return c.Call.Args[1], true
+// c03ReturnsVerdictOf: the maybe-nil return nr of the root returns the error
+// of the call a itself, or of the followed helper call that leads to a and
+// whose success implies a's.
+func c03ReturnsVerdictOf(e *c03Eff, a c03Site, nr NilReturn) bool {
+	ch := a.chain()
+	xc, ok := ch[0].in.(*ssa.Call)
+	if !ok {
+		return false
 	}
-	j := c03CallIs(v, "path/filepath", "", "Join")
-	if j == nil || len(j.Call.Args) != 1 {
-		return nil, false
+	ev, has, _ := ErrValue(xc)
+	if !has || ev == nil || originValue(nr.Val) != originValue(ev) {
+		return false
 	}
-	el := c03VarargElems(j.Call.Args[0])
-	if len(el) != 2 {
-		return nil, false
+	if len(ch) == 1 {
+		return true
 	}
-	dir := c03StaticCall(el[0], p.Func(c03PkgFiles, "Storage", "blobDirectory"))
-	base := c03StaticCall(el[1], p.Func(c03PkgFiles, "", "blobFileBaseName"))
-	if dir == nil || base == nil || len(dir.Call.Args) != 2 || !sameOrigin(dir.Call.Args[1], base.Call.Args[0]) {
-		return nil, false
-	}
-	return base.Call.Args[0], true
+	ok2, _ := e.summary(ch[1:], true)
+	return ok2
 }
 
 func c03ParamOfType(fn *ssa.Function, pkgPath, name string) *ssa.Parameter {
@@ -577,81 +635,165 @@ func c03ParamOfType(fn *ssa.Function, pkgPath, name string) *ssa.Parameter {
 func ruleGTmpImpl(p *Program, r *Reporter, as string) {
 	r.Floor(as, 3)
 	a := c03FilesAnchors(p)
+	e := a.e
 	fk := FuncKey(a.fn)
 	cReg, cRem, cFlag := fk+"#cleanup-registered", fk+"#cleanup-removes-temp", fk+"#success-flag"
-	if a.temp == nil {
-		msg := fmt.Sprintf("ReceiveBlob has %d VFS.TempFile calls (want exactly 1); the temp-file cleanup cannot be located", a.nTemp)
+	if !a.temp.valid() {
+		msg := fmt.Sprintf("ReceiveBlob has %d VFS.TempFile calls (want exactly 1); the temp-file cleanup cannot be located", len(a.temps))
 		for _, c := range []string{cReg, cRem, cFlag} {
 			r.Undecided(as, c, p.Pos(a.fn.Pos()), msg)
 		}
 		return
 	}
-	isRemove := func(c CallSite) bool {
+	tsite := p.Pos(a.temp.in.Pos())
+	isRemove := func(s c03Site) bool {
+		ci, ok := s.in.(ssa.CallInstruction)
+		if !ok {
+			return false
+		}
+		c := CallSite{s.fr.fn, ci}
 		if !c.IsMethod("Remove", a.vfs) {
 			return false
 		}
 		args := c.Args()
-		return len(args) == 2 && a.isTmpName(args[1])
+		return len(args) == 2 && a.isTmpName(c03Val{s.fr, args[1]})
 	}
-	cleanupClosure := func(in ssa.Instruction) *ssa.Function {
-		d, ok := in.(*ssa.Defer)
-		if !ok {
-			return nil
-		}
-		cl := ClosureOf(CallSite{d.Parent(), d})
-		if cl == nil || len(FindCalls(cl, false, isRemove)) == 0 {
-			return nil
-		}
-		return cl
-	}
-	errVal, _, _ := ErrValue(a.temp)
-	// (a) registered before any later return
-	leaks := LeakingExits(PathQuery{
-		Start: a.temp,
-		Stop: func(in ssa.Instruction) bool {
-			if ci, ok := in.(ssa.CallInstruction); ok && isRemove(CallSite{in.Parent(), ci}) {
+	// removesOn: the frame's subtree contains a Remove of the temp file
+	var hasRemove func(fr *c03Frame) bool
+	hasRemove = func(fr *c03Frame) bool {
+		for _, c := range CallsIn(fr.fn, false) {
+			if isRemove(c03Site{fr, c.Instr}) {
 				return true
 			}
-			return cleanupClosure(in) != nil
-		},
-		Assume: func(cond ssa.Value) (bool, bool) {
-			// follow only the TempFile-succeeded edge
-			if errVal == nil {
+		}
+		for _, k := range fr.kids {
+			if hasRemove(k) {
+				return true
+			}
+		}
+		return false
+	}
+	// alwaysRemoves: every path through the helper entered by frame k passes a Remove of the temp file
+	var stopIn func(fr *c03Frame) func(ssa.Instruction) bool
+	var alwaysRemoves func(k *c03Frame, assume func(*c03Frame) func(ssa.Value) (bool, bool)) (bool, int)
+	alwaysRemoves = func(k *c03Frame, assume func(*c03Frame) func(ssa.Value) (bool, bool)) (bool, int) {
+		if len(k.fn.Blocks) == 0 || len(k.fn.Blocks[0].Instrs) == 0 {
+			return false, 0
+		}
+		q := PathQuery{Start: c03EntryMarker(k.fn), IgnorePanics: true}
+		q.Stop = func(in ssa.Instruction) bool {
+			s := c03Site{k, in}
+			if isRemove(s) {
+				return true
+			}
+			if _, isCall := in.(*ssa.Call); isCall {
+				if kk := e.kid(s); kk != nil {
+					ok, _ := alwaysRemoves(kk, assume)
+					return ok
+				}
+			}
+			return false
+		}
+		if assume != nil {
+			q.Assume = assume(k)
+		}
+		lk := LeakingExits(q)
+		if len(lk) > 0 {
+			return false, c03Line(p, lk[0].Exit.Pos())
+		}
+		return true, 0
+	}
+	// cleanupDefer: a defer statement of the root whose target removes the temp file
+	cleanupDefer := func(s c03Site) *c03Frame {
+		if _, ok := s.in.(*ssa.Defer); !ok || s.fr != e.root {
+			return nil
+		}
+		k := e.kid(s)
+		if k == nil || !hasRemove(k) {
+			return nil
+		}
+		return k
+	}
+	stopIn = func(fr *c03Frame) func(ssa.Instruction) bool {
+		return func(in ssa.Instruction) bool {
+			s := c03Site{fr, in}
+			if isRemove(s) || cleanupDefer(s) != nil {
+				return true
+			}
+			if _, isCall := in.(*ssa.Call); isCall {
+				if k := e.kid(s); k != nil {
+					ok, _ := alwaysRemoves(k, nil)
+					return ok
+				}
+			}
+			return false
+		}
+	}
+	// (a) registered before any later return: level by level up the call chain of the TempFile call
+	var lines []string
+	ch := a.temp.chain()
+	for i := len(ch) - 1; i >= 0; i-- {
+		lv := ch[i]
+		start, ok := lv.in.(*ssa.Call)
+		if !ok {
+			lines = append(lines, fmt.Sprint(c03Line(p, lv.in.Pos()))+" (TempFile is reached through a defer/go statement)")
+			break
+		}
+		errVal, _, _ := ErrValue(start)
+		fr := lv.fr
+		maybe := map[*ssa.Return]bool{}
+		for _, nr := range e.maybeNilReturns(fr) {
+			maybe[nr.Ret] = true
+		}
+		leaks := LeakingExits(PathQuery{
+			Start: start,
+			Stop:  stopIn(fr),
+			Assume: func(cond ssa.Value) (bool, bool) {
+				// follow only the succeeded edge
+				if errVal == nil {
+					return false, false
+				}
+				if k, nilWhenTrue := condSaysNil(cond, true, errVal); k {
+					return true, nilWhenTrue
+				}
 				return false, false
-			}
-			if k, nilWhenTrue := condSaysNil(cond, true, errVal); k {
-				return true, nilWhenTrue
-			}
-			return false, false
-		},
-		ExitOK:       func(exit ssa.Instruction) bool { return a.renameOK(exit) },
-		IgnorePanics: true,
-	})
-	if len(leaks) > 0 {
-		var lines []string
+			},
+			ExitOK: func(exit ssa.Instruction) bool {
+				if a.renameOK(c03Site{fr, exit}) {
+					return true
+				}
+				// a helper's success return hands the temp file to its caller (checked one level up)
+				ret, isRet := exit.(*ssa.Return)
+				return isRet && fr != e.root && (maybe[ret] || ErrResultIndex(fr.fn) < 0)
+			},
+			IgnorePanics: true,
+		})
 		for _, l := range leaks {
 			lines = append(lines, fmt.Sprint(c03Line(p, l.Exit.Pos())))
 		}
-		r.Violation(as, cReg, p.Pos(a.temp.Pos()),
+	}
+	if len(lines) > 0 {
+		r.Violation(as, cReg, tsite,
 			"after TempFile succeeded, the return(s) at line "+strings.Join(lines, ", ")+" are reached without the temp file's cleanup (deferred or explicit VFS.Remove(tmp.Name())) having been registered and without the Rename having succeeded: a failing receive leaves a *.tmp file behind")
 	} else {
-		r.OK(as, cReg, p.Pos(a.temp.Pos()), "every path from a successful TempFile to a return passes the registration of the temp file's cleanup (or a successful Rename)")
+		r.OK(as, cReg, tsite, "every path from a successful TempFile to a return passes the registration of the temp file's cleanup (or a successful Rename)")
 	}
 
 	// (b) the deferred cleanup removes the file whenever the success flag is false
-	var closures []*ssa.Function
+	var cleanups []*c03Frame
 	for _, d := range DeferredCalls(a.fn) {
-		if cl := cleanupClosure(d.Instr); cl != nil {
-			closures = append(closures, cl)
+		if k := cleanupDefer(c03Site{e.root, d.Instr}); k != nil {
+			cleanups = append(cleanups, k)
 		}
 	}
-	if len(closures) == 0 {
-		r.OKTable(as, cRem, p.Pos(a.temp.Pos()), "no deferred cleanup closure: removal is explicit on each path (decided by #cleanup-registered)")
-		r.OKTable(as, cFlag, p.Pos(a.temp.Pos()), "no success flag")
+	if len(cleanups) == 0 {
+		r.OKTable(as, cRem, tsite, "no deferred cleanup: removal is explicit on each path (decided by #cleanup-registered)")
+		r.OKTable(as, cFlag, tsite, "no success flag")
 		return
 	}
-	// flag cell: a bool variable of ReceiveBlob loaded by the closure's branch conditions
-	flagOf := func(cond ssa.Value) (cell *ssa.Alloc, negated bool) {
+	// flag cell: a bool variable of ReceiveBlob read by the cleanup's branch conditions (captured, or through a
+	// pointer parameter bound to its address)
+	flagOf := func(fr *c03Frame, cond ssa.Value) (cell *ssa.Alloc, negated bool) {
 		for {
 			if u, ok := cond.(*ssa.UnOp); ok && u.Op == token.NOT {
 				cond, negated = u.X, !negated
@@ -663,12 +805,14 @@ func ruleGTmpImpl(p *Program, r *Reporter, as string) {
 		if !ok || ld.Op != token.MUL {
 			return nil, false
 		}
-		c, ok := varOf(ld.X)
-		if !ok {
-			return nil, false
+		var al *ssa.Alloc
+		if c, ok := varOf(ld.X); ok {
+			al, _ = c.(*ssa.Alloc)
 		}
-		al, ok := c.(*ssa.Alloc)
-		if !ok || al.Parent() != a.fn || !plainVariable(al) {
+		if al == nil {
+			al, _ = e.origin(c03Val{fr, ld.X}, false).v.(*ssa.Alloc)
+		}
+		if al == nil || al.Parent() != a.fn {
 			return nil, false
 		}
 		if b, ok := al.Type().Underlying().(*types.Pointer).Elem().Underlying().(*types.Basic); !ok || b.Kind() != types.Bool {
@@ -678,69 +822,94 @@ func ruleGTmpImpl(p *Program, r *Reporter, as string) {
 	}
 	flags := map[*ssa.Alloc]bool{}
 	badRem := ""
-	for _, cl := range closures {
-		for _, rm := range FindCalls(cl, false, isRemove) {
-			for _, f := range FactsAt(rm.Block()) {
-				cell, neg := flagOf(f.Cond)
-				if cell == nil {
-					badRem = fmt.Sprintf("the cleanup's Remove at line %d is additionally conditional on something other than a success flag of ReceiveBlob", c03Line(p, rm.Pos()))
+	var inSubtree func(k *c03Frame, visit func(fr *c03Frame))
+	inSubtree = func(k *c03Frame, visit func(fr *c03Frame)) {
+		visit(k)
+		for _, kk := range k.kids {
+			inSubtree(kk, visit)
+		}
+	}
+	for _, k := range cleanups {
+		inSubtree(k, func(fr *c03Frame) {
+			for _, c := range CallsIn(fr.fn, false) {
+				rm := c03Site{fr, c.Instr}
+				if !isRemove(rm) {
 					continue
 				}
-				flagVal := f.Val != neg // value of the flag on this edge
-				if flagVal {
-					badRem = fmt.Sprintf("the cleanup's Remove at line %d runs when the flag is TRUE (inverted test): failures keep the temp file and successes log a spurious removal", c03Line(p, rm.Pos()))
+				// the conditions the Remove is under, inside the cleanup
+				for lv := rm; lv.fr != k.parent; lv = (c03Site{lv.fr.parent, lv.fr.call}) {
+					for _, f := range FactsAt(lv.in.Block()) {
+						cell, neg := flagOf(lv.fr, f.Cond)
+						if cell == nil {
+							badRem = fmt.Sprintf("the cleanup's Remove at line %d is additionally conditional on something other than a success flag of ReceiveBlob", c03Line(p, rm.in.Pos()))
+							continue
+						}
+						if f.Val != neg { // value of the flag on this edge
+							badRem = fmt.Sprintf("the cleanup's Remove at line %d runs when the flag is TRUE (inverted test): failures keep the temp file and successes log a spurious removal", c03Line(p, rm.in.Pos()))
+						}
+						flags[cell] = true
+					}
+					if lv.fr == k {
+						break
+					}
 				}
-				flags[cell] = true
 			}
-		}
-		if len(cl.Blocks) == 0 || len(cl.Blocks[0].Instrs) == 0 {
-			continue
-		}
-		lk := LeakingExits(PathQuery{
-			Start: c03EntryMarker(cl),
-			Stop: func(in ssa.Instruction) bool {
-				ci, ok := in.(ssa.CallInstruction)
-				return ok && isRemove(CallSite{in.Parent(), ci})
-			},
-			Assume: func(cond ssa.Value) (bool, bool) {
-				if cell, neg := flagOf(cond); cell != nil {
+		})
+		ok, line := alwaysRemoves(k, func(fr *c03Frame) func(ssa.Value) (bool, bool) {
+			return func(cond ssa.Value) (bool, bool) {
+				if cell, neg := flagOf(fr, cond); cell != nil {
 					return true, neg // flag is false: cond == (false != neg)
 				}
 				return false, false
-			},
-			IgnorePanics: true,
+			}
 		})
-		if len(lk) > 0 && badRem == "" {
-			badRem = fmt.Sprintf("the deferred cleanup can return (line %d) without VFS.Remove(tmp.Name()) although the success flag is false", c03Line(p, lk[0].Exit.Pos()))
+		if !ok && badRem == "" {
+			badRem = fmt.Sprintf("the deferred cleanup can return (line %d) without VFS.Remove(tmp.Name()) although the success flag is false", line)
 		}
 	}
-	r.Check(badRem == "", as, cRem, p.Pos(closures[0].Pos()),
+	csite := p.Pos(cleanups[0].fn.Pos())
+	r.Check(badRem == "", as, cRem, csite,
 		"the deferred cleanup calls VFS.Remove(tmp.Name()) on every path on which the success flag is false", badRem)
 
 	// (c) the flag becomes true only after the Rename succeeded
-	badFlag := ""
+	badFlag, undecFlag := "", ""
 	nStores := 0
 	for cell := range flags {
-		for _, st := range storesTo(cell) {
+		_, stores, esc := c03CellUses(p, cell)
+		if esc != "" {
+			undecFlag = "the address of the success flag " + esc + ": its stores cannot be enumerated"
+		}
+		for _, st := range stores {
 			nStores++
-			if c, ok := st.Val.(*ssa.Const); ok && c.Value != nil {
-				if c.Value.String() == "false" {
-					continue
-				}
-				if st.Parent() == a.fn && a.renameOK(st) {
-					continue
-				}
-				badFlag = fmt.Sprintf("the success flag is set at line %d where the Rename is not known to have succeeded: a later failure would keep the temp file", c03Line(p, st.Pos()))
-			} else {
+			c, ok := st.Val.(*ssa.Const)
+			if !ok || c.Value == nil {
 				badFlag = fmt.Sprintf("the success flag is assigned a non-constant value at line %d", c03Line(p, st.Pos()))
+				continue
+			}
+			if c.Value.String() == "false" {
+				continue
+			}
+			sites := e.sitesOf(st)
+			okAll := len(sites) > 0 && c03OnlyReachedFrom(p, st.Parent(), func(f *ssa.Function) bool { return f == a.fn }, 0)
+			for _, s := range sites {
+				if !a.renameOK(s) {
+					okAll = false
+				}
+			}
+			if !okAll {
+				badFlag = fmt.Sprintf("the success flag is set at line %d where the Rename is not known to have succeeded: a later failure would keep the temp file", c03Line(p, st.Pos()))
 			}
 		}
 	}
-	if len(flags) == 0 {
-		r.OKTable(as, cFlag, p.Pos(closures[0].Pos()), "the deferred cleanup removes unconditionally (no success flag)")
-	} else {
-		r.Check(badFlag == "", as, cFlag, p.Pos(closures[0].Pos()),
-			fmt.Sprintf("all %d store(s) to the success flag are `false` or lie on the err==nil edge of the Rename", nStores), badFlag)
+	switch {
+	case len(flags) == 0:
+		r.OKTable(as, cFlag, csite, "the deferred cleanup removes unconditionally (no success flag)")
+	case badFlag != "":
+		r.Violation(as, cFlag, csite, badFlag)
+	case undecFlag != "":
+		r.Undecided(as, cFlag, csite, undecFlag)
+	default:
+		r.OK(as, cFlag, csite, fmt.Sprintf("all %d store(s) to the success flag are `false` or lie on the err==nil edge of the Rename", nStores))
 	}
 }
 
@@ -756,9 +925,12 @@ func c03RuleFVisible(p *Program, r *Reporter) {
 	const rule = "F-visible"
 	r.Floor(rule, 13)
 	a := c03FilesAnchors(p)
-	blobPath := p.Func(c03PkgFiles, "Storage", "blobPath")
-	baseName := p.Func(c03PkgFiles, "", "blobFileBaseName")
-	readBlobs := p.Func(c03PkgFiles, "Storage", "readBlobs")
+	pb := c03PublishPath(p)
+	// the enumeration's effective body, from the interface method
+	enumFn := p.Func(c03PkgFiles, "Storage", "EnumerateBlobs")
+	ee := c03EffOf(p, enumFn)
+	isRecvRoot := func(f *ssa.Function) bool { return f == a.fn }
+	isEnumRoot := func(f *ssa.Function) bool { return f == enumFn }
 
 	// (a) every path handed to the VFS by package files
 	n := 0
@@ -780,65 +952,63 @@ func c03RuleFVisible(p *Program, r *Reporter) {
 			arg := c.Args()[1]
 			construct := FuncKey(fn) + "#VFS." + m
 			site := p.Pos(c.Pos())
+			// own temp file: in every frame of the receive path's effective body this function runs in
+			ownTemp := false
+			if a.e.has(fn) && c03OnlyReachedFrom(p, fn, isRecvRoot, 0) {
+				frames := a.e.byFn[fn]
+				if len(frames) == 0 {
+					// a function literal that is not called statically: its captured values are resolved lexically
+					for f := fn; f != nil && len(frames) == 0; f = f.Parent() {
+						frames = a.e.byFn[f]
+					}
+				}
+				ownTemp = len(frames) > 0
+				for _, fr := range frames {
+					if !a.isTmpName(c03Val{fr, arg}) {
+						ownTemp = false
+					}
+				}
+			}
 			switch {
 			case c03IsBlobPath(p, arg):
-				r.OK(rule, construct, site, "path is blobPath(ref): only a renamed-into-place .dat file is ever touched")
-			case TopFunc(fn) == a.fn && a.isTmpName(arg):
+				r.OK(rule, construct, site, "path is the publishing path expression of a blob ref ("+pb.str+"): only a renamed-into-place .dat file is ever touched")
+			case ownTemp:
 				r.OK(rule, construct, site, "receive path touching its own temp file (tmp.Name())")
-			case TopFunc(fn) == readBlobs && m == "Stat":
+			case m == "Stat" && ee.has(fn) && c03OnlyReachedFrom(p, fn, isEnumRoot, 0):
 				r.OKTable(rule, construct, site, "enumeration stat of a directory entry; entries are reported only behind the suffix test (see #send)")
 			default:
-				r.Violation(rule, construct, site, "VFS."+m+" on a path that is neither blobPath(ref) nor the receive path's own temp file: a read path could present a partially written (*.tmp) file as a blob")
+				r.Violation(rule, construct, site, "VFS."+m+" on a path that is neither the path ReceiveBlob publishes a blob under (applied to one ref) nor the receive path's own temp file: a read path could present a partially written (*.tmp) file as a blob")
 			}
 		}
 	}
 	r.Analysed("vfs_path_sites", n)
 
-	// (b) blobPath ends in blobFileBaseName(b); its format ends in the extension
+	// (b) the published path's last element has a constant format that ends in the extension
 	ext := ""
 	{
-		okB := false
-		detail := "blobPath does not return filepath.Join(..., blobFileBaseName(b))"
-		rets := Returns(blobPath)
-		if len(rets) == 1 && len(rets[0].Results) == 1 {
-			if j := c03CallIs(rets[0].Results[0], "path/filepath", "", "Join"); j != nil && len(j.Call.Args) == 1 {
-				el := c03VarargElems(j.Call.Args[0])
-				if len(el) > 0 {
-					if bn := c03StaticCall(el[len(el)-1], baseName); bn != nil && len(blobPath.Params) == 2 && sameOrigin(bn.Call.Args[0], blobPath.Params[1]) {
-						okB = true
-					}
-				}
-			}
-		}
-		r.Check(okB, rule, FuncKey(blobPath)+"#last-element", p.Pos(blobPath.Pos()), "blobPath(b) = Join(..., blobFileBaseName(b))", detail)
-
 		okE := false
-		detail = "blobFileBaseName does not return fmt.Sprintf(<constant format>, ...)"
-		rets = Returns(baseName)
-		if len(rets) == 1 && len(rets[0].Results) == 1 {
-			if sp := c03CallIs(rets[0].Results[0], "fmt", "", "Sprintf"); sp != nil {
-				if f, ok := ConstString(sp.Call.Args[0]); ok {
-					lits, _, okf := c03Format(f)
-					if okf && len(lits) > 0 {
-						ext = lits[len(lits)-1]
-					}
-					okE = ext != "" && !strings.Contains(f, "*")
-					detail = fmt.Sprintf("blobFileBaseName's format %q has no constant, non-empty extension after its last verb (or contains '*')", f)
-				}
+		detail := "the path ReceiveBlob publishes under could not be rendered (" + pb.detail + ")"
+		if pb.expr != nil {
+			last := c03LastPathElem(pb.expr)
+			detail = "the last element of the published path (" + last.String() + ") does not end in a constant: neither fmt.Sprintf(<constant format>, ...) nor ... + <constant>"
+			if tail, ok := c03TrailingConst(last); ok {
+				ext = tail
+				okE = ext != "" && !strings.Contains(ext, "*") && !strings.Contains(ext, "%")
+				detail = fmt.Sprintf("the published file name ends in the constant %q, which is not a usable extension", tail)
 			}
 		}
-		r.Check(okE, rule, FuncKey(baseName)+"#extension", p.Pos(baseName.Pos()), fmt.Sprintf("blobFileBaseName's constant format ends in the literal extension %q", ext), detail)
+		r.Check(okE, rule, FuncKey(a.fn)+"#published-extension", p.Pos(a.fn.Pos()), fmt.Sprintf("the file name ReceiveBlob publishes under has a constant format ending in the literal extension %q", ext), detail)
 	}
 
-	// (c) readBlobs: every send is behind HasSuffix(name, ext) of the name the ref is computed from
+	// (c) enumeration: every send is behind HasSuffix(name, ext) of the name the ref is computed from
 	sizedRef := p.NamedType("pkg/blob", "SizedRef")
 	type sendSite struct {
 		in  ssa.Instruction
 		val ssa.Value
 	}
 	var sends []sendSite
-	var walk func(f *ssa.Function)
-	walk = func(f *ssa.Function) {
+	efuncs := ee.funcs(true)
+	for _, f := range efuncs {
 		for _, b := range f.Blocks {
 			for _, in := range b.Instrs {
 				switch x := in.(type) {
@@ -855,54 +1025,78 @@ func c03RuleFVisible(p *Program, r *Reporter) {
 				}
 			}
 		}
-		for _, an := range f.AnonFuncs {
-			walk(an)
-		}
 	}
-	walk(readBlobs)
 	isHasSuffix := func(c CallSite) bool { return c.IsStatic("strings", "", "HasSuffix") }
+	if len(sends) == 0 {
+		r.Violation(rule, FuncKey(enumFn)+"#send", p.Pos(enumFn.Pos()), "EnumerateBlobs never sends a blob.SizedRef (the enumeration could not be located)")
+	}
 	for _, s := range sends {
 		construct := FuncKey(s.in.Parent()) + "#send"
 		site := p.Pos(s.in.Pos())
-		known, val, hs := BoolCallFact(s.in.Block(), isHasSuffix)
-		if !known || !val {
-			r.Violation(rule, construct, site, "a blob is sent to the enumeration channel without strings.HasSuffix(name, ext) known true: *.tmp files of in-flight or crashed receives would be enumerated as blobs")
-			continue
+		sites := ee.sitesOf(s.in)
+		if len(sites) == 0 {
+			sites = []c03Site{{nil, s.in}} // in a literal that is not called statically: its own facts only
 		}
-		hargs := hs.Args()
-		sfx, isConst := ConstString(hargs[1])
-		name := hargs[0]
-		switch {
-		case !isConst || sfx != ext:
-			r.Violation(rule, construct, site, fmt.Sprintf("the suffix test uses %q but blobFileBaseName writes extension %q", sfx, ext))
-		case !c03Depends(s.val, func(v ssa.Value) bool { return v == name }):
-			r.Violation(rule, construct, site, "the sent value does not derive from the name that passed the suffix test")
-		default:
-			r.OK(rule, construct, site, fmt.Sprintf("send is dominated by HasSuffix(name, %q)==true and the sent ref derives from that name", ext))
+		bad := ""
+		for _, ss := range sites {
+			var known, val bool
+			var hs c03Site
+			if ss.fr != nil {
+				known, val, hs = ee.boolCallFact(ss, isHasSuffix)
+			} else {
+				var c CallSite
+				known, val, c = BoolCallFact(s.in.Block(), isHasSuffix)
+				hs = c03Site{nil, c.Instr}
+			}
+			if !known || !val {
+				bad = "a blob is sent to the enumeration channel without strings.HasSuffix(name, ext) known true: *.tmp files of in-flight or crashed receives would be enumerated as blobs"
+				break
+			}
+			hargs := hs.in.(*ssa.Call).Call.Args
+			sfx, isConst := ConstString(ee.origin(c03Val{hs.fr, hargs[1]}, false).v)
+			name := c03Val{hs.fr, hargs[0]}
+			derives := false
+			if ss.fr != nil {
+				on := ee.origin(name, true)
+				derives = ee.depends(c03Val{ss.fr, s.val}, func(x c03Val) bool {
+					return x.v == name.v && x.fr == name.fr || x.v == on.v && x.fr == on.fr
+				})
+			} else {
+				derives = c03Depends(s.val, func(v ssa.Value) bool { return v == name.v })
+			}
+			switch {
+			case !isConst || sfx != ext:
+				bad = fmt.Sprintf("the suffix test uses %q but the published file name has extension %q", sfx, ext)
+			case !derives:
+				bad = "the sent value does not derive from the name that passed the suffix test"
+			}
 		}
+		r.Check(bad == "", rule, construct, site, fmt.Sprintf("send is dominated by HasSuffix(name, %q)==true and the sent ref derives from that name", ext), bad)
 	}
 	// TrimSuffix constants agree
 	{
 		bad := ""
 		nTrim := 0
-		for _, c := range CallsIn(readBlobs, true) {
-			if c.IsStatic("strings", "", "TrimSuffix") {
-				nTrim++
-				if s, ok := ConstString(c.Args()[1]); !ok || s != ext {
-					bad = fmt.Sprintf("readBlobs trims %q but the extension written is %q", s, ext)
+		for _, f := range efuncs {
+			for _, c := range CallsIn(f, false) {
+				if c.IsStatic("strings", "", "TrimSuffix") {
+					nTrim++
+					if s, ok := ConstString(c.Args()[1]); !ok || s != ext {
+						bad = fmt.Sprintf("the enumeration trims %q but the extension written is %q", s, ext)
+					}
 				}
 			}
 		}
-		r.Check(bad == "", rule, FuncKey(readBlobs)+"#trim-agrees", p.Pos(readBlobs.Pos()),
+		r.Check(bad == "", rule, FuncKey(enumFn)+"#trim-agrees", p.Pos(enumFn.Pos()),
 			fmt.Sprintf("%d TrimSuffix constant(s) equal the written extension %q", nTrim, ext), bad)
 	}
 
 	// (d) temp names can never satisfy the suffix test
-	if a.temp != nil {
-		args := (CallSite{a.fn, a.temp}).Args() // recv, dir, prefix
-		tail, okT := c03ConstTail(args[2])
+	if a.temp.valid() {
+		args := a.temp.call().Args() // recv, dir, prefix
+		tail, okT := c03TrailingConst(c03NewRender(p, c03BlobRefLeaf).expr(a.e.origin(c03Val{a.temp.fr, args[2]}, false).v, nil, 0))
 		construct := FuncKey(a.fn) + "#temp-prefix-tail"
-		site := p.Pos(a.temp.Pos())
+		site := p.Pos(a.temp.in.Pos())
 		switch {
 		case !okT || tail == "":
 			r.Undecided(rule, construct, site, "the TempFile prefix does not end in a non-empty constant tail: it cannot be shown that no temp name ends in the blob extension (if the variable part contained a '*', os.CreateTemp would keep what follows it as the name's tail)")
@@ -935,25 +1129,9 @@ func c03RuleFVisible(p *Program, r *Reporter) {
 	}
 }
 
-func c03IsBlobPath(p *Program, v ssa.Value) bool { _, ok := c03BlobPathOf(p, v); return ok }
-
 func c03ChanOf(t types.Type, elem *types.Named) bool {
 	ch, ok := t.Underlying().(*types.Chan)
 	return ok && types.Identical(ch.Elem(), elem)
-}
-
-// c03ConstTail returns the constant tail of a string expression: the constant
-// itself, or the constant right operand of a concatenation.
-func c03ConstTail(v ssa.Value) (string, bool) {
-	if s, ok := ConstString(v); ok {
-		return s, true
-	}
-	if b, ok := originValue(v).(*ssa.BinOp); ok && b.Op == token.ADD {
-		if s, ok := ConstString(b.Y); ok {
-			return s, true
-		}
-	}
-	return "", false
 }
 
 var c03NumVerb = regexp.MustCompile(`^%[0-9]*[xXd]$`)
@@ -1050,124 +1228,484 @@ func c03OnlyFormatted(mi *ssa.MakeInterface) bool {
 }
 
 // ---------------------------------------------------------------------------
-// D-order
+// anchors of the packed store, by role (no internal helper is looked up by name)
 
 type c03DPAnch struct {
 	p       *Program
-	append  *ssa.Function
-	recv    *ssa.Parameter
+	recvFn  *ssa.Function // ReceiveBlob of the package's blobserver.BlobReceiver: the entry point
+	e       *c03Eff       // its effective body (contains append and what append calls)
+	storeT  *types.Named  // the store type
 	kv      *types.Interface
-	set     *ssa.Call // index.Set in append (nil unless exactly one)
-	nSet    int
-	sync    []*ssa.Call // (*os.File).Sync on s.writer
-	writes  []*ssa.Call // data writes into s.writer
-	header  *ssa.Call   // the fmt.Fprintf header write with constant format
+	writerF string // the *os.File field holding the live append handle
+	sizeF   string // the int64 field the receive path advances by the written counts ("" if none)
+	sets    []c03Site
+	set     c03Site   // the index Set (valid iff exactly one)
+	sync    []c03Site // (*os.File).Sync on the live handle
+	writes  []c03Site // data writes into the live handle
+	header  c03Site   // the fmt.Fprintf header write with constant format
 	hdrFmt  string
 	hdrArgs []ssa.Value
+	// index rows
+	rowT                        *types.Named           // the row type
+	rowFile, rowOffset, rowSize string                 // its fields, by type: int, int64, uint32
+	lookups                     map[*ssa.Function]bool // functions (ref) -> (row, error) of the package
+	packPath                    string                 // rendering of the path the live handle is opened under, as a function of the pack number
 }
 
-func (d *c03DPAnch) isWriter(v ssa.Value) bool {
-	ld, ok := originValue(v).(*ssa.UnOp)
+var c03DPCache = map[*ssa.Program]*c03DPAnch{}
+
+// isWriter: v is a load of the live append handle of the store the receive runs on.
+func (d *c03DPAnch) isWriter(v c03Val) bool {
+	o := d.e.origin(v, false)
+	ld, ok := o.v.(*ssa.UnOp)
 	if !ok || ld.Op != token.MUL {
 		return false
 	}
 	fa, ok := ld.X.(*ssa.FieldAddr)
-	return ok && fieldName(fa.X.Type(), fa.Field) == "writer" && originValue(fa.X) == ssa.Value(d.recv)
+	if !ok || fieldName(fa.X.Type(), fa.Field) != d.writerF || NamedOf(fa.X.Type().Underlying().(*types.Pointer).Elem()) != d.storeT {
+		return false
+	}
+	return d.e.same(c03Val{o.fr, fa.X}, c03Val{d.e.root, d.recvFn.Params[0]})
+}
+
+// isStoreField: addr is &s.<name> of the store the receive runs on.
+func (d *c03DPAnch) isStoreField(addr c03Val, name string) bool {
+	fa, ok := addr.v.(*ssa.FieldAddr)
+	if !ok || name == "" || fieldName(fa.X.Type(), fa.Field) != name || NamedOf(fa.X.Type().Underlying().(*types.Pointer).Elem()) != d.storeT {
+		return false
+	}
+	return d.e.same(c03Val{addr.fr, fa.X}, c03Val{d.e.root, d.recvFn.Params[0]})
+}
+
+func c03IsWriterType(t types.Type) bool {
+	if _, ok := t.Underlying().(*types.Interface); ok {
+		return c03HasMethod(t, "Write")
+	}
+	return false
+}
+
+func c03PackLeaf(v ssa.Value) string {
+	if c03IsReceiverParam(v) {
+		return "RECV"
+	}
+	if b, ok := v.Type().Underlying().(*types.Basic); ok && b.Kind() == types.Int {
+		if _, isConst := v.(*ssa.Const); !isConst {
+			return "N"
+		}
+	}
+	return ""
 }
 
 func c03DPAnchors(p *Program) *c03DPAnch {
-	d := &c03DPAnch{p: p}
-	d.append = p.Func(c03PkgDP, "storage", "append")
-	d.recv = d.append.Params[0]
+	c03CacheGuard(p)
+	if d, ok := c03DPCache[p.SSA]; ok {
+		return d
+	}
+	d := &c03DPAnch{p: p, lookups: map[*ssa.Function]bool{}}
+	c03DPCache[p.SSA] = d
 	d.kv = p.Iface("pkg/sorted", "KeyValue")
-	st, _ := p.NamedType(c03PkgDP, "storage").Underlying().(*types.Struct)
-	hasWriter := false
-	for i := 0; st != nil && i < st.NumFields(); i++ {
-		if st.Field(i).Name() == "writer" {
-			hasWriter = true
-		}
-	}
-	if !hasWriter {
-		brokenf("anchor unresolved: field diskpacked.storage.writer")
-	}
-	for _, c := range CallsIn(d.append, false) {
-		v := c.Value()
-		if v == nil {
+	recvI := p.Iface("pkg/blobserver", "BlobReceiver")
+	for _, T := range p.Implementers(recvI, false) {
+		if T.Obj().Pkg() == nil || RelPkg(T.Obj().Pkg()) != c03PkgDP {
 			continue
 		}
-		if v.Call.IsInvoke() && c.IsMethod("Set", d.kv) {
-			d.nSet++
-			d.set = v
-			continue
-		}
-		if c.IsStatic("os", "File", "Sync") && d.isWriter(c.Args()[0]) {
-			d.sync = append(d.sync, v)
-			continue
-		}
-		// data writes: the writer passed as an io.Writer argument, or Write* methods on it
-		if f := c.Callee(); f != nil && funcIs(f, "os", "File", f.Name()) {
-			if d.isWriter(c.Args()[0]) && strings.HasPrefix(f.Name(), "Write") {
-				d.writes = append(d.writes, v)
+		if fn, _ := p.MethodOf(T, recvI.Method(0).Name()); fn != nil && len(fn.Blocks) > 0 {
+			if d.recvFn != nil {
+				brokenf("anchor unresolved: package diskpacked has more than one blobserver.BlobReceiver")
 			}
-			continue
+			d.recvFn, d.storeT = fn, T
 		}
-		for _, arg := range v.Call.Args {
-			if _, isMI := arg.(*ssa.MakeInterface); isMI && d.isWriter(arg) {
-				d.writes = append(d.writes, v)
-				if c.IsStatic("fmt", "", "Fprintf") {
-					if f, ok := ConstString(v.Call.Args[1]); ok && d.header == nil {
-						d.header, d.hdrFmt = v, f
-						d.hdrArgs = c03VarargElems(v.Call.Args[2])
+	}
+	if d.recvFn == nil {
+		brokenf("anchor unresolved: the blobserver.BlobReceiver of package diskpacked")
+	}
+	d.e = c03EffOf(p, d.recvFn)
+	e := d.e
+	// the live handle: the store's *os.File field (the one that is Sync'ed, when there are several)
+	st, _ := d.storeT.Underlying().(*types.Struct)
+	var fileFields []string
+	for i := 0; st != nil && i < st.NumFields(); i++ {
+		if c03IsOSFile(st.Field(i).Type()) {
+			fileFields = append(fileFields, st.Field(i).Name())
+		}
+	}
+	switch len(fileFields) {
+	case 0:
+		brokenf("anchor unresolved: the packed store has no *os.File field (live append handle)")
+	case 1:
+		d.writerF = fileFields[0]
+	default:
+		synced := map[string]bool{}
+		for _, s := range e.calls(false) {
+			if c := s.call(); s.value() != nil && c.IsStatic("os", "File", "Sync") {
+				if ld, ok := e.origin(c03Val{s.fr, c.Args()[0]}, false).v.(*ssa.UnOp); ok && ld.Op == token.MUL {
+					if fa, ok := ld.X.(*ssa.FieldAddr); ok && NamedOf(fa.X.Type().Underlying().(*types.Pointer).Elem()) == d.storeT {
+						synced[fieldName(fa.X.Type(), fa.Field)] = true
 					}
 				}
-				break
+			}
+		}
+		if len(synced) != 1 {
+			brokenf("anchor unresolved: the packed store has %d *os.File fields and %d of them are synced by ReceiveBlob", len(fileFields), len(synced))
+		}
+		for k := range synced {
+			d.writerF = k
+		}
+	}
+	for _, s := range e.calls(false) {
+		v := s.value()
+		if v == nil || e.kid(s) != nil {
+			continue
+		}
+		c := s.call()
+		if v.Call.IsInvoke() {
+			if c.IsMethod("Set", d.kv) {
+				d.sets = append(d.sets, s)
+			}
+			continue
+		}
+		if f := c.Callee(); f != nil && funcIs(f, "os", "File", f.Name()) {
+			if !d.isWriter(c03Val{s.fr, c.Args()[0]}) {
+				continue
+			}
+			switch {
+			case f.Name() == "Sync":
+				d.sync = append(d.sync, s)
+			case strings.HasPrefix(f.Name(), "Write") || f.Name() == "ReadFrom":
+				d.writes = append(d.writes, s)
+			}
+			continue
+		}
+		// the live handle passed as an io.Writer argument
+		for _, arg := range v.Call.Args {
+			_, isMI := arg.(*ssa.MakeInterface)
+			if !(isMI || c03IsWriterType(arg.Type())) || !d.isWriter(c03Val{s.fr, arg}) {
+				continue
+			}
+			d.writes = append(d.writes, s)
+			if c.IsStatic("fmt", "", "Fprintf") && !d.header.valid() {
+				if f, ok := ConstString(v.Call.Args[1]); ok {
+					d.header, d.hdrFmt = s, f
+					d.hdrArgs = c03VarargElems(v.Call.Args[2])
+				}
+			}
+			break
+		}
+	}
+	if len(d.sets) == 1 {
+		d.set = d.sets[0]
+	}
+	// the byte counter: an int64 field of the store that the receive path stores a written count into
+	for _, fr := range e.frames {
+		if fr.deferred {
+			continue
+		}
+		for _, b := range fr.fn.Blocks {
+			for _, in := range b.Instrs {
+				stI, ok := in.(*ssa.Store)
+				if !ok {
+					continue
+				}
+				fa, ok := stI.Addr.(*ssa.FieldAddr)
+				if !ok || !d.isStoreField(c03Val{fr, fa}, fieldName(fa.X.Type(), fa.Field)) {
+					continue
+				}
+				if bt, ok := fa.Type().Underlying().(*types.Pointer).Elem().Underlying().(*types.Basic); !ok || bt.Kind() != types.Int64 {
+					continue
+				}
+				if e.depends(c03Val{fr, stI.Val}, func(x c03Val) bool { return d.isWriteCount(x, true) }) {
+					name := fieldName(fa.X.Type(), fa.Field)
+					if d.sizeF != "" && d.sizeF != name {
+						brokenf("anchor unresolved: two int64 fields of the packed store (%s, %s) are advanced by written counts", d.sizeF, name)
+					}
+					d.sizeF = name
+				}
 			}
 		}
 	}
-	if d.nSet != 1 {
-		d.set = nil
+	// index rows: the package's (ref) -> (row, error) functions and the row type
+	for _, fn := range p.FuncsIn(c03PkgDP) {
+		if fn.Parent() != nil || len(fn.Blocks) == 0 {
+			continue
+		}
+		sig := fn.Signature
+		if sig.Results().Len() != 2 || !isErrorType(sig.Results().At(1).Type()) || sig.Params().Len() != 1 || !IsNamed(sig.Params().At(0).Type(), "perkeep.org/pkg/blob", "Ref") {
+			continue
+		}
+		T, ok := sig.Results().At(0).Type().(*types.Named)
+		if !ok || T.Obj().Pkg() == nil || RelPkg(T.Obj().Pkg()) != c03PkgDP {
+			continue
+		}
+		if _, isStruct := T.Underlying().(*types.Struct); !isStruct {
+			continue
+		}
+		if d.rowT != nil && d.rowT != T {
+			brokenf("anchor unresolved: package diskpacked has row lookup functions with different row types")
+		}
+		d.rowT = T
+		d.lookups[fn] = true
+	}
+	if d.rowT == nil {
+		brokenf("anchor unresolved: no function (blob.Ref) (row, error) in package diskpacked (the index row lookup)")
+	}
+	rst := d.rowT.Underlying().(*types.Struct)
+	for i := 0; i < rst.NumFields(); i++ {
+		b, ok := rst.Field(i).Type().Underlying().(*types.Basic)
+		if !ok {
+			continue
+		}
+		set := func(dst *string) {
+			if *dst != "" {
+				brokenf("anchor unresolved: the index row type has two fields of type %s", b.Name())
+			}
+			*dst = rst.Field(i).Name()
+		}
+		switch b.Kind() {
+		case types.Int:
+			set(&d.rowFile)
+		case types.Int64:
+			set(&d.rowOffset)
+		case types.Uint32:
+			set(&d.rowSize)
+		}
+	}
+	if d.rowFile == "" || d.rowOffset == "" || d.rowSize == "" {
+		brokenf("anchor unresolved: the index row type does not have one int (pack), one int64 (offset) and one uint32 (size) field")
+	}
+	// the path the live handle is opened under
+	for _, fn := range p.FuncsIn(c03PkgDP) {
+		for _, b := range fn.Blocks {
+			for _, in := range b.Instrs {
+				stI, ok := in.(*ssa.Store)
+				if !ok {
+					continue
+				}
+				fa, ok := stI.Addr.(*ssa.FieldAddr)
+				if !ok || fieldName(fa.X.Type(), fa.Field) != d.writerF || NamedOf(fa.X.Type().Underlying().(*types.Pointer).Elem()) != d.storeT {
+					continue
+				}
+				ex, ok := originValue(stI.Val).(*ssa.Extract)
+				if !ok || ex.Index != 0 {
+					continue
+				}
+				oc, ok := ex.Tuple.(*ssa.Call)
+				if !ok || !funcIs(oc.Call.StaticCallee(), "os", "", "OpenFile") {
+					continue
+				}
+				rd := c03NewRender(p, c03PackLeaf)
+				x := rd.expr(oc.Call.Args[0], nil, 0)
+				if _, one := rd.oneLeaf("N"); one && x.pure() {
+					d.packPath = x.String()
+				}
+			}
+		}
+	}
+	if d.packPath == "" {
+		brokenf("anchor unresolved: the os.OpenFile whose handle becomes the store's live append handle (the pack path as a function of the pack number)")
 	}
 	return d
 }
+
+// isPackPath: v renders as the pack path function; n is its pack-number leaf.
+func (d *c03DPAnch) isPackPath(v ssa.Value) (n ssa.Value, ok bool) {
+	rd := c03NewRender(d.p, c03PackLeaf)
+	if rd.expr(v, nil, 0).String() != d.packPath {
+		return nil, false
+	}
+	return rd.oneLeaf("N")
+}
+
+// isWriteCount: v is the byte-count result of one of the data writes into the
+// live handle (with header=false: other than the header).
+func (d *c03DPAnch) isWriteCount(v c03Val, header bool) bool {
+	o := d.e.origin(v, true)
+	ex, ok := o.v.(*ssa.Extract)
+	if !ok || ex.Index != 0 {
+		return false
+	}
+	for _, w := range d.writes {
+		if ex.Tuple == ssa.Value(w.value()) && w.fr == o.fr && (header || w != d.header) {
+			return true
+		}
+	}
+	return false
+}
+
+// rowField: v reads field name of a row value; base is the row (value or variable).
+func (d *c03DPAnch) rowField(v ssa.Value, name string) (base ssa.Value, ok bool) {
+	n, b, ok := c03FieldRead(originValue(v))
+	if !ok || n != name || NamedOf(c03Deref(b.Type())) != d.rowT {
+		return nil, false
+	}
+	return b, true
+}
+
+func c03Deref(t types.Type) types.Type {
+	if pt, ok := t.Underlying().(*types.Pointer); ok {
+		return pt.Elem()
+	}
+	return t
+}
+
+// holds: struct base (a variable whose only whole-value store is val, or val
+// itself) holds the value val, across frames.
+func (e *c03Eff) holds(base, val c03Val) bool {
+	if base.v == nil || val.v == nil {
+		return false
+	}
+	if e.same(base, val) {
+		return true
+	}
+	o := e.origin(base, false)
+	al, ok := o.v.(*ssa.Alloc)
+	if !ok {
+		return false
+	}
+	n := 0
+	okv := false
+	for _, st := range c03StoresInto(al) {
+		if st.Addr == ssa.Value(al) {
+			n++
+			okv = e.same(c03Val{o.fr, st.Val}, val)
+		}
+	}
+	return n == 1 && okv
+}
+
+// frameFor: the frame in which leaf value x of a fact known at site s lives.
+func (e *c03Eff) frameFor(s c03Site, x ssa.Value) *c03Frame {
+	fn := c03ValueFn(x)
+	if fn == nil {
+		return s.fr
+	}
+	for fr := s.fr; fr != nil; fr = fr.parent {
+		if fr.fn == fn {
+			return fr
+		}
+	}
+	if fs := e.byFn[fn]; len(fs) > 0 {
+		return fs[0]
+	}
+	return s.fr
+}
+
+// orderFacts lists, as forms F (meaning F >= 0), the integer ordering
+// comparisons known at site s (own function, call chain, followed boolean
+// helpers), each over the values of the callers (parameters substituted). A
+// condition that is a call of a module function that is not part of the
+// effective body is followed when its only return is one ordering comparison
+// of its parameters; unfollowed names the calls that could not be followed.
+func (e *c03Eff) orderFacts(s c03Site, keepForeign bool) (forms []*c03Lin, unfollowed []string) {
+	home := map[*ssa.Function]bool{}
+	for fr := s.fr; fr != nil; fr = fr.parent {
+		home[fr.fn] = true
+		for f := fr.fn.Parent(); f != nil; f = f.Parent() {
+			home[f] = true
+		}
+	}
+	foreign := func(l *c03Lin) bool {
+		if keepForeign {
+			return false
+		}
+		for i, x := range l.leaf {
+			if l.coef[i] != 0 {
+				if f := c03ValueFn(x); f != nil && !home[f] {
+					return true
+				}
+			}
+		}
+		return false
+	}
+	followedCall := map[*ssa.Call]bool{}
+	facts := e.factsAt(s)
+	for _, f := range facts {
+		if b, ok := f.cond.(*ssa.BinOp); ok {
+			if l, ok := c03OrderFact(b, f.val, e.envOf(f.fr)); ok && !foreign(l) {
+				forms = append(forms, l)
+				if f.fr != nil && f.fr.call != nil {
+					if c, ok := f.fr.call.(*ssa.Call); ok {
+						followedCall[c] = true
+					}
+				}
+			}
+		}
+	}
+	for _, f := range facts {
+		c, ok := f.cond.(*ssa.Call)
+		if !ok || followedCall[c] {
+			continue
+		}
+		if f.fr != nil && f.fr.kids[c] != nil {
+			// a followed helper none of whose conditions gave a usable form
+			if res := c.Call.Signature().Results(); res.Len() == 1 {
+				if b, ok := res.At(0).Type().Underlying().(*types.Basic); ok && b.Kind() == types.Bool {
+					unfollowed = append(unfollowed, FuncKey(f.fr.kids[c].fn))
+				}
+			}
+			continue
+		}
+		callee, env := c03CallEnv(c, e.envOf(f.fr))
+		if callee == nil {
+			continue
+		}
+		followed := false
+		if rets := Returns(callee); len(rets) == 1 && len(rets[0].Results) == 1 {
+			if b, ok := rets[0].Results[0].(*ssa.BinOp); ok {
+				if l, ok := c03OrderFact(b, f.val, env); ok && !foreign(l) {
+					forms = append(forms, l)
+					followed = true
+				}
+			}
+		}
+		if !followed {
+			unfollowed = append(unfollowed, FuncKey(callee))
+		}
+	}
+	return forms, unfollowed
+}
+
+// ---------------------------------------------------------------------------
+// D-order
 
 func c03RuleDOrder(p *Program, r *Reporter) {
 	const rule = "D-order"
 	r.Floor(rule, 7)
 	d := c03DPAnchors(p)
-	fk := FuncKey(d.append)
-	site := p.Pos(d.append.Pos())
-
-	if d.set == nil {
-		r.Violation(rule, fk+"#sync-before-index", site, fmt.Sprintf("append has %d index Set calls (want exactly 1)", d.nSet))
+	e := d.e
+	rk := FuncKey(d.recvFn)
+	if !d.set.valid() {
+		r.Violation(rule, rk+"#sync-before-index", p.Pos(d.recvFn.Pos()), fmt.Sprintf("the receive path has %d index Set calls (want exactly 1)", len(d.sets)))
 		return
 	}
-	ssite := p.Pos(d.set.Pos())
-	var sync *ssa.Call
-	why := "no (*os.File).Sync on s.writer"
+	fk := FuncKey(d.set.fr.fn)
+	site := p.Pos(d.set.fr.fn.Pos())
+	ssite := p.Pos(d.set.in.Pos())
+	var sync c03Site
+	why := "no (*os.File).Sync on the live append handle"
 	for _, s := range d.sync {
-		ok, w := SuccessDominates(s, d.set)
+		ok, w := e.succDom(s, d.set)
 		if ok {
 			sync = s
 			break
 		}
-		why = fmt.Sprintf("Sync at line %d: %s", c03Line(p, s.Pos()), w)
+		why = fmt.Sprintf("Sync at line %d: %s", c03Line(p, s.in.Pos()), w)
 	}
-	r.Check(sync != nil, rule, fk+"#sync-before-index", ssite,
+	r.Check(sync.valid(), rule, fk+"#sync-before-index", ssite,
 		"index.Set is on the err==nil edge of s.writer.Sync()",
 		"index.Set is not dominated by a successful s.writer.Sync() ("+why+"): after a crash the index may name bytes that never reached the disk")
 
 	// data writes before the sync
 	if len(d.writes) == 0 {
-		r.Violation(rule, fk+"#write-before-sync", site, "no data write into s.writer found in append")
+		r.Violation(rule, fk+"#write-before-sync", site, "no data write into the live append handle found in the receive path")
 	}
 	for _, w := range d.writes {
-		construct := fk + "#write-before-sync#" + (CallSite{d.append, w}).CalleeKey()
-		if sync == nil {
-			r.Violation(rule, construct, p.Pos(w.Pos()), "no successful Sync dominates index.Set, so this write is not known to be synced before it is indexed")
+		construct := FuncKey(w.fr.fn) + "#write-before-sync#" + w.call().CalleeKey()
+		if !sync.valid() {
+			r.Violation(rule, construct, p.Pos(w.in.Pos()), "no successful Sync dominates index.Set, so this write is not known to be synced before it is indexed")
 			continue
 		}
-		ok, wy := SuccessDominates(w, sync)
-		r.Check(ok, rule, construct, p.Pos(w.Pos()),
+		ok, wy := e.succDom(w, sync)
+		r.Check(ok, rule, construct, p.Pos(w.in.Pos()),
 			"the write succeeded (err==nil edge) before s.writer.Sync()",
 			"the write is not known to have succeeded before s.writer.Sync() ("+wy+"): unsynced or failed bytes would be indexed")
 	}
@@ -1175,88 +1713,97 @@ func c03RuleDOrder(p *Program, r *Reporter) {
 	// size equality check before the sync
 	{
 		ok := false
-		if sync != nil {
-			for _, f := range FactsAt(sync.Block()) {
-				b, isBin := f.Cond.(*ssa.BinOp)
-				if !isBin || !(b.Op == token.NEQ && !f.Val || b.Op == token.EQL && f.Val) {
+		if sync.valid() {
+			for _, f := range e.factsAt(sync) {
+				b, isBin := f.cond.(*ssa.BinOp)
+				if !isBin || !(b.Op == token.NEQ && !f.val || b.Op == token.EQL && f.val) {
 					continue
 				}
 				for _, pair := range [][2]ssa.Value{{b.X, b.Y}, {b.Y, b.X}} {
-					if c03IsWriteCount(pair[0], d) && c03Depends(pair[1], c03IsSizedRefSize) {
+					if d.isWriteCount(c03Val{f.fr, pair[0]}, false) && e.depends(c03Val{f.fr, pair[1]}, func(x c03Val) bool { return c03IsSizedRefSize(x.v) }) {
 						ok = true
 					}
 				}
 			}
 		}
 		at := site
-		if sync != nil {
-			at = p.Pos(sync.Pos())
+		if sync.valid() {
+			at = p.Pos(sync.in.Pos())
 		}
 		r.Check(ok, rule, fk+"#size-check-before-sync", at,
 			"Sync (hence index.Set) is behind `bytes written == br.Size` for the body write",
 			"no `written == br.Size` fact dominates the Sync: a short body would be indexed under a header and index row claiming br.Size bytes (the next header would be read from inside the blob)")
 	}
 
-	// ack only after the index row is written
-	{
+	// acknowledgement: every return of the entry point that may report success is behind the Set's success
+	// edge (directly, or as the verdict of the followed helper that contains the Set), or is the duplicate-ack
+	setErr, _, _ := ErrValue(d.set.value())
+	walked := map[*c03Frame]bool{}
+	nVerdict, nBehindAll := 0, 0
+	var walk func(fr *c03Frame)
+	walk = func(fr *c03Frame) {
+		if walked[fr] {
+			return
+		}
+		walked[fr] = true
+		nBehind, nDelegated := 0, 0
 		bad := ""
-		n := 0
-		setErr, _, _ := ErrValue(d.set)
-		for _, nr := range MaybeNilErrorReturns(d.append) {
-			n++
-			if setErr != nil && sameOrigin(nr.Val, setErr) {
-				continue
-			}
+		for _, nr := range e.maybeNilReturns(fr) {
 			at := ssa.Instruction(nr.Ret)
 			if nr.From != nil && nr.From != nr.Ret.Block() {
 				at = c03Last(nr.From)
 			}
-			if ok, _ := SuccessDominates(d.set, at); !ok {
-				bad = fmt.Sprintf("the return at line %d may return nil without index.Set having succeeded: an acknowledged blob would be missing from the index", c03Line(p, nr.Ret.Pos()))
+			as := c03Site{fr, at}
+			rsite := p.Pos(nr.Ret.Pos())
+			if ok, _ := e.succDom(d.set, as); ok {
+				nBehind++
+				continue
+			}
+			if fr == d.set.fr && setErr != nil && sameOrigin(nr.Val, setErr) {
+				nBehind++
+				continue
+			}
+			// the verdict of a followed helper
+			verdict := false
+			for ci, kid := range fr.kids {
+				c, ok := ci.(*ssa.Call)
+				if !ok || kid.deferred {
+					continue
+				}
+				if ev, has, _ := ErrValue(c); has && ev != nil && originValue(nr.Val) == originValue(ev) {
+					verdict = true
+					nVerdict++
+					r.OK(rule, FuncKey(fr.fn)+"#ack-is-helper-verdict", rsite, "the returned error is the result of "+FuncKey(kid.fn)+", whose success returns are decided there")
+					walk(kid)
+				}
+			}
+			if verdict {
+				nDelegated++
+				continue
+			}
+			ok, detail := c03DupAck(d, as)
+			if fr == e.root {
+				r.Check(ok, rule, FuncKey(fr.fn)+"#dup-ack", rsite,
+					"the duplicate-ack return is behind {row lookup of the received ref found, os.Stat(<pack path>(row.file)) ok, fi.Size() >= row.offset+row.size}", detail)
+			} else if !ok {
+				bad = fmt.Sprintf("the return at line %d may return nil without index.Set having succeeded (and it is not a duplicate acknowledgement: %s): an acknowledged blob would be missing from the index", c03Line(p, nr.Ret.Pos()), detail)
+			} else {
+				nBehind++
 			}
 		}
-		if n == 0 {
-			bad = "append has no maybe-nil return"
-		}
-		r.Check(bad == "", rule, fk+"#ack-after-index", ssite, fmt.Sprintf("all %d maybe-nil return(s) are on the err==nil edge of index.Set (or return its error)", n), bad)
-	}
-
-	// ReceiveBlob: duplicate acknowledgement
-	rb := p.Func(c03PkgDP, "storage", "ReceiveBlob")
-	metaFn := p.Func(c03PkgDP, "storage", "meta")
-	filenameFn := p.Func(c03PkgDP, "storage", "filename")
-	rk := FuncKey(rb)
-	var appendCalls []*ssa.Call
-	for _, c := range CallsIn(rb, false) {
-		if c.Callee() == d.append && c.Value() != nil {
-			appendCalls = append(appendCalls, c.Value())
-		}
-	}
-	nAck := 0
-	for _, nr := range MaybeNilErrorReturns(rb) {
-		fromAppend := false
-		for _, ac := range appendCalls {
-			if sameOrigin(nr.Val, ac) {
-				fromAppend = true
+		nBehindAll += nBehind
+		if fr != e.root || nBehind > 0 || bad != "" {
+			if nBehind == 0 && nDelegated == 0 && bad == "" && fr != e.root {
+				bad = FuncKey(fr.fn) + " has no return that may report success"
 			}
+			r.Check(bad == "", rule, FuncKey(fr.fn)+"#ack-after-index", ssite, fmt.Sprintf("all %d maybe-nil return(s) are on the err==nil edge of index.Set (or return its error); %d more return the verdict of a followed helper", nBehind, nDelegated), bad)
 		}
-		at := ssa.Instruction(nr.Ret)
-		if nr.From != nil && nr.From != nr.Ret.Block() {
-			at = c03Last(nr.From)
-		}
-		rsite := p.Pos(nr.Ret.Pos())
-		if fromAppend {
-			r.OK(rule, rk+"#ack-is-append-verdict", rsite, "the returned error is append's own result")
-			continue
-		}
-		nAck++
-		ok, detail := c03DupAck(p, rb, at, metaFn, filenameFn)
-		r.Check(ok, rule, rk+"#dup-ack", rsite,
-			"the duplicate-ack return is behind {meta(br) found, os.Stat(filename(m.file)) ok, fi.Size() >= m.offset+m.size}", detail)
 	}
-	if len(appendCalls) == 0 {
-		r.Violation(rule, rk+"#ack-is-append-verdict", p.Pos(rb.Pos()), "ReceiveBlob no longer calls append")
+	walk(e.root)
+	if nBehindAll == 0 {
+		r.Violation(rule, fk+"#ack-after-index", ssite, "no return of the receive path that may report success is behind the success of the index Set: its failures are not reported")
 	}
+	_ = nVerdict
 }
 
 func c03IsSizedRefSize(v ssa.Value) bool {
@@ -1269,69 +1816,57 @@ func c03IsSizedRefSize(v ssa.Value) bool {
 	return false
 }
 
-// c03IsWriteCount: v is the byte-count result of one of append's data writes
-// other than the header.
-func c03IsWriteCount(v ssa.Value, d *c03DPAnch) bool {
-	ex, ok := originValue(v).(*ssa.Extract)
-	if !ok || ex.Index != 0 {
-		return false
-	}
-	for _, w := range d.writes {
-		if ex.Tuple == ssa.Value(w) && w != d.header {
-			return true
-		}
-	}
-	return false
-}
-
-// c03DupAck checks the facts dominating the duplicate-ack return of
-// diskpacked.ReceiveBlob.
-func c03DupAck(p *Program, rb *ssa.Function, at ssa.Instruction, metaFn, filenameFn *ssa.Function) (bool, string) {
-	var meta, stat *ssa.Call
-	for _, c := range CallsIn(rb, false) {
-		v := c.Value()
+// c03DupAck checks the facts dominating a duplicate-ack return of the packed
+// store's receive path.
+func c03DupAck(d *c03DPAnch, at c03Site) (bool, string) {
+	e := d.e
+	refParam := c03ParamOfType(d.recvFn, "perkeep.org/pkg/blob", "Ref")
+	var meta, stat c03Site
+	for _, s := range e.calls(false) {
+		v := s.value()
 		if v == nil {
 			continue
 		}
-		if c.Callee() == metaFn {
-			if ok, _ := SuccessDominates(v, at); ok {
-				meta = v
+		c := s.call()
+		if f := c.Callee(); f != nil && d.lookups[f] {
+			if ok, _ := e.succDom(s, at); ok && refParam != nil && e.same(c03Val{s.fr, v.Call.Args[len(v.Call.Args)-1]}, c03Val{e.root, refParam}) {
+				meta = s
 			}
 		}
 		if c.IsStatic("os", "", "Stat") || c.IsStatic("os", "", "Lstat") {
-			if ok, _ := SuccessDominates(v, at); ok {
-				stat = v
+			if ok, _ := e.succDom(s, at); ok {
+				stat = s
 			}
 		}
 	}
-	if meta == nil {
-		return false, "a nil-error return that is not append's verdict is not behind a successful meta(br) lookup: a blob absent from the index would be acknowledged without being stored"
+	if !meta.valid() {
+		return false, "a nil-error return that is not the index writer's verdict is not behind a successful index row lookup of the received ref: a blob absent from the index would be acknowledged without being stored"
 	}
-	m := ResultValue(meta, 0)
-	if stat == nil {
+	m := c03Val{meta.fr, ResultValue(meta.value(), 0)}
+	if !stat.valid() {
 		return false, "the duplicate-ack return is not behind a successful os.Stat of the pack file: a duplicate would be acknowledged although its pack file is gone"
 	}
-	// stat'ed file is filename(m.file)
-	fnc := c03StaticCall(stat.Call.Args[0], filenameFn)
+	// stat'ed file is <pack path>(m.file)
 	okFile := false
-	if fnc != nil {
-		if name, base, ok := c03FieldRead(originValue(fnc.Call.Args[1])); ok && name == "file" && c03Holds(base, m) {
+	sp := e.origin(c03Val{stat.fr, stat.value().Call.Args[0]}, false)
+	if n, ok := d.isPackPath(sp.v); ok {
+		if base, ok := d.rowField(n, d.rowFile); ok && e.holds(c03Val{e.frameOf(sp.fr, base), base}, m) {
 			okFile = true
 		}
 	}
 	if !okFile {
-		return false, "the stat'ed path is not filename(m.file) of the looked-up row"
+		return false, "the stat'ed path is not the pack path of the looked-up row's pack number (row." + d.rowFile + ")"
 	}
-	fi := ResultValue(stat, 0)
-	isSize := func(v ssa.Value) bool {
-		c, ok := originValue(v).(*ssa.Call)
-		return ok && c.Call.IsInvoke() && c.Call.Method.Name() == "Size" && fi != nil && sameOrigin(c.Call.Value, fi)
+	fi := c03Val{stat.fr, ResultValue(stat.value(), 0)}
+	isSize := func(x ssa.Value) bool {
+		c, ok := originValue(x).(*ssa.Call)
+		return ok && c.Call.IsInvoke() && c.Call.Method.Name() == "Size" && fi.v != nil && e.same(c03Val{e.frameFor(at, c), c.Call.Value}, fi)
 	}
 	// Every dominating ordering comparison that mentions fi.Size(), as a linear
 	// form F >= 0 (so that `fi.Size()-m.offset >= int64(m.size)`, an extent kept
 	// in a local, a negated `<` … are all the same fact). Required:
 	// F = fi.Size() - m.offset - m.size + k with k <= 0 and nothing else.
-	forms, unfollowed := c03OrderFacts(at.Block())
+	forms, unfollowed := e.orderFacts(at, true)
 	var bad []string
 	for _, f := range forms {
 		var cSize, cOff, cLen int64
@@ -1345,12 +1880,12 @@ func c03DupAck(p *Program, rb *ssa.Function, at ssa.Instruction, metaFn, filenam
 				cSize += c
 				continue
 			}
-			if name, base, ok := c03FieldRead(x); ok && c03Holds(base, m) && (name == "offset" || name == "size") {
-				if name == "offset" {
-					cOff += c
-				} else {
-					cLen += c
-				}
+			if base, ok := d.rowField(x, d.rowOffset); ok && e.holds(c03Val{e.frameFor(at, x), base}, m) {
+				cOff += c
+				continue
+			}
+			if base, ok := d.rowField(x, d.rowSize); ok && e.holds(c03Val{e.frameFor(at, x), base}, m) {
+				cLen += c
 				continue
 			}
 			other = append(other, c03LeafName(x))
@@ -1365,7 +1900,7 @@ func c03DupAck(p *Program, rb *ssa.Function, at ssa.Instruction, metaFn, filenam
 		case cSize < 0:
 			bad = append(bad, fmt.Sprintf("the comparison between the pack file's size and the indexed extent does not imply size >= offset+size (known here: %s >= 0)", f))
 		case len(other) > 0 || cSize != 1 || cOff > 0 || cLen > 0 || cOff < -1 || cLen < -1:
-			bad = append(bad, fmt.Sprintf("the quantity compared with the pack file's size is not the row's extent m.offset+m.size (known here: %s >= 0)", f))
+			bad = append(bad, fmt.Sprintf("the quantity compared with the pack file's size is not the row's extent offset+size (known here: %s >= 0)", f))
 		case cOff == 0 || cLen == 0:
 			bad = append(bad, fmt.Sprintf("the extent compared with the pack file's size omits the row's %s (known here: %s >= 0): a duplicate whose body was cut by a crash is acknowledged without being re-appended", map[bool]string{true: "offset", false: "size"}[cOff == 0], f))
 		default:
@@ -1376,36 +1911,138 @@ func c03DupAck(p *Program, rb *ssa.Function, at ssa.Instruction, metaFn, filenam
 		return false, strings.Join(bad, "; ")
 	}
 	if len(unfollowed) > 0 {
-		return false, "the duplicate-ack return is guarded by a call the rule cannot follow (" + strings.Join(unfollowed, ", ") + "); `fi.Size() >= m.offset+m.size` is not established"
+		return false, "the duplicate-ack return is guarded by a call the rule cannot follow (" + strings.Join(unfollowed, ", ") + "); `fi.Size() >= row.offset+row.size` is not established"
 	}
-	return false, "the duplicate-ack return is not behind `fi.Size() >= m.offset+m.size`: after a crash that lost the tail of the pack, a re-upload of the lost blob would be acknowledged without re-appending it"
+	return false, "the duplicate-ack return is not behind `fi.Size() >= row.offset+row.size`: after a crash that lost the tail of the pack, a re-upload of the lost blob would be acknowledged without re-appending it"
 }
 
 // ---------------------------------------------------------------------------
 // D-reindex-agreement
 
+// c03ClimbUnit returns the effective body of the smallest "unit" around f0 that
+// satisfies complete: f0 itself, or — while it does not — the one function that
+// statically calls it (a block of f0's former caller may have been extracted
+// into f0). At most 3 steps; when no unit is complete, f0's own body.
+func c03ClimbUnit(p *Program, f0 *ssa.Function, complete func(e *c03Eff) bool) *c03Eff {
+	u := TopFunc(f0)
+	first := c03EffOf(p, u)
+	e := first
+	for i := 0; i < 3 && !complete(e); i++ {
+		if len(p.FuncValueUses(u)) > 0 || c03InvokeCount(p, u) > 0 {
+			return first
+		}
+		var up *ssa.Function
+		for _, cs := range p.StaticCallers(u) {
+			t := TopFunc(cs.Fn)
+			if t == u {
+				continue
+			}
+			if up != nil && up != t {
+				return first
+			}
+			up = t
+		}
+		if up == nil {
+			return first
+		}
+		u = up
+		e = c03EffOf(p, u)
+	}
+	if !complete(e) {
+		return first
+	}
+	return e
+}
+
+// c03HeaderRoles is what a header-reading unit does with the header's bytes.
+type c03HeaderRoles struct {
+	byteCmp    map[int64]bool
+	slices     []int64
+	indexBytes []int64
+	okSize     bool
+	sizeDetail string
+	nSize      int
+}
+
+func c03HeaderRolesOf(e *c03Eff, bits int) *c03HeaderRoles {
+	h := &c03HeaderRoles{byteCmp: map[int64]bool{}, okSize: true}
+	for _, fn := range e.funcs(true) {
+		for _, b := range fn.Blocks {
+			for _, in := range b.Instrs {
+				if bo, ok := in.(*ssa.BinOp); ok && (bo.Op == token.EQL || bo.Op == token.NEQ) {
+					for _, pair := range [][2]ssa.Value{{bo.X, bo.Y}, {bo.Y, bo.X}} {
+						if bt, ok := pair[0].Type().Underlying().(*types.Basic); ok && bt.Kind() == types.Uint8 {
+							if c, ok := ConstInt(pair[1]); ok {
+								h.byteCmp[c] = true
+							}
+						}
+					}
+				}
+			}
+		}
+		for _, c := range CallsIn(fn, false) {
+			switch {
+			case c.IsStatic("bufio", "Reader", "ReadSlice"):
+				if v, ok := ConstInt(c.Args()[1]); ok {
+					h.slices = append(h.slices, v)
+				}
+			case c.IsStatic("bytes", "", "IndexByte"):
+				if v, ok := ConstInt(c.Args()[1]); ok {
+					h.indexBytes = append(h.indexBytes, v)
+				}
+			case c.IsStatic("strconv", "", "ParseUint") || c.IsStatic("go4.org/strutil", "", "ParseUintBytes"):
+				h.nSize++
+				base, ok1 := ConstInt(c.Args()[1])
+				bs, ok2 := ConstInt(c.Args()[2])
+				if !ok1 || !ok2 || base != 10 || int(bs) != bits {
+					h.okSize, h.sizeDetail = false, fmt.Sprintf("parses the size with base %d / %d bits but the writer prints base 10 from a %d-bit unsigned", base, bs, bits)
+				}
+			case c.IsStatic("strconv", "", "ParseInt") || c.IsStatic("strconv", "", "Atoi"):
+				h.nSize++
+				h.okSize, h.sizeDetail = false, "parses the size as a signed integer; the writer prints an unsigned one"
+			case c.IsStatic("strconv", "", "FormatUint"):
+				h.nSize++
+				if base, ok := ConstInt(c.Args()[1]); !ok || base != 10 {
+					h.okSize, h.sizeDetail = false, "formats the size in a base other than 10"
+				}
+			}
+		}
+	}
+	return h
+}
+
+func c03IsSizeCodecCall(c CallSite) bool {
+	return c.IsStatic("strconv", "", "ParseUint") || c.IsStatic("go4.org/strutil", "", "ParseUintBytes") ||
+		c.IsStatic("strconv", "", "ParseInt") || c.IsStatic("strconv", "", "Atoi") || c.IsStatic("strconv", "", "FormatUint")
+}
+
 func c03RuleDAgreement(p *Program, r *Reporter) {
 	const rule = "D-reindex-agreement"
 	r.Floor(rule, 18)
 	d := c03DPAnchors(p)
-	fk := FuncKey(d.append)
+	e := d.e
+	fk := FuncKey(d.recvFn)
+	if d.header.valid() {
+		fk = FuncKey(d.header.fr.fn)
+	}
 
 	// writer side
 	var open, sep, cls int64 = -1, -1, -1
 	bits := 0
 	nLit := 0
 	okW := false
-	detail := "append has no fmt.Fprintf(s.writer, <constant format>, ...) header write"
-	if d.header != nil {
+	detail := "the receive path has no fmt.Fprintf(<live handle>, <constant format>, ...) header write"
+	if d.header.valid() {
 		lits, verbs, ok := c03Format(d.hdrFmt)
 		detail = fmt.Sprintf("header format %q is not <1 byte><verb><1 byte><verb><1 byte>", d.hdrFmt)
 		if ok && len(verbs) == 2 && len(lits) == 3 && len(lits[0]) == 1 && len(lits[1]) == 1 && len(lits[2]) == 1 && len(d.hdrArgs) == 2 {
 			open, sep, cls = int64(lits[0][0]), int64(lits[1][0]), int64(lits[2][0])
 			nLit = 3
-			a0, a1 := originValue(d.hdrArgs[0]), originValue(d.hdrArgs[1])
+			a0 := e.origin(c03Val{d.header.fr, d.hdrArgs[0]}, false).v
+			a1 := originValue(d.hdrArgs[1])
 			detail = "header arguments are not (blob.Ref.String(), <unsigned integer size>) printed with %v/%s and %v/%d"
 			if c03CallIs(a0, "perkeep.org/pkg/blob", "Ref", "String") != nil && (verbs[0] == "v" || verbs[0] == "s") && (verbs[1] == "v" || verbs[1] == "d") {
-				if b, ok := a1.Type().Underlying().(*types.Basic); ok && b.Info()&types.IsUnsigned != 0 && c03Depends(a1, c03IsSizedRefSize) {
+				if b, ok := a1.Type().Underlying().(*types.Basic); ok && b.Info()&types.IsUnsigned != 0 && e.depends(c03Val{d.header.fr, a1}, func(x c03Val) bool { return c03IsSizedRefSize(x.v) }) {
 					switch b.Kind() {
 					case types.Uint8:
 						bits = 8
@@ -1421,9 +2058,9 @@ func c03RuleDAgreement(p *Program, r *Reporter) {
 			}
 		}
 	}
-	hsite := p.Pos(d.append.Pos())
-	if d.header != nil {
-		hsite = p.Pos(d.header.Pos())
+	hsite := p.Pos(d.recvFn.Pos())
+	if d.header.valid() {
+		hsite = p.Pos(d.header.in.Pos())
 	}
 	r.Check(okW, rule, fk+"#header-writer", hsite,
 		fmt.Sprintf("header = %q ref %q size(base 10, %d-bit unsigned, = br.Size) %q", string(rune(open)), string(rune(sep)), bits, string(rune(cls))), detail)
@@ -1431,69 +2068,42 @@ func c03RuleDAgreement(p *Program, r *Reporter) {
 		return
 	}
 
-	// reader side
-	type reader struct {
-		fn       *ssa.Function
-		useSlice bool // close delimiter is a ReadSlice argument
-	}
-	readers := []reader{
-		{p.Func(c03PkgDP, "storage", "walkPack"), true},
-		{p.Func(c03PkgDP, "", "readHeader"), true},
-		{p.Func(c03PkgDP, "storage", "delete"), false},
-	}
-	for _, rd := range readers {
-		k := FuncKey(rd.fn)
-		site := p.Pos(rd.fn.Pos())
-		byteCmp := map[int64]bool{}
-		for _, b := range rd.fn.Blocks {
-			for _, in := range b.Instrs {
-				if bo, ok := in.(*ssa.BinOp); ok && (bo.Op == token.EQL || bo.Op == token.NEQ) {
-					for _, pair := range [][2]ssa.Value{{bo.X, bo.Y}, {bo.Y, bo.X}} {
-						if bt, ok := pair[0].Type().Underlying().(*types.Basic); ok && bt.Kind() == types.Uint8 {
-							if c, ok := ConstInt(pair[1]); ok {
-								byteCmp[c] = true
-							}
-						}
-					}
-				}
+	// reader side: every unit of the package that parses or formats a header size
+	complete := func(u *c03Eff) bool {
+		h := c03HeaderRolesOf(u, bits)
+		okSep := false
+		for _, v := range h.indexBytes {
+			if v == sep {
+				okSep = true
 			}
 		}
-		var slices, indexBytes []int64
-		okSize, sizeDetail, nSize := true, "", 0
-		for _, c := range CallsIn(rd.fn, false) {
-			switch {
-			case c.IsStatic("bufio", "Reader", "ReadSlice"):
-				if v, ok := ConstInt(c.Args()[1]); ok {
-					slices = append(slices, v)
-				}
-			case c.IsStatic("bytes", "", "IndexByte"):
-				if v, ok := ConstInt(c.Args()[1]); ok {
-					indexBytes = append(indexBytes, v)
-				}
-			case c.IsStatic("strconv", "", "ParseUint") || c.IsStatic("go4.org/strutil", "", "ParseUintBytes"):
-				nSize++
-				base, ok1 := ConstInt(c.Args()[1])
-				bs, ok2 := ConstInt(c.Args()[2])
-				if !ok1 || !ok2 || base != 10 || int(bs) != bits {
-					okSize, sizeDetail = false, fmt.Sprintf("parses the size with base %d / %d bits but the writer prints base 10 from a %d-bit unsigned", base, bs, bits)
-				}
-			case c.IsStatic("strconv", "", "ParseInt") || c.IsStatic("strconv", "", "Atoi"):
-				nSize++
-				okSize, sizeDetail = false, "parses the size as a signed integer; the writer prints an unsigned one"
-			case c.IsStatic("strconv", "", "FormatUint"):
-				nSize++
-				if base, ok := ConstInt(c.Args()[1]); !ok || base != 10 {
-					okSize, sizeDetail = false, "formats the size in a base other than 10"
-				}
+		return h.byteCmp[open] && (len(h.slices) > 0 || h.byteCmp[cls]) && okSep
+	}
+	var units []*c03Eff
+	seenUnit := map[*ssa.Function]bool{}
+	for _, fn := range p.FuncsIn(c03PkgDP) {
+		for _, c := range CallsIn(fn, false) {
+			if !c03IsSizeCodecCall(c) {
+				continue
+			}
+			u := c03ClimbUnit(p, fn, complete)
+			if !seenUnit[u.root.fn] {
+				seenUnit[u.root.fn] = true
+				units = append(units, u)
 			}
 		}
-		r.Check(byteCmp[open], rule, k+"#open-delimiter", site,
+	}
+	for _, u := range units {
+		k := FuncKey(u.root.fn)
+		site := p.Pos(u.root.fn.Pos())
+		h := c03HeaderRolesOf(u, bits)
+		r.Check(h.byteCmp[open], rule, k+"#open-delimiter", site,
 			fmt.Sprintf("compares a header byte with %q, the writer's opening delimiter", string(rune(open))),
 			fmt.Sprintf("no byte comparison with the writer's opening delimiter %q", string(rune(open))))
-		okClose := byteCmp[cls]
-		if rd.useSlice {
-			okClose = len(slices) > 0
-			for _, s := range slices {
+		okClose := h.byteCmp[cls]
+		if len(h.slices) > 0 {
+			okClose = true
+			for _, s := range h.slices {
 				if s != cls {
 					okClose = false
 				}
@@ -1503,7 +2113,7 @@ func c03RuleDAgreement(p *Program, r *Reporter) {
 			fmt.Sprintf("reads up to / compares with %q, the writer's closing delimiter", string(rune(cls))),
 			fmt.Sprintf("does not delimit the header with the writer's closing delimiter %q", string(rune(cls))))
 		okSep := false
-		for _, v := range indexBytes {
+		for _, v := range h.indexBytes {
 			if v == sep {
 				okSep = true
 			}
@@ -1511,88 +2121,246 @@ func c03RuleDAgreement(p *Program, r *Reporter) {
 		r.Check(okSep, rule, k+"#separator", site,
 			fmt.Sprintf("splits ref and size at %q, the writer's separator", string(rune(sep))),
 			fmt.Sprintf("does not split the header at the writer's separator %q", string(rune(sep))))
-		if nSize == 0 {
+		okSize, sizeDetail := h.okSize, h.sizeDetail
+		if h.nSize == 0 {
 			okSize, sizeDetail = false, "no size parse/format call found"
 		}
 		r.Check(okSize, rule, k+"#size-codec", site,
 			fmt.Sprintf("size is read as base-10 %d-bit unsigned, as written", bits), sizeDetail)
 	}
+	if len(units) == 0 {
+		r.Violation(rule, c03PkgDP+"#size-codec", p.Pos(d.recvFn.Pos()), "no function of package diskpacked parses a pack header's size")
+	}
 
-	// delete's walk-back length counts the literal bytes of the format
-	del := readers[2].fn
+	// the walk-back length of the in-place header rewrite counts the literal bytes of the format
+	var del *c03Eff
 	{
 		ok := false
-		detail := "delete's header length is not <consts> + len(ref.String()) + len(FormatUint(size, 10))"
-		for _, c := range CallsIn(del, false) {
-			if !c.IsStatic("strconv", "", "FormatUint") || c.Value() == nil {
-				continue
-			}
-			// len(FormatUint(...)) and the root of the addition tree it is a leaf of
-			for _, u := range *c.Value().Referrers() {
-				ln, isLen := u.(*ssa.Call)
-				if !isLen {
+		detail := "no header length of the form <consts> + len(ref.String()) + len(FormatUint(size, 10)) found in package diskpacked"
+		var at *ssa.Function
+		for _, fn := range p.FuncsIn(c03PkgDP) {
+			for _, c := range CallsIn(fn, false) {
+				if !c.IsStatic("strconv", "", "FormatUint") || c.Value() == nil || c.Value().Referrers() == nil {
 					continue
 				}
-				if b, isB := ln.Call.Value.(*ssa.Builtin); !isB || b.Name() != "len" {
-					continue
-				}
-				root := ssa.Value(ln)
-				for {
-					var up ssa.Value
-					for _, uu := range *root.Referrers() {
-						if bo, ok := uu.(*ssa.BinOp); ok && bo.Op == token.ADD {
-							up = bo
-						}
-					}
-					if up == nil {
-						break
-					}
-					root = up
-				}
-				var consts int64
-				nRef, nNum, other := 0, 0, 0
-				for _, l := range c03AddLeaves(root) {
-					if v, ok := ConstInt(l); ok {
-						consts += v
+				// len(FormatUint(...)) and the root of the addition tree it is a leaf of
+				for _, u := range *c.Value().Referrers() {
+					ln, isLen := u.(*ssa.Call)
+					if !isLen {
 						continue
 					}
-					lc, ok := l.(*ssa.Call)
-					if ok {
-						if b, isB := lc.Call.Value.(*ssa.Builtin); isB && b.Name() == "len" {
-							if c03CallIs(lc.Call.Args[0], "perkeep.org/pkg/blob", "Ref", "String") != nil {
-								nRef++
-								continue
-							}
-							if c03CallIs(lc.Call.Args[0], "strconv", "", "FormatUint") != nil {
-								nNum++
-								continue
+					if b, isB := ln.Call.Value.(*ssa.Builtin); !isB || b.Name() != "len" {
+						continue
+					}
+					root := ssa.Value(ln)
+					for {
+						var up ssa.Value
+						for _, uu := range *root.Referrers() {
+							if bo, ok := uu.(*ssa.BinOp); ok && bo.Op == token.ADD {
+								up = bo
 							}
 						}
+						if up == nil {
+							break
+						}
+						root = up
 					}
-					other++
-				}
-				if nRef == 1 && nNum == 1 && other == 0 {
-					ok = consts == int64(nLit)
-					detail = fmt.Sprintf("delete walks back %d literal bytes + len(ref) + len(size) but the header format has %d literal bytes", consts, nLit)
+					var consts int64
+					nRef, nNum, other := 0, 0, 0
+					for _, l := range c03AddLeaves(root) {
+						if v, ok := ConstInt(l); ok {
+							consts += v
+							continue
+						}
+						if lc, ok := l.(*ssa.Call); ok {
+							if b, isB := lc.Call.Value.(*ssa.Builtin); isB && b.Name() == "len" {
+								if c03CallIs(lc.Call.Args[0], "perkeep.org/pkg/blob", "Ref", "String") != nil {
+									nRef++
+									continue
+								}
+								if c03CallIs(lc.Call.Args[0], "strconv", "", "FormatUint") != nil {
+									nNum++
+									continue
+								}
+							}
+						}
+						other++
+					}
+					if nRef == 1 && nNum == 1 && other == 0 {
+						at = fn
+						ok = consts == int64(nLit)
+						detail = fmt.Sprintf("the header rewrite walks back %d literal bytes + len(ref) + len(size) but the header format has %d literal bytes", consts, nLit)
+					}
 				}
 			}
 		}
-		r.Check(ok, rule, FuncKey(del)+"#walk-back-length", p.Pos(del.Pos()),
-			fmt.Sprintf("delete walks back %d delimiter bytes + len(ref.String()) + len(decimal size): exactly the header append writes", nLit), detail)
+		construct, site := c03PkgDP+"#walk-back-length", p.Pos(d.recvFn.Pos())
+		if at != nil {
+			del = c03ClimbUnit(p, at, complete)
+			construct, site = FuncKey(del.root.fn)+"#walk-back-length", p.Pos(del.root.fn.Pos())
+		}
+		r.Check(ok, rule, construct, site,
+			fmt.Sprintf("the header rewrite walks back %d delimiter bytes + len(ref.String()) + len(decimal size): exactly the header the receive path writes", nLit), detail)
 	}
 
 	// deleted marker
-	c03DeletedMarker(p, r, rule, del)
+	c03DeletedMarker(p, r, rule, d, del, sep)
 
 	// index row codec
 	c03RowCodec(p, r, rule, d)
 }
 
-func c03DeletedMarker(p *Program, r *Reporter, rule string, del *ssa.Function) {
-	// the regexp
-	var pat string
-	havePat := false
-	var global *ssa.Global
+// c03IndexStart: the first value an index variable takes in its loop: a phi
+// with one constant incoming edge, possibly plus a constant (range over a slice
+// counts from -1 and adds 1).
+func c03IndexStart(idx ssa.Value) (int64, bool) {
+	switch x := idx.(type) {
+	case *ssa.Phi:
+		var start int64
+		n := 0
+		for _, e := range x.Edges {
+			if c, ok := ConstInt(e); ok {
+				start = c
+				n++
+			}
+		}
+		return start, n == 1
+	case *ssa.BinOp:
+		if x.Op == token.ADD {
+			if k, ok := ConstInt(x.Y); ok {
+				if s, ok := c03IndexStart(x.X); ok {
+					return s + k, true
+				}
+			}
+			if k, ok := ConstInt(x.X); ok {
+				if s, ok := c03IndexStart(x.Y); ok {
+					return s + k, true
+				}
+			}
+		}
+	case *ssa.Convert:
+		return c03IndexStart(x.X)
+	}
+	return 0, false
+}
+
+// c03SliceBase: the slice value v is a window into, and the constant offset of
+// that window (ok=false when a non-constant low bound intervenes).
+func c03SliceBase(v ssa.Value) (root ssa.Value, off int64, ok bool) {
+	ok = true
+	for i := 0; i < 16; i++ {
+		v = originValue(v)
+		sl, isSl := v.(*ssa.Slice)
+		if !isSl {
+			return v, off, ok
+		}
+		if _, isSlice := sl.X.Type().Underlying().(*types.Slice); !isSlice {
+			return v, off, ok
+		}
+		if sl.Low != nil {
+			if c, isC := ConstInt(sl.Low); isC {
+				off += c
+			} else {
+				ok = false
+			}
+		}
+		v = sl.X
+	}
+	return v, off, false
+}
+
+// c03PackWalkers: the functions of the package that take a walker callback
+// (…, offset int64, size uint32) — the pack walk used by reindexing — with the
+// callback's parameter and the positions of offset and size in its signature.
+type c03Walker struct {
+	fn              *ssa.Function
+	walker          *ssa.Parameter
+	offIdx, sizeIdx int
+}
+
+func c03PackWalkers(p *Program) []c03Walker {
+	// candidates: a callback parameter of that shape that is called in the function's effective body,
+	// which also parses a header's size (so it is the walk, not a helper that only reports an entry)
+	var cand []c03Walker
+	for _, fn := range p.FuncsIn(c03PkgDP) {
+		if fn.Parent() != nil || len(fn.Blocks) == 0 {
+			continue
+		}
+		for _, prm := range fn.Params {
+			sig, ok := prm.Type().Underlying().(*types.Signature)
+			if !ok {
+				continue
+			}
+			offIdx, sizeIdx, nOff, nSize, hasRef := -1, -1, 0, 0, false
+			for i := 0; i < sig.Params().Len(); i++ {
+				t := sig.Params().At(i).Type()
+				if IsNamed(t, "perkeep.org/pkg/blob", "Ref") {
+					hasRef = true
+				}
+				if b, ok := t.Underlying().(*types.Basic); ok {
+					switch b.Kind() {
+					case types.Int64:
+						offIdx = i
+						nOff++
+					case types.Uint32:
+						sizeIdx = i
+						nSize++
+					}
+				}
+			}
+			if !hasRef || nOff != 1 || nSize != 1 {
+				continue
+			}
+			e := c03EffOf(p, fn)
+			calls, parses := false, false
+			for _, s := range e.calls(false) {
+				c := s.call()
+				if !c.Common().IsInvoke() && e.kid(s) == nil && e.origin(c03Val{s.fr, c.Common().Value}, false).v == ssa.Value(prm) {
+					calls = true
+				}
+				if c.IsStatic("strconv", "", "ParseUint") || c.IsStatic("go4.org/strutil", "", "ParseUintBytes") || c.IsStatic("strconv", "", "ParseInt") || c.IsStatic("strconv", "", "Atoi") {
+					parses = true
+				}
+			}
+			if calls && parses {
+				cand = append(cand, c03Walker{fn, prm, offIdx, sizeIdx})
+			}
+		}
+	}
+	// the innermost ones: a function that merely forwards its callback to another candidate is not the walk
+	var out []c03Walker
+	for _, w := range cand {
+		inner := false
+		for _, v := range cand {
+			if v.fn != w.fn && len(c03EffOf(p, w.fn).byFn[v.fn]) > 0 {
+				inner = true
+			}
+		}
+		if !inner {
+			out = append(out, w)
+		}
+	}
+	return out
+}
+
+// c03Streamer: StreamBlobs of the packed store (blobserver.BlobStreamer).
+func c03Streamer(p *Program, d *c03DPAnch) *ssa.Function {
+	si := p.Iface("pkg/blobserver", "BlobStreamer")
+	fn, _ := p.MethodOf(d.storeT, si.Method(0).Name())
+	if fn == nil || len(fn.Blocks) == 0 {
+		brokenf("anchor unresolved: %s of the packed store", si.Method(0).Name())
+	}
+	return fn
+}
+
+func c03DeletedMarker(p *Program, r *Reporter, rule string, d *c03DPAnch, del *c03Eff, sep int64) {
+	// the marker regexp, by role: the package-level *regexp.Regexp the pack streamer matches header refs against
+	type reGlobal struct {
+		g       *ssa.Global
+		pat     string
+		havePat bool
+	}
+	globals := map[*ssa.Global]*reGlobal{}
 	for _, fn := range p.FuncsIn(c03PkgDP) {
 		if fn.Name() != "init" || fn.Parent() != nil {
 			continue
@@ -1604,111 +2372,199 @@ func c03DeletedMarker(p *Program, r *Reporter, rule string, del *ssa.Function) {
 					continue
 				}
 				g, ok := st.Addr.(*ssa.Global)
-				if !ok || g.Name() != "deletedBlobRef" {
+				if !ok || !IsNamed(c03Deref(g.Type()), "regexp", "Regexp") {
 					continue
 				}
-				global = g
+				rg := &reGlobal{g: g}
 				if mc := c03CallIs(st.Val, "regexp", "", "MustCompile"); mc != nil {
-					pat, havePat = ConstString(mc.Call.Args[0])
+					rg.pat, rg.havePat = ConstString(mc.Call.Args[0])
 				}
+				globals[g] = rg
 			}
 		}
 	}
-	if global == nil {
-		brokenf("anchor unresolved: diskpacked.deletedBlobRef")
+	matched := func(fn *ssa.Function) map[*ssa.Global]bool {
+		out := map[*ssa.Global]bool{}
+		for _, f := range c03EffOf(p, fn).funcs(true) {
+			for _, c := range CallsIn(f, false) {
+				if c.IsStatic("regexp", "Regexp", "Match") || c.IsStatic("regexp", "Regexp", "MatchString") {
+					if ld, isLd := c.Args()[0].(*ssa.UnOp); isLd && ld.Op == token.MUL {
+						if g, ok := ld.X.(*ssa.Global); ok && globals[g] != nil {
+							out[g] = true
+						}
+					}
+				}
+			}
+		}
+		return out
 	}
-	k := FuncKey(del)
-	// what delete writes
+	streamer := c03Streamer(p, d)
+	walkers := []*ssa.Function{streamer}
+	for _, w := range c03PackWalkers(p) {
+		walkers = append(walkers, w.fn)
+	}
+	var marker *reGlobal
+	nMarker := 0
+	for _, w := range walkers {
+		for g := range matched(w) {
+			if marker == nil || marker.g != g {
+				nMarker++
+			}
+			marker = globals[g]
+		}
+	}
+	k := c03PkgDP
+	site := p.Pos(d.recvFn.Pos())
+	if del != nil {
+		k, site = FuncKey(del.root.fn), p.Pos(del.root.fn.Pos())
+	}
+	// what the header rewrite writes
 	var hashByte, digestByte, dash int64 = -1, -1, -1
-	for _, b := range del.Blocks {
-		for _, in := range b.Instrs {
-			st, ok := in.(*ssa.Store)
-			if !ok {
-				continue
-			}
-			ia, ok := st.Addr.(*ssa.IndexAddr)
-			if !ok {
-				continue
-			}
-			v, ok := ConstInt(st.Val)
-			if !ok {
-				continue
-			}
-			ph, ok := ia.Index.(*ssa.Phi)
-			if !ok {
-				continue
-			}
-			fromZero := false
-			for _, e := range ph.Edges {
-				if c, ok := ConstInt(e); ok && c == 0 {
-					fromZero = true
+	if del != nil {
+		dashes := map[int64]bool{}
+		// positions are taken relative to the buffer that is written back over the header
+		var wbRoot ssa.Value
+		var wbOff int64
+		haveWB := false
+		for _, fn := range del.funcs(true) {
+			for _, c := range CallsIn(fn, false) {
+				if c.IsStatic("os", "File", "WriteAt") && !haveWB {
+					if root, off, ok := c03SliceBase(c.Args()[1]); ok {
+						wbRoot, wbOff, haveWB = root, off, true
+					}
 				}
 			}
-			if fromZero {
-				hashByte = v
-			} else {
-				digestByte = v
+		}
+		for _, fn := range del.funcs(true) {
+			for _, b := range fn.Blocks {
+				for _, in := range b.Instrs {
+					st, ok := in.(*ssa.Store)
+					if !ok {
+						continue
+					}
+					ia, ok := st.Addr.(*ssa.IndexAddr)
+					if !ok {
+						continue
+					}
+					v, ok := ConstInt(st.Val)
+					if !ok {
+						continue
+					}
+					if _, isConstIdx := ia.Index.(*ssa.Const); isConstIdx {
+						continue
+					}
+					start, known := c03IndexStart(ia.Index)
+					if root, off, ok := c03SliceBase(ia.X); known && ok && haveWB && root == wbRoot {
+						start += off - wbOff
+					} else if haveWB && (!ok || root != wbRoot) {
+						known = false
+					}
+					if known && start == 0 {
+						hashByte = v
+					} else {
+						digestByte = v
+					}
+				}
+			}
+			for _, c := range CallsIn(fn, false) {
+				if c.IsStatic("bytes", "", "IndexByte") {
+					if v, ok := ConstInt(c.Args()[1]); ok && v != sep {
+						dashes[v] = true
+					}
+				}
+			}
+		}
+		if len(dashes) == 1 {
+			for v := range dashes {
+				dash = v // the IndexByte that is not the header's separator finds the hash-name/digest separator
 			}
 		}
 	}
-	var seps []int64
-	for _, c := range CallsIn(del, false) {
-		if c.IsStatic("bytes", "", "IndexByte") {
-			if v, ok := ConstInt(c.Args()[1]); ok {
-				seps = append(seps, v)
-			}
-		}
-	}
-	if len(seps) >= 1 {
-		dash = seps[0] // the first IndexByte finds the hash-name/digest separator
-	}
-	site := p.Pos(del.Pos())
-	if !havePat || hashByte < 0 || digestByte < 0 || dash < 0 {
-		r.Undecided(rule, k+"#deleted-marker", site, fmt.Sprintf("could not extract the marker: regexp const=%v hash fill=%d digest fill=%d separator=%d", havePat, hashByte, digestByte, dash))
-	} else {
+	switch {
+	case marker == nil || nMarker != 1:
+		r.Undecided(rule, k+"#deleted-marker", site, fmt.Sprintf("the pack walkers match header refs against %d package-level regexps (want exactly 1): the deleted marker cannot be identified", nMarker))
+	case !marker.havePat || hashByte < 0 || digestByte < 0 || dash < 0:
+		r.Undecided(rule, k+"#deleted-marker", site, fmt.Sprintf("could not extract the marker: regexp const=%v hash fill=%d digest fill=%d separator=%d", marker.havePat, hashByte, digestByte, dash))
+	default:
+		pat := marker.pat
 		re, err := regexp.Compile(pat)
 		bad := ""
 		if err != nil {
-			bad = "deletedBlobRef pattern does not compile: " + err.Error()
+			bad = "the deleted-marker pattern does not compile: " + err.Error()
 		} else {
 			for _, hn := range []int{1, 4, 6, 8} {
 				for _, dn := range []int{1, 40, 56, 64} {
 					s := strings.Repeat(string(rune(hashByte)), hn) + string(rune(dash)) + strings.Repeat(string(rune(digestByte)), dn)
 					if !re.MatchString(s) {
-						bad = fmt.Sprintf("deletedBlobRef %q does not match %q, which is what delete writes over a header: walkers would report/parse deleted entries as blobs", pat, s)
+						bad = fmt.Sprintf("the deleted-marker regexp %q does not match %q, which is what the header rewrite writes over a header: walkers would report/parse deleted entries as blobs", pat, s)
 					}
 				}
 			}
 			for _, live := range []string{"sha1-" + strings.Repeat("0", 40), "sha224-" + strings.Repeat("0", 56), "sha224-" + strings.Repeat("a", 56), "sha1-" + strings.Repeat("f", 40)} {
 				if re.MatchString(live) {
-					bad = fmt.Sprintf("deletedBlobRef %q matches the live blobref %q: walkers would skip a present blob", pat, live)
+					bad = fmt.Sprintf("the deleted-marker regexp %q matches the live blobref %q: walkers would skip a present blob", pat, live)
 				}
 			}
 		}
 		r.Check(bad == "", rule, k+"#deleted-marker", site,
-			fmt.Sprintf("delete overwrites the ref with %q*%q%q*; deletedBlobRef %q matches that for all sampled lengths and no live ref", string(rune(hashByte)), string(rune(dash)), string(rune(digestByte)), pat), bad)
+			fmt.Sprintf("the header rewrite overwrites the ref with %q*%q%q*; the marker regexp %q matches that for all sampled lengths and no live ref", string(rune(hashByte)), string(rune(dash)), string(rune(digestByte)), pat), bad)
 	}
-	// both pack walkers consult the marker
-	for _, w := range []*ssa.Function{p.Func(c03PkgDP, "storage", "walkPack"), p.Func(c03PkgDP, "storage", "StreamBlobs")} {
-		ok := false
-		for _, c := range CallsIn(w, false) {
-			if c.IsStatic("regexp", "Regexp", "Match") || c.IsStatic("regexp", "Regexp", "MatchString") {
-				if ld, isLd := c.Args()[0].(*ssa.UnOp); isLd && ld.Op == token.MUL && ld.X == ssa.Value(global) {
-					ok = true
-				}
-			}
-		}
+	// every pack walker consults the marker
+	for _, w := range walkers {
+		ok := marker != nil && matched(w)[marker.g]
 		r.Check(ok, rule, FuncKey(w)+"#honours-deleted-marker", p.Pos(w.Pos()),
-			"the pack walker tests each header's ref against deletedBlobRef",
-			"the pack walker no longer tests headers against deletedBlobRef: after any removal the pack can no longer be walked (reindex/stream fail on the marker)")
+			"the pack walker tests each header's ref against the deleted-marker regexp",
+			"the pack walker no longer tests headers against the deleted-marker regexp: after any removal the pack can no longer be walked (reindex/stream fail on the marker)")
+	}
+	if len(walkers) < 2 {
+		r.Violation(rule, c03PkgDP+"#honours-deleted-marker", p.Pos(d.recvFn.Pos()), "no pack walk with a (…, offset int64, size uint32) callback found in package diskpacked")
 	}
 }
 
 func c03RowCodec(p *Program, r *Reporter, rule string, d *c03DPAnch) {
-	str := p.Func(c03PkgDP, "blobMeta", "String")
-	parse := p.Func(c03PkgDP, "", "parseBlobMeta")
+	str := p.LookupFunc(RelPkg(d.rowT.Obj().Pkg()), d.rowT.Obj().Name(), "String") // the declared method, not a pointer-receiver wrapper
+	if str == nil || len(str.Blocks) == 0 {
+		brokenf("anchor unresolved: String method of the index row type")
+	}
+	// the parser: the function that scans into the fields of a row
+	var parse *ssa.Function
+	var read []string
+	var nConst int64 = -1
+	for _, fn := range p.FuncsIn(c03PkgDP) {
+		for _, c := range CallsIn(fn, false) {
+			if !c.IsStatic("fmt", "", "Sscan") || c.Value() == nil {
+				continue
+			}
+			var fields []string
+			isRow := false
+			for _, e := range c03VarargElems(c.Args()[1]) {
+				if fa, ok := originValue(e).(*ssa.FieldAddr); ok {
+					fields = append(fields, fieldName(fa.X.Type(), fa.Field))
+					if NamedOf(c03Deref(fa.X.Type())) == d.rowT {
+						isRow = true
+					}
+				} else {
+					fields = append(fields, "?")
+				}
+			}
+			if !isRow {
+				continue
+			}
+			parse, read = fn, fields
+			// the count compared with Sscan's n
+			if n := ResultValue(c.Value(), 0); n != nil && n.Referrers() != nil {
+				for _, u := range *n.Referrers() {
+					if bo, ok := u.(*ssa.BinOp); ok && bo.Op == token.EQL {
+						if v, ok := ConstInt(bo.Y); ok {
+							nConst = v
+						}
+					}
+				}
+			}
+		}
+	}
 	// field order written
-	var wrote, read []string
+	var wrote []string
 	wfmt := ""
 	if rets := Returns(str); len(rets) == 1 {
 		if sp := c03CallIs(rets[0].Results[0], "fmt", "", "Sprintf"); sp != nil {
@@ -1722,30 +2578,8 @@ func c03RowCodec(p *Program, r *Reporter, rule string, d *c03DPAnch) {
 			}
 		}
 	}
-	var nConst int64 = -1
-	for _, c := range CallsIn(parse, false) {
-		if c.IsStatic("fmt", "", "Sscan") && c.Value() != nil {
-			for _, e := range c03VarargElems(c.Args()[1]) {
-				if fa, ok := originValue(e).(*ssa.FieldAddr); ok {
-					read = append(read, fieldName(fa.X.Type(), fa.Field))
-				} else {
-					read = append(read, "?")
-				}
-			}
-			// the count compared with Sscan's n
-			if n := ResultValue(c.Value(), 0); n != nil && n.Referrers() != nil {
-				for _, u := range *n.Referrers() {
-					if bo, ok := u.(*ssa.BinOp); ok && bo.Op == token.EQL {
-						if v, ok := ConstInt(bo.Y); ok {
-							nConst = v
-						}
-					}
-				}
-			}
-		}
-	}
 	lits, verbs, okf := c03Format(wfmt)
-	okc := okf && len(verbs) == len(wrote) && len(wrote) > 0 && strings.Join(wrote, ",") == strings.Join(read, ",") && nConst == int64(len(read)) && !strings.Contains(strings.Join(wrote, ","), "?")
+	okc := parse != nil && okf && len(verbs) == len(wrote) && len(wrote) > 0 && strings.Join(wrote, ",") == strings.Join(read, ",") && nConst == int64(len(read)) && !strings.Contains(strings.Join(wrote, ","), "?")
 	if okc {
 		for i, l := range lits {
 			if i > 0 && i < len(lits)-1 && strings.TrimSpace(l) != "" || (i == 0 || i == len(lits)-1) && l != "" {
@@ -1756,160 +2590,274 @@ func c03RowCodec(p *Program, r *Reporter, rule string, d *c03DPAnch) {
 			}
 		}
 	}
-	r.Check(okc, rule, FuncKey(parse)+"#row-fields", p.Pos(parse.Pos()),
-		fmt.Sprintf("blobMeta.String writes %v space-separated (%q); parseBlobMeta scans the same fields in the same order and requires n == %d", wrote, wfmt, nConst),
-		fmt.Sprintf("index row codec disagrees: String writes %v with format %q, parseBlobMeta scans %v and requires n == %d", wrote, wfmt, read, nConst))
+	pk, psite := FuncKey(str), p.Pos(str.Pos())
+	if parse != nil {
+		pk, psite = FuncKey(parse), p.Pos(parse.Pos())
+	}
+	r.Check(okc, rule, pk+"#row-fields", psite,
+		fmt.Sprintf("the row's String writes %v space-separated (%q); the row parser scans the same fields in the same order and requires n == %d", wrote, wfmt, nConst),
+		fmt.Sprintf("index row codec disagrees: String writes %v with format %q, the row parser scans %v and requires n == %d", wrote, wfmt, read, nConst))
 
-	// both row writers use the codec
-	reindex := p.Func(c03PkgDP, "storage", "reindexOne")
+	// every row writer of the package uses the codec: the receive path's and the reindexer's
 	batch := p.Iface("pkg/sorted", "BatchMutation")
-	type rowSite struct {
-		c    CallSite
-		what string
+	isKey := func(o ssa.Value) bool {
+		c, ok := o.(*ssa.Call)
+		return ok && funcIs(c.Call.StaticCallee(), "perkeep.org/pkg/blob", "Ref", "String")
 	}
-	var sites []rowSite
-	if d.set != nil {
-		sites = append(sites, rowSite{CallSite{d.append, d.set}, FuncKey(d.append)})
+	isVal := func(o ssa.Value) bool {
+		c, ok := o.(*ssa.Call)
+		return ok && c.Call.StaticCallee() == str
 	}
-	for _, c := range CallsIn(reindex, true) {
-		if c.Common().IsInvoke() && c.MethodName() == "Set" && (c.IsMethod("Set", batch) || c.IsMethod("Set", d.kv)) {
-			sites = append(sites, rowSite{c, FuncKey(reindex)})
+	inRecv, outside := 0, 0
+	for _, fn := range p.FuncsIn(c03PkgDP) {
+		for _, c := range CallsIn(fn, false) {
+			if !c.Common().IsInvoke() || c.MethodName() != "Set" || !(c.IsMethod("Set", batch) || c.IsMethod("Set", d.kv)) {
+				continue
+			}
+			args := c.Args() // recv, key, value
+			okKey := c03ForAllCallers(p, args[1], 0, isKey)
+			okVal := c03ForAllCallers(p, args[2], 0, isVal)
+			if d.e.has(fn) {
+				inRecv++
+			} else {
+				outside++
+			}
+			r.Check(okKey && okVal, rule, FuncKey(TopFunc(fn))+"#row-writer", p.Pos(c.Pos()),
+				"index row = (blob.Ref.String(), <row>.String())",
+				"an index row is written with a key/value not produced by blob.Ref.String()/<row>.String(): the live index and a reindexed one would differ, or the row parser cannot read it")
 		}
 	}
-	seen := map[string]bool{}
-	for _, s := range sites {
-		args := s.c.Args() // recv, key, value
-		okKey := c03CallIs(args[1], "perkeep.org/pkg/blob", "Ref", "String") != nil
-		okVal := c03StaticCall(args[2], str) != nil
-		seen[s.what] = true
-		r.Check(okKey && okVal, rule, s.what+"#row-writer", p.Pos(s.c.Pos()),
-			"index row = (blob.Ref.String(), blobMeta.String())",
-			"an index row is written with a key/value not produced by blob.Ref.String()/blobMeta.String(): the live index and a reindexed one would differ, or parseBlobMeta cannot read it")
+	if inRecv == 0 {
+		r.Violation(rule, FuncKey(d.recvFn)+"#row-writer", p.Pos(d.recvFn.Pos()), "no index row writer found in the receive path")
 	}
-	for _, fk := range []string{FuncKey(d.append), FuncKey(reindex)} {
-		if !seen[fk] {
-			r.Violation(rule, fk+"#row-writer", "?", "no index row writer found in this function")
-		}
+	if outside == 0 {
+		r.Violation(rule, c03PkgDP+"#row-writer", p.Pos(d.recvFn.Pos()), "no index row writer found outside the receive path (the reindexer must write rows)")
 	}
 }
 
 // ---------------------------------------------------------------------------
 // D-dele-order
 
+// c03LocalPackOpens: the os.OpenFile calls of the package that open a file
+// writable into a handle that stays local (it does not become the live handle).
+func c03LocalPackOpens(p *Program, d *c03DPAnch) []CallSite {
+	var out []CallSite
+	for _, fn := range p.FuncsIn(c03PkgDP) {
+		for _, c := range CallsIn(fn, false) {
+			v := c.Value()
+			if v == nil || !c.IsStatic("os", "", "OpenFile") {
+				continue
+			}
+			h := ResultValue(v, 0)
+			if h == nil {
+				continue
+			}
+			if cl, _, _ := c03HandleClass(d, h); cl != 'L' {
+				continue
+			}
+			toWriter := false
+			if h.Referrers() != nil {
+				for _, u := range *h.Referrers() {
+					if st, ok := u.(*ssa.Store); ok && st.Val == h {
+						if fa, ok := st.Addr.(*ssa.FieldAddr); ok && fieldName(fa.X.Type(), fa.Field) == d.writerF {
+							toWriter = true
+						}
+					}
+				}
+			}
+			if !toWriter {
+				out = append(out, c)
+			}
+		}
+	}
+	return out
+}
+
+// mayFollow: b can execute after a (at the frame where their call chains part,
+// b's side is reachable from a's side).
+func (e *c03Eff) mayFollow(a, b c03Site) bool {
+	ca, cb := a.chain(), b.chain()
+	i := 0
+	for i < len(ca)-1 && i < len(cb)-1 && ca[i].in == cb[i].in {
+		i++
+	}
+	if ca[i].fr != cb[i].fr {
+		return true
+	}
+	if ca[i].in == cb[i].in {
+		return true
+	}
+	return ReachableFrom(ca[i].in, nil)[cb[i].in]
+}
+
 func c03RuleDDeleOrder(p *Program, r *Reporter) {
 	const rule = "D-dele-order"
 	r.Floor(rule, 3)
-	del := p.Func(c03PkgDP, "storage", "delete")
-	k := FuncKey(del)
-	// the file handle: result of os.OpenFile
-	var fh ssa.Value
-	for _, c := range CallsIn(del, false) {
-		if c.IsStatic("os", "", "OpenFile") && c.Value() != nil {
-			fh = ResultValue(c.Value(), 0)
-		}
+	d := c03DPAnchors(p)
+	opens := c03LocalPackOpens(p, d)
+	delFns := map[*ssa.Function]bool{}
+	for _, o := range opens {
+		delFns[o.Fn] = true
 	}
-	if fh == nil {
-		r.Undecided(rule, k+"#header-before-body", p.Pos(del.Pos()), "delete no longer opens the pack with os.OpenFile; cannot follow the file handle")
-		return
-	}
-	isFh := func(v ssa.Value) bool { return sameOrigin(v, fh) }
-	var hdr []*ssa.Call     // WriteAt on fh
-	var destroy []*ssa.Call // punchHole(fh, ...), io.Copy*(fh, ...), fh.Write
-	for _, c := range CallsIn(del, false) {
-		v := c.Value()
-		if v == nil {
-			continue
-		}
-		if c.IsStatic("os", "File", "WriteAt") && isFh(c.Args()[0]) {
-			hdr = append(hdr, v)
-			continue
-		}
-		if c.IsStatic("os", "File", "Write") || c.IsStatic("os", "File", "WriteString") || c.IsStatic("os", "File", "Truncate") {
-			if isFh(c.Args()[0]) {
-				destroy = append(destroy, v)
-			}
-			continue
-		}
-		if c.Callee() != nil && funcIs(c.Callee(), "os", "File", c.Callee().Name()) {
-			continue // ReadAt, Seek, Close, Name ...
-		}
-		for _, arg := range v.Call.Args {
-			if !isFh(arg) {
+	// destroy sites on a handle, in the effective body e
+	type sites struct{ hdr, destroy []c03Site }
+	collect := func(e *c03Eff, fh c03Val) sites {
+		var out sites
+		isFh := func(fr *c03Frame, v ssa.Value) bool { return e.same(c03Val{fr, v}, fh) }
+		for _, s := range e.calls(false) {
+			v := s.value()
+			if v == nil || e.kid(s) != nil {
 				continue
 			}
-			// the handle handed to something that writes: an io.Writer argument, or the punchHole hook
-			// (or to a function of this module: an extracted zero-fill helper)
-			_, asWriter := arg.(*ssa.MakeInterface)
-			dyn := c.Callee() == nil && !v.Call.IsInvoke()
-			helper := c.Callee() != nil && InModule(c.Callee()) && c03IsOSFile(arg.Type())
-			if asWriter || dyn || helper {
-				destroy = append(destroy, v)
+			c := s.call()
+			if c.IsStatic("os", "File", "WriteAt") {
+				if isFh(s.fr, c.Args()[0]) {
+					out.hdr = append(out.hdr, s)
+				}
+				continue
 			}
-			break
-		}
-	}
-	if len(destroy) == 0 {
-		r.Violation(rule, k+"#header-before-body", p.Pos(del.Pos()), "delete has no body-destroying call (punch hole / zero fill) on the pack file handle")
-	}
-	for _, dcall := range destroy {
-		ok := false
-		why := "no WriteAt on the pack file handle"
-		for _, h := range hdr {
-			o, w := SuccessDominates(h, dcall)
-			if o {
-				ok = true
-			} else {
-				why = w
+			if c.IsStatic("os", "File", "Write") || c.IsStatic("os", "File", "WriteString") || c.IsStatic("os", "File", "Truncate") || c.IsStatic("os", "File", "ReadFrom") {
+				if isFh(s.fr, c.Args()[0]) {
+					out.destroy = append(out.destroy, s)
+				}
+				continue
+			}
+			if c.Callee() != nil && funcIs(c.Callee(), "os", "File", c.Callee().Name()) {
+				continue // ReadAt, Seek, Close, Name ...
+			}
+			for _, arg := range v.Call.Args {
+				if !isFh(s.fr, arg) {
+					continue
+				}
+				// the handle handed to something that writes: an io.Writer argument, or the punchHole hook
+				// (or to a function of this module that is not followed)
+				_, asWriter := arg.(*ssa.MakeInterface)
+				asWriter = asWriter || c03IsWriterType(arg.Type())
+				dyn := c.Callee() == nil && !v.Call.IsInvoke()
+				helper := c.Callee() != nil && InModule(c.Callee()) && c03IsOSFile(arg.Type())
+				if asWriter || dyn || helper {
+					out.destroy = append(out.destroy, s)
+				}
+				break
 			}
 		}
-		r.Check(ok, rule, k+"#header-before-body#"+(CallSite{del, dcall}).CalleeKey(), p.Pos(dcall.Pos()),
-			"the body is destroyed only on the err==nil edge of the header rewrite (WriteAt of the deleted marker)",
-			"the body is destroyed without the header having been rewritten to the deleted marker first ("+why+"): a crash in between leaves a live header over a zeroed/punched body, which a pack walk or reindex presents as a blob")
+		return out
+	}
+	if len(opens) == 0 {
+		r.Undecided(rule, c03PkgDP+"#header-before-body", p.Pos(d.recvFn.Pos()), "no function of package diskpacked opens a pack writable into a local handle (the removal's in-place rewrite could not be located)")
+	}
+	seenOpen := map[c03Site]bool{}
+	for _, o := range opens {
+		var fhOf func(e *c03Eff) []c03Val
+		fhOf = func(e *c03Eff) []c03Val {
+			var out []c03Val
+			for _, s := range e.sitesOf(o.Instr) {
+				out = append(out, c03Val{s.fr, ResultValue(o.Value(), 0)})
+			}
+			return out
+		}
+		e := c03ClimbUnit(p, o.Fn, func(e *c03Eff) bool {
+			for _, fh := range fhOf(e) {
+				if st := collect(e, fh); len(st.destroy) > 0 {
+					return true
+				}
+			}
+			return false
+		})
+		k := FuncKey(e.root.fn)
+		fhs := fhOf(e)
+		if len(fhs) == 0 {
+			fhs = []c03Val{{e.root, ResultValue(o.Value(), 0)}}
+		}
+		for _, fh := range fhs {
+			osite := c03Site{fh.fr, o.Instr}
+			if seenOpen[osite] {
+				continue
+			}
+			seenOpen[osite] = true
+			st := collect(e, fh)
+			if len(st.destroy) == 0 {
+				r.Violation(rule, k+"#header-before-body", p.Pos(o.Pos()), "a pack is opened writable but no body-destroying call (punch hole / zero fill) on the handle was found")
+			}
+			for _, dcall := range st.destroy {
+				ok := false
+				why := "no WriteAt on the pack file handle"
+				for _, h := range st.hdr {
+					o2, w := e.succDom(h, dcall)
+					if o2 {
+						ok = true
+					} else {
+						why = w
+					}
+				}
+				r.Check(ok, rule, FuncKey(dcall.fr.fn)+"#header-before-body#"+dcall.call().CalleeKey(), p.Pos(dcall.in.Pos()),
+					"the body is destroyed only on the err==nil edge of the header rewrite (WriteAt of the deleted marker)",
+					"the body is destroyed without the header having been rewritten to the deleted marker first ("+why+"): a crash in between leaves a live header over a zeroed/punched body, which a pack walk or reindex presents as a blob")
+			}
+		}
 	}
 
 	// RemoveBlobs: join before the index commit
-	rm := p.Func(c03PkgDP, "storage", "RemoveBlobs")
-	kv := p.Iface("pkg/sorted", "KeyValue")
-	var commit, join ssa.Instruction
+	ri := p.Iface("pkg/blobserver", "BlobRemover")
+	rm, _ := p.MethodOf(d.storeT, ri.Method(0).Name())
+	if rm == nil || len(rm.Blocks) == 0 {
+		brokenf("anchor unresolved: %s of the packed store", ri.Method(0).Name())
+	}
+	e := c03EffOf(p, rm)
+	reachesDel := func(fn *ssa.Function) bool {
+		for _, f := range c03EffOf(p, fn).funcs(true) {
+			if delFns[f] {
+				return true
+			}
+		}
+		return false
+	}
+	var commit c03Site
+	var joins, deletes []c03Site
 	spawns := 0
-	for _, c := range CallsIn(rm, false) {
-		if c.Common().IsInvoke() && c.IsMethod("CommitBatch", kv) {
-			commit = c.Instr
+	for _, s := range e.calls(false) {
+		c := s.call()
+		if c.Common().IsInvoke() && c.IsMethod("CommitBatch", d.kv) {
+			commit = s
 		}
 		if isJoin(c) {
-			if join == nil || Precedes(c.Instr, join) {
-				join = c.Instr
-			}
+			joins = append(joins, s)
 		}
 		for _, cl := range spawnedClosures(c) {
-			for _, cc := range CallsIn(cl, true) {
-				if cc.Callee() == del {
-					spawns++
-				}
+			if reachesDel(cl) {
+				spawns++
 			}
+		}
+		if isSpawner(c) {
+			continue
+		}
+		if c.IsStatic("os", "", "OpenFile") && delFns[s.fr.fn] {
+			deletes = append(deletes, s)
 		}
 	}
 	rk := FuncKey(rm)
 	switch {
-	case commit == nil:
+	case !commit.valid():
 		r.Violation(rule, rk+"#join-before-commit", p.Pos(rm.Pos()), "RemoveBlobs no longer commits the index deletions with CommitBatch")
 	case spawns == 0:
-		// synchronous deletes: every delete call must precede the commit
+		// synchronous deletes: none may run after the commit
 		ok := true
-		n := 0
-		for _, c := range CallsIn(rm, false) {
-			if c.Callee() == del {
-				n++
-				if ReachableFrom(commit, nil)[c.Instr] {
-					ok = false
-				}
+		for _, dl := range deletes {
+			if e.mayFollow(commit, dl) {
+				ok = false
 			}
 		}
-		r.Check(ok && n > 0, rule, rk+"#join-before-commit", p.Pos(commit.Pos()),
+		r.Check(ok && len(deletes) > 0, rule, rk+"#join-before-commit", p.Pos(commit.in.Pos()),
 			"deletes run synchronously and none is reachable after the index commit",
 			"a delete can run after the index rows were committed away (delete looks the row up first and would silently skip the blob)")
 	default:
-		r.Check(join != nil && Precedes(join, commit), rule, rk+"#join-before-commit", p.Pos(commit.Pos()),
+		ok := false
+		for _, j := range joins {
+			if e.precedes(j, commit) {
+				ok = true
+			}
+		}
+		r.Check(ok, rule, rk+"#join-before-commit", p.Pos(commit.in.Pos()),
 			"the delete workers are joined (Group.Err/Wait) before the index deletions are committed",
 			"the index deletions are committed before the delete workers are joined: a worker that has not yet looked up its row finds it gone, skips the blob (ErrNotExist is ignored) and the blob stays in the pack, to be resurrected by the next reindex")
 	}
@@ -2344,12 +3292,6 @@ func c03LinInto(l *c03Lin, v ssa.Value, f int64, env *c03Env, d int) {
 	l.add(v, f)
 }
 
-func c03LinOf(v ssa.Value) *c03Lin {
-	l := &c03Lin{}
-	c03LinInto(l, v, 1, nil, 0)
-	return l
-}
-
 // c03OrderFact turns "the comparison X op Y has truth value val" over integers
 // into a form F with the meaning F >= 0.
 func c03OrderFact(b *ssa.BinOp, val bool, env *c03Env) (*c03Lin, bool) {
@@ -2391,64 +3333,23 @@ func c03OrderFact(b *ssa.BinOp, val bool, env *c03Env) (*c03Lin, bool) {
 	return l, true
 }
 
-// c03OrderFacts lists, as forms F (meaning F >= 0), the integer ordering
-// comparisons known at block blk. A condition that is a static call of a
-// module function whose only return yields one ordering comparison of its
-// parameters (an extracted predicate) is followed with the arguments
-// substituted. unfollowed names the conditions that are calls the rule could
-// not follow.
-func c03OrderFacts(blk *ssa.BasicBlock) (forms []*c03Lin, unfollowed []string) {
-	for _, f := range FactsAt(blk) {
-		switch c := f.Cond.(type) {
-		case *ssa.BinOp:
-			if l, ok := c03OrderFact(c, f.Val, nil); ok {
-				forms = append(forms, l)
-			}
-		case *ssa.Call:
-			callee, env := c03CallEnv(c, nil)
-			if callee == nil {
-				continue
-			}
-			followed := false
-			if rets := Returns(callee); len(rets) == 1 && len(rets[0].Results) == 1 {
-				if b, ok := rets[0].Results[0].(*ssa.BinOp); ok {
-					// nothing of the callee's own state may be left in the form
-					if l, ok := c03OrderFact(b, f.Val, env); ok && !l.foreign(blk.Parent()) {
-						forms = append(forms, l)
-						followed = true
-					}
-				}
-			}
-			if !followed {
-				unfollowed = append(unfollowed, FuncKey(callee))
-			}
-		}
-	}
-	return forms, unfollowed
-}
-
 // ---------------------------------------------------------------------------
 // D-walk-extent
 
-// c03ParsedSize: v is the size field parsed from a pack header (result of
-// ParseUint/ParseUintBytes, or the size result of readHeader).
-func c03ParsedSize(p *Program) func(ssa.Value) bool {
-	readHeader := p.Func(c03PkgDP, "", "readHeader")
-	return func(v ssa.Value) bool {
-		ex, ok := v.(*ssa.Extract)
-		if !ok {
-			return false
-		}
-		c, ok := ex.Tuple.(*ssa.Call)
-		if !ok {
-			return false
-		}
-		f := c.Call.StaticCallee()
-		if f == readHeader {
-			return ex.Index == 2
-		}
-		return ex.Index == 0 && (funcIs(f, "strconv", "", "ParseUint") || funcIs(f, "go4.org/strutil", "", "ParseUintBytes"))
+// c03IsParsedSize: v is the size field parsed from a pack header (first result
+// of ParseUint/ParseUintBytes). Header readers that are helpers of the walker
+// are part of its effective body, so their size result is followed to this.
+func c03IsParsedSize(v ssa.Value) bool {
+	ex, ok := v.(*ssa.Extract)
+	if !ok || ex.Index != 0 {
+		return false
 	}
+	c, ok := ex.Tuple.(*ssa.Call)
+	if !ok {
+		return false
+	}
+	f := c.Call.StaticCallee()
+	return funcIs(f, "strconv", "", "ParseUint") || funcIs(f, "go4.org/strutil", "", "ParseUintBytes")
 }
 
 // c03IsFileSize: v is the length of a file: FileInfo.Size(), or the position
@@ -2470,6 +3371,10 @@ func c03IsFileSize(v ssa.Value) bool {
 		return ok && w == 2 // io.SeekEnd
 	}
 	return false
+}
+
+func c03IsExactRead(c CallSite) bool {
+	return c.IsStatic("io", "", "ReadFull") || c.IsStatic("io", "", "ReadAtLeast") || c.IsStatic("io", "", "CopyN") || c.IsStatic("bufio", "Reader", "Discard") || c.IsStatic("os", "File", "ReadAt")
 }
 
 // c03ReadLength returns the number of bytes a successful call of one of the
@@ -2506,60 +3411,66 @@ func c03ReadLength(c CallSite) ssa.Value {
 // c03Extent is what is known about the completeness of the entry whose header
 // was just parsed, at one reporting site.
 type c03Extent struct {
-	reads      []CallSite // exact-length reads of the declared size whose success dominates the site
-	compared   bool       // a dominating comparison relates the declared size to the size of the file
-	forms      []*c03Lin  // the dominating ordering comparisons that mention a file size, as F >= 0
+	e          *c03Eff
+	at         c03Site
+	reads      []c03Site // exact-length reads of the declared size whose success dominates the site
+	compared   bool      // a dominating comparison relates the declared size to the size of the file
+	forms      []*c03Lin // the dominating ordering comparisons that mention a file size, as F >= 0
 	unfollowed []string
 }
 
-func (e *c03Extent) known() (bool, string) {
-	if len(e.reads) > 0 {
-		return true, "behind a successful " + e.reads[0].CalleeKey() + " of the header's declared size"
+func (x *c03Extent) known() (bool, string) {
+	if len(x.reads) > 0 {
+		return true, "behind a successful " + x.reads[0].call().CalleeKey() + " of the header's declared size"
 	}
-	if e.compared {
+	if x.compared {
 		return true, "behind a comparison of the entry's extent with the pack file's size"
 	}
 	return false, ""
 }
 
-// c03ExtentAt collects the reads and comparisons that establish, at
-// instruction at of fn, that the entry whose header was just parsed is complete.
-func c03ExtentAt(p *Program, fn *ssa.Function, at ssa.Instruction) *c03Extent {
-	e := &c03Extent{}
-	parsed := c03ParsedSize(p)
-	for _, c := range CallsIn(fn, false) {
-		v := c.Value()
-		if v == nil {
-			continue
-		}
-		if !(c.IsStatic("io", "", "ReadFull") || c.IsStatic("io", "", "ReadAtLeast") || c.IsStatic("io", "", "CopyN") || c.IsStatic("bufio", "Reader", "Discard") || c.IsStatic("os", "File", "ReadAt")) {
+// lin is the linear form of a value of frame fr, over the callers' values.
+func (x *c03Extent) lin(fr *c03Frame, v ssa.Value) *c03Lin {
+	l := &c03Lin{}
+	c03LinInto(l, v, 1, x.e.envOf(fr), 0)
+	return l
+}
+
+// c03ExtentAt collects the reads and comparisons that establish, at site at of
+// effective body e, that the entry whose header was just parsed is complete.
+func c03ExtentAt(e *c03Eff, at c03Site) *c03Extent {
+	x := &c03Extent{e: e, at: at}
+	parsed := func(v c03Val) bool { return c03IsParsedSize(v.v) }
+	fileSize := func(v c03Val) bool { _, isCall := v.v.(*ssa.Call); return isCall && c03IsFileSize(v.v) }
+	for _, s := range e.calls(false) {
+		v := s.value()
+		if v == nil || !c03IsExactRead(s.call()) {
 			continue
 		}
 		dep := false
 		for _, a := range v.Call.Args {
-			if c03Depends(a, parsed) {
+			if e.depends(c03Val{s.fr, a}, parsed) {
 				dep = true
 			}
 		}
 		if !dep {
 			continue
 		}
-		if ok, _ := SuccessDominates(v, at); ok {
-			e.reads = append(e.reads, c)
+		if ok, _ := e.succDom(s, at); ok {
+			x.reads = append(x.reads, s)
 		}
 	}
-	isFileSize := func(v ssa.Value) bool { _, isCall := v.(*ssa.Call); return isCall && c03IsFileSize(v) }
-	for _, f := range FactsAt(at.Block()) {
-		b, ok := f.Cond.(*ssa.BinOp)
+	for _, f := range e.factsAt(at) {
+		b, ok := f.cond.(*ssa.BinOp)
 		if !ok {
-			if c, isCall := f.Cond.(*ssa.Call); isCall {
+			if c, isCall := f.cond.(*ssa.Call); isCall {
 				fs, ps := false, false
 				for _, a := range c.Call.Args {
-					fs = fs || c03Depends(a, isFileSize)
-					ps = ps || c03Depends(a, parsed)
+					fs = fs || e.depends(c03Val{f.fr, a}, fileSize)
+					ps = ps || e.depends(c03Val{f.fr, a}, parsed)
 				}
 				if fs && ps {
-					e.compared = true
+					x.compared = true
 				}
 			}
 			continue
@@ -2569,54 +3480,57 @@ func c03ExtentAt(p *Program, fn *ssa.Function, at ssa.Instruction) *c03Extent {
 		default:
 			continue
 		}
-		if c03Depends(b.X, isFileSize) && c03Depends(b.Y, parsed) || c03Depends(b.Y, isFileSize) && c03Depends(b.X, parsed) {
-			e.compared = true
+		bx, by := c03Val{f.fr, b.X}, c03Val{f.fr, b.Y}
+		if e.depends(bx, fileSize) && e.depends(by, parsed) || e.depends(by, fileSize) && e.depends(bx, parsed) {
+			x.compared = true
 		}
 	}
-	forms, unfollowed := c03OrderFacts(at.Block())
+	forms, unfollowed := e.orderFacts(at, false)
 	for _, l := range forms {
-		for i, x := range l.leaf {
-			if l.coef[i] != 0 && c03IsFileSize(x) {
-				e.forms = append(e.forms, l)
+		for i, y := range l.leaf {
+			if l.coef[i] != 0 && c03IsFileSize(y) {
+				x.forms = append(x.forms, l)
 				break
 			}
 		}
 	}
-	e.unfollowed = unfollowed
-	return e
+	x.unfollowed = unfollowed
+	return x
 }
 
 // c03ExtentValue decides the value clause of D-walk-extent at one reporting
 // site: what was read, or what was compared with the file size, is exactly the
-// end of the body that is reported (offset+size; offset nil for a sequential
-// reader, where only the length read matters).
+// end of the body that is reported (offset+size, values of the reporting
+// site's frame; offset nil for a sequential reader, where only the length read
+// matters).
 //
 //	status 0 = holds, 1 = violated, 2 = undecided
-func c03ExtentValue(e *c03Extent, offset, size ssa.Value) (status int, detail string) {
-	sizeForm := c03LinOf(size)
+func c03ExtentValue(x *c03Extent, offset, size ssa.Value) (status int, detail string) {
+	sizeForm := x.lin(x.at.fr, size)
 	var bad []string
 	undecided := ""
-	for _, rd := range e.reads {
-		n := c03ReadLength(rd)
+	for _, rd := range x.reads {
+		n := c03ReadLength(rd.call())
 		if n == nil {
-			undecided = "the length of the buffer handed to " + rd.CalleeKey() + " could not be named"
+			undecided = "the length of the buffer handed to " + rd.call().CalleeKey() + " could not be named"
 			continue
 		}
-		d := c03LinOf(n)
+		d := x.lin(rd.fr, n)
 		d.addLin(sizeForm, -1)
 		if d.isZero() {
-			return 0, fmt.Sprintf("the successful %s consumed exactly the reported size (%s)", rd.CalleeKey(), sizeForm)
+			return 0, fmt.Sprintf("the successful %s consumed exactly the reported size (%s)", rd.call().CalleeKey(), sizeForm)
 		}
-		bad = append(bad, fmt.Sprintf("%s reads %s bytes, the entry is reported with size %s (difference %s): the body is not known to be complete", rd.CalleeKey(), c03LinOf(n), sizeForm, d))
+		bad = append(bad, fmt.Sprintf("%s reads %s bytes, the entry is reported with size %s (difference %s): the body is not known to be complete", rd.call().CalleeKey(), x.lin(rd.fr, n), sizeForm, d))
 	}
 	if offset != nil {
-		for _, f := range e.forms {
+		offForm := x.lin(x.at.fr, offset)
+		for _, f := range x.forms {
 			// the file-size leaf of this fact
 			var fs ssa.Value
 			nfs := 0
-			for i, x := range f.leaf {
-				if f.coef[i] != 0 && c03IsFileSize(x) {
-					fs = x
+			for i, y := range f.leaf {
+				if f.coef[i] != 0 && c03IsFileSize(y) {
+					fs = y
 					nfs++
 				}
 			}
@@ -2627,20 +3541,20 @@ func c03ExtentValue(e *c03Extent, offset, size ssa.Value) (status int, detail st
 			d := &c03Lin{}
 			d.addLin(f, 1)
 			d.add(fs, -1)
-			d.addLin(c03LinOf(offset), 1)
+			d.addLin(offForm, 1)
 			d.addLin(sizeForm, 1)
 			if d.isZero() {
-				return 0, fmt.Sprintf("on this edge %s >= 0 is known, which is fileSize - (offset handed on) - (size handed on) with offset = %s, size = %s", f, c03LinOf(offset), sizeForm)
+				return 0, fmt.Sprintf("on this edge %s >= 0 is known, which is fileSize - (offset handed on) - (size handed on) with offset = %s, size = %s", f, offForm, sizeForm)
 			}
 			if d.onlyConst() {
-				bad = append(bad, fmt.Sprintf("the extent compared with the file size is off by %+d from (offset handed on)+(size handed on): known here is %s >= 0, the reported body ends at %s + %s; an off-by-%d either reports a body torn by that many bytes or drops an intact entry that ends the pack", -d.k, f, c03LinOf(offset), sizeForm, c03Abs(d.k)))
+				bad = append(bad, fmt.Sprintf("the extent compared with the file size is off by %+d from (offset handed on)+(size handed on): known here is %s >= 0, the reported body ends at %s + %s; an off-by-%d either reports a body torn by that many bytes or drops an intact entry that ends the pack", -d.k, f, offForm, sizeForm, c03Abs(d.k)))
 				continue
 			}
 			if v := d.unrelatedReads(); v != "" {
-				undecided = fmt.Sprintf("the compared extent (%s >= 0) and the reported body [%s, +%s) read variable %s at points between which it may be stored to (through a closure, or more than one definition reaches): cannot tell whether they see the same value", f, c03LinOf(offset), sizeForm, v)
+				undecided = fmt.Sprintf("the compared extent (%s >= 0) and the reported body [%s, +%s) read variable %s at points between which it may be stored to (through a closure, or more than one definition reaches): cannot tell whether they see the same value", f, offForm, sizeForm, v)
 				continue
 			}
-			bad = append(bad, fmt.Sprintf("extent computed from a stale position: known here is %s >= 0, but the reported body is [%s, +%s); the compared extent and the reported one differ by %s, so an append torn within that many bytes of its end is reported as a present blob (or an intact last entry is dropped)", f, c03LinOf(offset), sizeForm, d))
+			bad = append(bad, fmt.Sprintf("extent computed from a stale position: known here is %s >= 0, but the reported body is [%s, +%s); the compared extent and the reported one differ by %s, so an append torn within that many bytes of its end is reported as a present blob (or an intact last entry is dropped)", f, offForm, sizeForm, d))
 		}
 	}
 	if len(bad) > 0 {
@@ -2649,8 +3563,8 @@ func c03ExtentValue(e *c03Extent, offset, size ssa.Value) (status int, detail st
 	if undecided != "" {
 		return 2, undecided
 	}
-	if len(e.unfollowed) > 0 {
-		return 2, "the condition guarding the report is a call the rule cannot follow (not a single ordering comparison of its parameters): " + strings.Join(e.unfollowed, ", ")
+	if len(x.unfollowed) > 0 {
+		return 2, "the condition guarding the report is a call the rule cannot follow (not a single ordering comparison of its parameters): " + strings.Join(x.unfollowed, ", ")
 	}
 	return 2, "a comparison involving the file size guards the report, but not one that is linear (+,-) in the file size, the offset and the size handed on"
 }
@@ -2662,8 +3576,8 @@ func c03Abs(n int64) int64 {
 	return n
 }
 
-func c03ReportExtentValue(r *Reporter, rule, construct, site string, e *c03Extent, offset, size ssa.Value) {
-	st, detail := c03ExtentValue(e, offset, size)
+func c03ReportExtentValue(r *Reporter, rule, construct, site string, x *c03Extent, offset, size ssa.Value) {
+	st, detail := c03ExtentValue(x, offset, size)
 	switch st {
 	case 0:
 		r.OK(rule, construct, site, detail)
@@ -2678,107 +3592,103 @@ func c03RuleDWalkExtent(p *Program, r *Reporter) {
 	const rule = "D-walk-extent"
 	r.Floor(rule, 4)
 	const bad = "the entry is reported without its body having been read and without comparing its extent with the file size: after a crash that tore the last append, the torn blob is reported with its declared size (Reindex then writes an index row for it: stat/fetch present a partial blob), and the blind skip over the declared size jumps over entries appended after a restart (Reindex silently omits acknowledged blobs)"
-	// walkPack: calls of its walker parameter
-	wp := p.Func(c03PkgDP, "storage", "walkPack")
-	var walker *ssa.Parameter
-	offIdx, sizeIdx := -1, -1
-	for _, prm := range wp.Params {
-		if sig, ok := prm.Type().Underlying().(*types.Signature); ok {
-			walker = prm
-			for i := 0; i < sig.Params().Len(); i++ {
-				if b, ok := sig.Params().At(i).Type().Underlying().(*types.Basic); ok {
-					switch b.Kind() {
-					case types.Int64:
-						if offIdx >= 0 {
-							brokenf("anchor unresolved: the walker of diskpacked.(*storage).walkPack has two int64 parameters")
-						}
-						offIdx = i
-					case types.Uint32:
-						if sizeIdx >= 0 {
-							brokenf("anchor unresolved: the walker of diskpacked.(*storage).walkPack has two uint32 parameters")
-						}
-						sizeIdx = i
-					}
-				}
-			}
-		}
+	d := c03DPAnchors(p)
+	// the pack walk(s): calls of the walker callback
+	walkers := c03PackWalkers(p)
+	if len(walkers) == 0 {
+		r.Violation(rule, c03PkgDP+"#walker-call", p.Pos(d.recvFn.Pos()), "no pack walk with a (…, offset int64, size uint32) callback found in package diskpacked")
 	}
-	if walker == nil || offIdx < 0 || sizeIdx < 0 {
-		brokenf("anchor unresolved: walker parameter (…, offset int64, size uint32) of diskpacked.(*storage).walkPack")
-	}
-	n := 0
-	for _, c := range CallsIn(wp, false) {
-		if c.Common().IsInvoke() || originValue(c.Common().Value) != ssa.Value(walker) {
-			continue
-		}
-		n++
-		e := c03ExtentAt(p, wp, c.Instr)
-		ok, how := e.known()
-		r.Check(ok, rule, FuncKey(wp)+"#walker-call", p.Pos(c.Pos()), "the walker is called "+how, bad)
-		if ok {
-			a := c.Common().Args
-			c03ReportExtentValue(r, rule, FuncKey(wp)+"#walker-call#extent-is-body-end", p.Pos(c.Pos()), e, a[offIdx], a[sizeIdx])
-		}
-	}
-	if n == 0 {
-		r.Violation(rule, FuncKey(wp)+"#walker-call", p.Pos(wp.Pos()), "walkPack never calls its walker")
-	}
-	// StreamBlobs: sends on the destination channel
-	sb := p.Func(c03PkgDP, "storage", "StreamBlobs")
-	n = 0
-	for _, b := range sb.Blocks {
-		for _, in := range b.Instrs {
-			var sent []ssa.Value
-			switch x := in.(type) {
-			case *ssa.Send:
-				sent = append(sent, x.X)
-			case *ssa.Select:
-				for _, st := range x.States {
-					if st.Dir == types.SendOnly {
-						sent = append(sent, st.Send)
-					}
-				}
-			}
-			if len(sent) == 0 {
+	for _, w := range walkers {
+		e := c03EffOf(p, w.fn)
+		n := 0
+		for _, s := range e.calls(false) {
+			c := s.call()
+			if c.Common().IsInvoke() || e.kid(s) != nil || e.origin(c03Val{s.fr, c.Common().Value}, false).v != ssa.Value(w.walker) {
 				continue
 			}
 			n++
-			e := c03ExtentAt(p, sb, in)
-			ok, how := e.known()
-			r.Check(ok, rule, FuncKey(sb)+"#send", p.Pos(in.Pos()), "the blob is sent "+how, bad)
-			if !ok {
-				continue
+			x := c03ExtentAt(e, s)
+			ok, how := x.known()
+			k := FuncKey(s.fr.fn)
+			r.Check(ok, rule, k+"#walker-call", p.Pos(c.Pos()), "the walker is called "+how, bad)
+			if ok {
+				a := c.Common().Args
+				c03ReportExtentValue(r, rule, k+"#walker-call#extent-is-body-end", p.Pos(c.Pos()), x, a[w.offIdx], a[w.sizeIdx])
 			}
-			// the size the sent blob is declared with: the uint32 argument of the
-			// pkg/blob constructor the sent value is built from
-			var sizes []ssa.Value
-			for _, c := range CallsIn(sb, false) {
-				v := c.Value()
-				f := c.Callee()
-				if v == nil || f == nil || f.Pkg == nil || f.Pkg.Pkg.Path() != "perkeep.org/pkg/blob" || !IsNamed(v.Type(), "perkeep.org/pkg/blob", "Blob") {
-					continue
-				}
-				used := false
-				for _, s := range sent {
-					if c03Depends(s, func(x ssa.Value) bool { return x == ssa.Value(v) }) {
-						used = true
+		}
+		if n == 0 {
+			r.Violation(rule, FuncKey(w.fn)+"#walker-call", p.Pos(w.fn.Pos()), "the pack walk never calls its walker outside function literals")
+		}
+	}
+	// StreamBlobs: sends on the destination channel
+	sb := c03Streamer(p, d)
+	e := c03EffOf(p, sb)
+	n := 0
+	for _, fr := range e.frames {
+		if fr.deferred {
+			continue
+		}
+		for _, b := range fr.fn.Blocks {
+			for _, in := range b.Instrs {
+				var sent []ssa.Value
+				switch x := in.(type) {
+				case *ssa.Send:
+					sent = append(sent, x.X)
+				case *ssa.Select:
+					for _, st := range x.States {
+						if st.Dir == types.SendOnly {
+							sent = append(sent, st.Send)
+						}
 					}
 				}
-				if !used {
+				if len(sent) == 0 {
 					continue
 				}
-				for _, a := range v.Call.Args {
-					if b, ok := a.Type().Underlying().(*types.Basic); ok && b.Kind() == types.Uint32 {
-						sizes = append(sizes, a)
+				n++
+				at := c03Site{fr, in}
+				x := c03ExtentAt(e, at)
+				ok, how := x.known()
+				k := FuncKey(fr.fn)
+				r.Check(ok, rule, k+"#send", p.Pos(in.Pos()), "the blob is sent "+how, bad)
+				if !ok {
+					continue
+				}
+				// the size the sent blob is declared with: the uint32 argument of the
+				// pkg/blob constructor the sent value is built from
+				type sized struct {
+					fr *c03Frame
+					v  ssa.Value
+				}
+				var sizes []sized
+				for _, cs := range e.calls(false) {
+					v := cs.value()
+					f := cs.call().Callee()
+					if v == nil || f == nil || f.Pkg == nil || f.Pkg.Pkg.Path() != "perkeep.org/pkg/blob" || !IsNamed(v.Type(), "perkeep.org/pkg/blob", "Blob") {
+						continue
+					}
+					used := false
+					for _, s := range sent {
+						if e.depends(c03Val{fr, s}, func(y c03Val) bool { return y.v == ssa.Value(v) && y.fr == cs.fr }) {
+							used = true
+						}
+					}
+					if !used {
+						continue
+					}
+					for _, a := range v.Call.Args {
+						if b, ok := a.Type().Underlying().(*types.Basic); ok && b.Kind() == types.Uint32 {
+							sizes = append(sizes, sized{cs.fr, a})
+						}
 					}
 				}
+				ck := k + "#send#read-is-declared-size"
+				if len(sizes) != 1 {
+					r.Undecided(rule, ck, p.Pos(in.Pos()), fmt.Sprintf("found %d candidate(s) for the size the sent blob is declared with (the uint32 argument of the pkg/blob constructor the sent value is built from); cannot relate what was read to what is reported", len(sizes)))
+					continue
+				}
+				x.at = c03Site{sizes[0].fr, in} // the declared size is a value of the constructor call's frame
+				c03ReportExtentValue(r, rule, ck, p.Pos(in.Pos()), x, nil, sizes[0].v)
 			}
-			ck := FuncKey(sb) + "#send#read-is-declared-size"
-			if len(sizes) != 1 {
-				r.Undecided(rule, ck, p.Pos(in.Pos()), fmt.Sprintf("found %d candidate(s) for the size the sent blob is declared with (the uint32 argument of the pkg/blob constructor the sent value is built from); cannot relate what was read to what is reported", len(sizes)))
-				continue
-			}
-			c03ReportExtentValue(r, rule, ck, p.Pos(in.Pos()), e, nil, sizes[0])
 		}
 	}
 	if n == 0 {
@@ -3069,20 +3979,22 @@ func c03GetDestroyModel(p *Program) *c03DestroyModel {
 	return m
 }
 
-func (m *c03DestroyModel) isTempName(v ssa.Value, top *ssa.Function) bool {
+// isTempName: v is Name() of a file obtained from VFS.TempFile by this very
+// call: in the same function, or — when the file is a parameter of a helper all
+// of whose callers can be enumerated — at every call site (transitively).
+func (m *c03DestroyModel) isTempName(v ssa.Value) bool {
 	c, ok := originValue(v).(*ssa.Call)
 	if !ok || !c.Call.IsInvoke() || c.Call.Method.Name() != "Name" {
 		return false
 	}
-	ex, ok := originValue(c.Call.Value).(*ssa.Extract)
-	if !ok || ex.Index != 0 {
-		return false
-	}
-	tc, ok := ex.Tuple.(*ssa.Call)
-	if !ok {
-		return false
-	}
-	return (CallSite{tc.Parent(), tc}).IsMethod("TempFile", m.vfs) && TopFunc(tc.Parent()) == top
+	return c03ForAllCallers(m.p, c.Call.Value, 0, func(o ssa.Value) bool {
+		ex, ok := o.(*ssa.Extract)
+		if !ok || ex.Index != 0 {
+			return false
+		}
+		tc, ok := ex.Tuple.(*ssa.Call)
+		return ok && (CallSite{tc.Parent(), tc}).IsMethod("TempFile", m.vfs)
+	})
 }
 
 // c03UnderFreshDir: the path is the directory os.MkdirTemp just created, or a
@@ -3209,6 +4121,21 @@ func c03RuleFDestroy(p *Program, r *Reporter, m *c03DestroyModel) {
 		top := TopFunc(fn)
 		return top.Pkg != nil && scope[RelPkg(top.Pkg.Pkg)]
 	}
+	pub := c03PublishPath(p)
+	storeT := NamedOf(c03FilesAnchors(p).fn.Signature.Recv().Type())
+	isStoreStringField := func(t types.Type, idx int) bool {
+		if NamedOf(t) != storeT {
+			return false
+		}
+		st, ok := storeT.Underlying().(*types.Struct)
+		if !ok || idx >= st.NumFields() {
+			return false
+		}
+		b, ok := st.Field(idx).Type().Underlying().(*types.Basic)
+		return ok && b.Kind() == types.String
+	}
+	// blobTree: path material of the blob tree — the functions the published path is built from, the
+	// store's own string fields (its root), a directory listing, or caller-provided path material
 	blobTree := func(v ssa.Value) bool {
 		switch x := v.(type) {
 		case *ssa.Call:
@@ -3216,11 +4143,11 @@ func c03RuleFDestroy(p *Program, r *Reporter, m *c03DestroyModel) {
 				return x.Call.Method.Name() == "ReadDirNames"
 			}
 			f := x.Call.StaticCallee()
-			return f != nil && (f == p.Func(c03PkgFiles, "Storage", "blobPath") || f == p.Func(c03PkgFiles, "Storage", "blobDirectory") || f == p.Func(c03PkgFiles, "", "blobFileBaseName"))
+			return f != nil && pub.funcs[f]
 		case *ssa.FieldAddr:
-			return fieldName(x.X.Type(), x.Field) == "root"
+			return isStoreStringField(x.X.Type(), x.Field)
 		case *ssa.Field:
-			return fieldName(x.X.Type(), x.Field) == "root"
+			return isStoreStringField(x.X.Type(), x.Field)
 		case *ssa.Parameter:
 			return x != x.Parent().Params[0] || x.Parent().Signature.Recv() == nil // caller-provided path material (not the receiver itself)
 		}
@@ -3250,7 +4177,7 @@ func c03RuleFDestroy(p *Program, r *Reporter, m *c03DestroyModel) {
 			continue
 		}
 		switch {
-		case m.isTempName(P, top):
+		case m.isTempName(P):
 			r.OK(rule, construct, site, "the path is Name() of the file this very call obtained from VFS.TempFile: only the receive's own temp file is affected ("+kinds+")")
 			continue
 		case c03UnderFreshDir(P, 0):
@@ -3266,9 +4193,11 @@ func c03RuleFDestroy(p *Program, r *Reporter, m *c03DestroyModel) {
 		// the site itself, or (for a site inside function literals) the points at
 		// which the enclosing literals are created: a literal runs after its creation
 		for at := ssa.Instruction(c.Instr); at != nil && !listed; at = c03CreationSite(at.Parent()) {
-			for _, lc := range CallsIn(at.Parent(), false) {
-				if lc.Value() != nil && lc.IsMethod("ReadDirNames", m.vfs) && sameOrigin(lc.Args()[1], P) {
-					if ok, _ := SuccessDominates(lc.Value(), at); ok {
+			le := c03EffOf(p, at.Parent())
+			for _, ls := range le.calls(false) {
+				lc := ls.call()
+				if ls.value() != nil && lc.IsMethod("ReadDirNames", m.vfs) && le.same(c03Val{ls.fr, lc.Args()[1]}, c03Val{le.root, P}) {
+					if ok, _ := le.succDom(ls, c03Site{le.root, at}); ok {
 						listed = true
 					}
 				}
@@ -3283,8 +4212,8 @@ func c03RuleFDestroy(p *Program, r *Reporter, m *c03DestroyModel) {
 					bad = e.kind.String() + " via " + e.via + " of a path that is not known to be a directory (no successful VFS.ReadDirNames of the same path dominates the call)"
 				}
 			case c03KRenameDst:
-				if c03ImplMethodOf(top, receiver) && c.Fn == top {
-					continue // the atomic publish; source, destination and order are F-order's
+				if c.Fn.Parent() == nil && c03OnlyReachedFrom(p, c.Fn, func(f *ssa.Function) bool { return c03ImplMethodOf(f, receiver) }, 0) {
+					continue // the atomic publish (in ReceiveBlob or a helper only it calls); source, destination and order are F-order's
 				}
 				bad = e.kind.String() + " via " + e.via + " outside the receive path"
 			default:
@@ -3421,6 +4350,11 @@ func c03Mutators(fn *ssa.Function) []c03Mut {
 				mu.op = "write"
 			default:
 				// the handle itself is handed on
+				if f != nil && len(f.Blocks) > 0 && c03DPkg(f) && i < len(f.Params) {
+					// to a function of this package: what it does with its parameter is classified there, at
+					// each of its call sites ('P')
+					continue
+				}
 				mu.op = "hook"
 				var ints []ssa.Value
 				for j, b := range args {
@@ -3439,17 +4373,17 @@ func c03Mutators(fn *ssa.Function) []c03Mut {
 	return out
 }
 
-// c03HandleClass: 'W' the storage's live append handle (field writer), 'L' a
+// c03HandleClass: 'W' the store's live append handle (its *os.File field), 'L' a
 // handle opened writable in this function, 'R' opened read-only, 'T' a fresh
 // temp file, 'P' a parameter, 'U' unknown.
-func c03HandleClass(h ssa.Value) (class byte, open *ssa.Call, prm *ssa.Parameter) {
+func c03HandleClass(d *c03DPAnch, h ssa.Value) (class byte, open *ssa.Call, prm *ssa.Parameter) {
 	o := originValue(h)
 	switch x := o.(type) {
 	case *ssa.Parameter:
 		return 'P', nil, x
 	case *ssa.UnOp:
 		if x.Op == token.MUL {
-			if fa, ok := x.X.(*ssa.FieldAddr); ok && fieldName(fa.X.Type(), fa.Field) == "writer" && IsNamed(fa.X.Type().Underlying().(*types.Pointer).Elem(), modPrefix+c03PkgDP, "storage") {
+			if fa, ok := x.X.(*ssa.FieldAddr); ok && fieldName(fa.X.Type(), fa.Field) == d.writerF && NamedOf(fa.X.Type().Underlying().(*types.Pointer).Elem()) == d.storeT {
 				return 'W', nil, nil
 			}
 		}
@@ -3471,35 +4405,46 @@ func c03HandleClass(h ssa.Value) (class byte, open *ssa.Call, prm *ssa.Parameter
 				return 'R', c, nil
 			}
 			return 'L', c, nil
+		case f != nil && len(f.Blocks) > 0 && f.Pkg != nil && RelPkg(f.Pkg.Pkg) == c03PkgDP && !token.IsExported(f.Name()):
+			// a helper of the package that opens the file and returns the handle
+			var cls byte
+			var oc *ssa.Call
+			for _, ri := range Returns(f) {
+				if x.Index >= len(ri.Results) || c03IsZeroConst(ri.Results[x.Index]) {
+					continue
+				}
+				if _, isPrm := originValue(ri.Results[x.Index]).(*ssa.Parameter); isPrm {
+					return 'U', nil, nil
+				}
+				k, o, _ := c03HandleClass(d, ri.Results[x.Index])
+				if (k != 'L' && k != 'R') || cls != 0 && (cls != k || oc != o) {
+					return 'U', nil, nil
+				}
+				cls, oc = k, o
+			}
+			if cls != 0 {
+				return cls, oc, nil
+			}
 		}
 	}
 	return 'U', nil, nil
 }
+
+func c03IsParam(v ssa.Value) bool { _, ok := v.(*ssa.Parameter); return ok }
 
 func c03ConstIs(v ssa.Value, want int64) bool {
 	c, ok := ConstInt(v)
 	return ok && c == want
 }
 
-// c03LeavesAre: v is exactly the given field of row m (through conversions).
-func c03LeafIsField(v ssa.Value, m ssa.Value, field string) bool {
-	leaves := c03AddLeaves(originValue(v))
-	if len(leaves) != 1 {
-		return false
-	}
-	name, base, ok := c03FieldRead(originValue(leaves[0]))
-	return ok && name == field && c03Holds(base, m)
-}
-
 func c03RuleDDestroy(p *Program, r *Reporter, m *c03DestroyModel) {
 	const rule = "D-destroy"
 	r.Floor(rule, 13)
 	d := c03DPAnchors(p)
-	ap := d.append
+	e := d.e
 	remover := p.Iface("pkg/blobserver", "BlobRemover")
 	isRemoval := func(top *ssa.Function) bool { return c03ImplMethodOf(top, remover) }
-	metaFn := p.Func(c03PkgDP, "storage", "meta")
-	filenameFn := p.Func(c03PkgDP, "storage", "filename")
+	isRecvEntry := func(top *ssa.Function) bool { return top == d.recvFn }
 
 	// ---- (1) path level: nothing unlinks, renames or truncates a pack by name
 	nPath := 0
@@ -3521,7 +4466,7 @@ func c03RuleDDestroy(p *Program, r *Reporter, m *c03DestroyModel) {
 			// a writable handle: where may it go?
 			esc := ""
 			if v := c.Value(); v != nil {
-				esc = c03HandleEscapes(ResultValue(v, 0))
+				esc = c03HandleEscapes(d, ResultValue(v, 0))
 			} else {
 				esc = "opened by a go/defer statement"
 			}
@@ -3534,7 +4479,7 @@ func c03RuleDDestroy(p *Program, r *Reporter, m *c03DestroyModel) {
 		}
 		nPath++
 		kinds := c03KindsOf(rt.effs)
-		if c03StaticCall(P, filenameFn) != nil {
+		if _, isPack := d.isPackPath(P); isPack {
 			r.Violation(rule, construct, site, "a pack file is destroyed by name ("+kinds+"): every blob acknowledged into it is lost and Reindex cannot bring it back (the pack files are the only source of truth)")
 		} else {
 			r.Undecided(rule, construct, site, "package diskpacked destroys a path ("+kinds+") that the analysis cannot tell apart from a pack file or the index")
@@ -3548,67 +4493,54 @@ func c03RuleDDestroy(p *Program, r *Reporter, m *c03DestroyModel) {
 			}
 		}
 	}
-	r.Check(nPath == 0, rule, c03PkgDP+"#no-path-level-destroyer", p.Pos(ap.Pos()),
+	r.Check(nPath == 0, rule, c03PkgDP+"#no-path-level-destroyer", p.Pos(d.recvFn.Pos()),
 		"no function of package diskpacked removes, renames, truncates or re-creates a file by path (the only path-level write access is OpenFile without O_TRUNC)",
 		fmt.Sprintf("%d path-level destroyer(s) in package diskpacked, see the individual reports", nPath))
 
 	// ---- (2) handle level
-	var wWrites []ssa.Instruction // writes through the live handle in append
-	var sizeStores []ssa.Instruction
-	isSizeAddr := func(v ssa.Value) bool {
-		fa, ok := v.(*ssa.FieldAddr)
-		return ok && fieldName(fa.X.Type(), fa.Field) == "size" && originValue(fa.X) == ssa.Value(d.recv)
-	}
-	for _, mu := range c03Mutators(ap) {
-		if cl, _, _ := c03HandleClass(mu.h); cl == 'W' && (mu.op == "write" || mu.op == "write-n" || mu.op == "writeat") {
-			wWrites = append(wWrites, mu.c.Instr)
+	// the stores of the receive path into the store's byte counter
+	var sizeStores []c03Site
+	for _, fr := range e.frames {
+		if fr.deferred {
+			continue
 		}
-	}
-	for _, b := range ap.Blocks {
-		for _, in := range b.Instrs {
-			if st, ok := in.(*ssa.Store); ok && isSizeAddr(st.Addr) {
-				sizeStores = append(sizeStores, st)
-			}
-		}
-	}
-	// rollbackOK: x is storage.size as loaded before this call wrote anything,
-	// and the call cannot acknowledge once it got to at.
-	rollbackOK := func(x ssa.Value, at ssa.Instruction) (bool, string) {
-		if at.Parent() != ap {
-			return false, "not in append itself (a function literal's paths are not followed)"
-		}
-		// the end of the acknowledged data: s.size, or the handle's own position, ...
-		var captured ssa.Instruction
-		switch o := originValue(x).(type) {
-		case *ssa.UnOp:
-			if o.Op == token.MUL && isSizeAddr(o.X) {
-				captured = o
-			}
-		case *ssa.Extract:
-			if sk, ok := o.Tuple.(*ssa.Call); ok && o.Index == 0 && funcIs(sk.Call.StaticCallee(), "os", "File", "Seek") && sk.Parent() == ap {
-				if cl, _, _ := c03HandleClass(sk.Call.Args[0]); cl == 'W' && c03ConstIs(sk.Call.Args[1], 0) && (c03ConstIs(sk.Call.Args[2], 1) || c03ConstIs(sk.Call.Args[2], 2)) {
-					captured = sk
+		for _, b := range fr.fn.Blocks {
+			for _, in := range b.Instrs {
+				if st, ok := in.(*ssa.Store); ok && d.isStoreField(c03Val{fr, st.Addr}, d.sizeF) {
+					sizeStores = append(sizeStores, c03Site{fr, st})
 				}
 			}
 		}
-		if captured == nil {
-			return false, "the offset is neither s.size nor the live handle's position (Seek(0, SeekCurrent/SeekEnd)) as read in this call"
+	}
+	// rollbackOK: x (a value at site at of the receive path) is the store's byte counter — or the live
+	// handle's own position — as read before this receive wrote anything, and the receive cannot
+	// acknowledge once it got to at.
+	rollbackOK := func(at c03Site, x ssa.Value) (bool, string) {
+		o := e.origin(c03Val{at.fr, x}, true)
+		var captured c03Site
+		switch t := o.v.(type) {
+		case *ssa.UnOp:
+			if t.Op == token.MUL && d.isStoreField(c03Val{o.fr, t.X}, d.sizeF) {
+				captured = c03Site{o.fr, t}
+			}
+		case *ssa.Extract:
+			if sk, ok := t.Tuple.(*ssa.Call); ok && t.Index == 0 && funcIs(sk.Call.StaticCallee(), "os", "File", "Seek") {
+				if d.isWriter(c03Val{o.fr, sk.Call.Args[0]}) && c03ConstIs(sk.Call.Args[1], 0) && (c03ConstIs(sk.Call.Args[2], 1) || c03ConstIs(sk.Call.Args[2], 2)) {
+					captured = c03Site{o.fr, sk}
+				}
+			}
+		}
+		if !captured.valid() {
+			return false, "the offset is neither the store's byte counter (the int64 field the receive path advances by the written counts) nor the live handle's position (Seek(0, SeekCurrent/SeekEnd)) as read in this call"
 		}
 		// ... read before this call wrote anything
-		for _, w := range append(append([]ssa.Instruction{}, wWrites...), sizeStores...) {
-			if !Precedes(captured, w) {
-				return false, fmt.Sprintf("the offset is read after (or not before) the write/size update at line %d: it is not the end of the acknowledged data", c03Line(p, w.Pos()))
+		for _, w := range append(append([]c03Site{}, d.writes...), sizeStores...) {
+			if !e.precedes(captured, w) {
+				return false, fmt.Sprintf("the offset is read after (or not before) the write/size update at line %d: it is not the end of the acknowledged data", c03Line(p, w.in.Pos()))
 			}
 		}
-		reach := ReachableFrom(at, nil)
-		for _, nr := range MaybeNilErrorReturns(ap) {
-			end := ssa.Instruction(nr.Ret)
-			if nr.From != nil && nr.From != nr.Ret.Block() {
-				end = c03Last(nr.From)
-			}
-			if reach[end] || end == at {
-				return false, fmt.Sprintf("a return that may report success (line %d) is reachable afterwards: the blob whose bytes are cut off may be acknowledged", c03Line(p, nr.Ret.Pos()))
-			}
+		if ok, line := e.successAfter(at); ok {
+			return false, fmt.Sprintf("a return that may report success (line %d) is reachable afterwards: the blob whose bytes are cut off may be acknowledged", line)
 		}
 		return true, ""
 	}
@@ -3642,49 +4574,41 @@ func c03RuleDDestroy(p *Program, r *Reporter, m *c03DestroyModel) {
 	var classify func(mu c03Mut, fr frame, depth int) (st Status, table bool, detail string)
 	classify = func(mu c03Mut, fr frame, depth int) (Status, bool, string) {
 		fn := fr.at.Parent()
-		class, open, prm := c03HandleClass(fr.h)
+		class, open, prm := c03HandleClass(d, fr.h)
 		neutralSeek := mu.op == "seek" && fr.off != nil && c03ConstIs(fr.off, 0) && fr.whence != nil && (c03ConstIs(fr.whence, 1) || c03ConstIs(fr.whence, 2))
 		switch class {
 		case 'R', 'T':
 			return Discharged, true, "handle opened read-only (or a fresh temp file): the call cannot change a pack"
 		case 'W':
-			switch {
-			case neutralSeek:
+			if neutralSeek {
 				return Discharged, true, "position query / seek to the end on the live append handle"
-			case TopFunc(fn) != ap:
-				if q, isPrm := originValue(fr.off).(*ssa.Parameter); (mu.op == "seek" || mu.op == "truncate") && fr.off != nil && isPrm && q.Parent() == fn && fn.Parent() == nil && depth < 2 {
-					callers := p.StaticCallers(fn)
-					if len(callers) > 0 && len(p.FuncValueUses(fn)) == 0 && len(p.InvokeSites(fn)) == 0 {
-						for _, cs := range callers {
-							step := substFor(fn, cs.Args())
-							sub := func(v ssa.Value) ssa.Value { return step(fr.sub(v)) }
-							st, _, dt := classify(mu, frame{cs.Instr, fr.h, step(fr.off), step(fr.n), step(fr.whence), sub}, depth+1)
-							if st != Discharged {
-								return st, false, "via the call at line " + fmt.Sprint(c03Line(p, cs.Pos())) + ": " + dt
-							}
-						}
-						return Discharged, false, fmt.Sprintf("roll-back helper: at each of its %d call site(s) the offset passed is s.size as loaded before append's first write and no success return is reachable afterwards", len(callers))
-					}
+			}
+			sites := e.sitesOf(fr.at)
+			if len(sites) == 0 || !c03OnlyReachedFrom(p, fn, isRecvEntry, 0) {
+				return Violated, false, "the live append handle is " + c03OpWord(mu.op) + " outside the receive path (ReceiveBlob and the helpers only it calls): acknowledged extents of the current pack can be overwritten or cut off"
+			}
+			for _, s := range sites {
+				if s.fr.deferred {
+					return Undecided, false, "the live append handle is " + c03OpWord(mu.op) + " in a deferred call of the receive path; whether this is the roll-back of a failed append (no success return afterwards) is not followed there"
 				}
-				return Violated, false, "the live append handle (storage.writer) is " + c03OpWord(mu.op) + " outside append: acknowledged extents of the current pack can be overwritten or cut off"
+			}
+			switch {
 			case mu.op == "write" || mu.op == "write-n":
-				return Discharged, true, "append writes at the live handle's position; every call that moves that position is classified (and D-order decides write→sync→index)"
+				return Discharged, true, "the receive path writes at the live handle's position; every call that moves that position is classified (and D-order decides write→sync→index)"
 			case mu.op == "seek" && fr.whence != nil && c03ConstIs(fr.whence, 0), mu.op == "truncate":
 				if fr.off == nil {
 					return Undecided, false, "offset not followed"
 				}
-				if fr.at.Parent() != ap {
-					return Undecided, false, "the live append handle is " + c03OpWord(mu.op) + " inside a function literal of append; whether this is the roll-back of a failed append (no success return afterwards) is not followed there"
+				for _, s := range sites {
+					if ok, why := rollbackOK(s, fr.off); !ok {
+						return Violated, false, "the live append handle is " + c03OpWord(mu.op) + " and this is not the roll-back of the current failed append (" + why + "): blobs acknowledged earlier are overwritten by the next append or cut off"
+					}
 				}
-				ok, why := rollbackOK(fr.off, fr.at)
-				if ok {
-					return Discharged, false, "roll-back of the current, failed append: the offset is s.size as loaded before this call's first write and no return that may report success is reachable afterwards"
-				}
-				return Violated, false, "the live append handle is " + c03OpWord(mu.op) + " and this is not the roll-back of the current failed append (" + why + "): blobs acknowledged earlier are overwritten by the next append or cut off"
+				return Discharged, false, "roll-back of the current, failed append: the offset is the store's byte counter as loaded before this receive's first write and no return that may report success is reachable afterwards"
 			case mu.op == "fd" || mu.op == "hook":
 				return Undecided, false, "the live append handle is handed to code that is not followed"
 			}
-			return Violated, false, "the live append handle is " + c03OpWord(mu.op) + " in append at a position other than its end"
+			return Violated, false, "the live append handle is " + c03OpWord(mu.op) + " in the receive path at a position other than its end"
 		case 'L':
 			if neutralSeek {
 				return Discharged, true, "position query / seek to the end on a freshly opened handle"
@@ -3692,65 +4616,113 @@ func c03RuleDDestroy(p *Program, r *Reporter, m *c03DestroyModel) {
 			if !c03OnlyReachedFrom(p, fn, isRemoval, 0) {
 				return Violated, false, "a pack file opened writable is " + c03OpWord(mu.op) + " in a function that is not reached only from RemoveBlobs: acknowledged bytes are destroyed without a removal request"
 			}
-			// the index row of the blob being removed
-			var row ssa.Value
-			for _, mc := range CallsIn(fn, false) {
-				if mc.Callee() != metaFn || mc.Value() == nil || len(mc.Args()) != 2 {
+			// the index row of the blob being removed — looked up in fn or in a helper of its effective body
+			le := c03EffOf(p, fn)
+			at := c03Site{le.root, fr.at}
+			var rowV c03Val
+			for _, s := range le.calls(false) {
+				mc := s.call()
+				if s.value() == nil || !d.lookups[mc.Callee()] || len(mc.Args()) != 2 {
 					continue
 				}
-				if _, isPrm := originValue(mc.Args()[1]).(*ssa.Parameter); !isPrm {
+				if o := le.origin(c03Val{s.fr, mc.Args()[1]}, false); o.fr != le.root || !c03IsParam(o.v) {
 					continue
 				}
-				if ok, _ := SuccessDominates(mc.Value(), fr.at); ok {
-					row = ResultValue(mc.Value(), 0)
+				if ok, _ := le.succDom(s, at); ok {
+					rowV = c03Val{s.fr, ResultValue(s.value(), 0)}
 				}
 			}
-			if row == nil {
-				return Violated, false, "the call is not behind a successful meta(<ref parameter>) lookup: the extent it destroys is not the extent of the blob being removed"
+			if rowV.v == nil {
+				return Violated, false, "the call is not behind a successful index row lookup of <ref parameter>: the extent it destroys is not the extent of the blob being removed"
+			}
+			// fieldOf: v (a value at site s) is exactly row.<name>, through conversions
+			fieldOf := func(s c03Site, v ssa.Value, name string) bool {
+				if v == nil {
+					return false
+				}
+				o := le.origin(c03Val{s.fr, v}, true)
+				leaves := c03AddLeaves(o.v)
+				if len(leaves) != 1 {
+					return false
+				}
+				lo := le.origin(c03Val{o.fr, leaves[0]}, true)
+				base, ok := d.rowField(lo.v, name)
+				return ok && le.holds(c03Val{le.frameOf(lo.fr, base), base}, rowV)
 			}
 			if open != nil {
-				fnc := c03StaticCall(open.Call.Args[0], filenameFn)
 				okFile := false
-				if fnc != nil {
-					if name, base, ok := c03FieldRead(originValue(fnc.Call.Args[1])); ok && name == "file" && c03Holds(base, row) {
-						okFile = true
-					}
+				opFr := le.root
+				if ss := le.sitesOf(open); len(ss) > 0 {
+					opFr = ss[0].fr
+				}
+				sp := le.origin(c03Val{opFr, open.Call.Args[0]}, false)
+				if n, ok := d.isPackPath(sp.v); ok && fieldOf(c03Site{le.frameOf(sp.fr, n), open}, n, d.rowFile) {
+					okFile = true
 				}
 				if !okFile {
-					return Violated, false, "the file opened writable is not filename(<row>.file) of the looked-up row: another pack's bytes are destroyed"
+					return Violated, false, "the file opened writable is not the pack path of the looked-up row's pack number: another pack's bytes are destroyed"
 				}
 			}
-			isOff := func(v ssa.Value) bool { return v != nil && c03LeafIsField(v, row, "offset") }
-			isLen := func(v ssa.Value) bool { return v != nil && c03LeafIsField(v, row, "size") }
+			// the mutator's own sites: it may sit in a helper of fn, computing its extent from a row parameter
+			msites := le.sitesOf(mu.c.Instr)
+			atAll := func(pred func(s c03Site) bool) bool {
+				for _, s := range msites {
+					if !pred(s) {
+						return false
+					}
+				}
+				return len(msites) > 0
+			}
+			isField := func(sub, orig ssa.Value, name string) bool {
+				return fieldOf(at, sub, name) || atAll(func(s c03Site) bool { return fieldOf(s, orig, name) })
+			}
+			offDep := func(s c03Site, v ssa.Value) bool {
+				return v != nil && le.depends(c03Val{s.fr, v}, func(x c03Val) bool {
+					base, ok := d.rowField(x.v, d.rowOffset)
+					return ok && le.holds(c03Val{le.frameOf(x.fr, base), base}, rowV)
+				})
+			}
 			switch mu.op {
 			case "writeat":
-				dep := fr.off != nil && c03Depends(fr.off, func(v ssa.Value) bool {
-					name, base, ok := c03FieldRead(v)
-					return ok && name == "offset" && c03Holds(base, row)
-				})
-				if dep {
+				if offDep(at, fr.off) || atAll(func(s c03Site) bool { return offDep(s, mu.off) }) {
 					return Discharged, false, "WriteAt at a position computed from the removed blob's row (offset minus the header length; D-reindex-agreement#walk-back-length decides the length)"
 				}
 				return Violated, false, "WriteAt at a position that does not derive from the removed blob's index row"
 			case "seek":
-				if c03ConstIs(fr.whence, 0) && isOff(fr.off) {
+				if (c03ConstIs(fr.whence, 0) || mu.whence != nil && c03ConstIs(mu.whence, 0)) && isField(fr.off, mu.off, d.rowOffset) {
 					return Discharged, false, "Seek(row.offset, SeekStart): the start of the removed blob's body"
 				}
 				return Violated, false, "the handle is positioned somewhere other than the removed blob's row.offset"
 			case "write-n":
-				if !isLen(fr.n) {
+				if !isField(fr.n, mu.n, d.rowSize) {
 					return Violated, false, "the number of bytes overwritten is not the removed blob's row.size: the zero fill runs into the next (acknowledged) entry or stops short"
 				}
-				for _, sk := range c03Mutators(mu.c.Fn) {
-					if sk.op == "seek" && sk.c.Value() != nil && sameOrigin(sk.h, mu.h) && c03ConstIs(sk.whence, 0) && isOff(fr.sub(sk.off)) {
-						if ok, _ := SuccessDominates(sk.c.Value(), mu.c.Instr); ok {
-							return Discharged, false, "exactly row.size bytes are overwritten behind a successful Seek(row.offset, SeekStart) on the same handle"
+				behindSeek := atAll(func(ms c03Site) bool {
+					for _, f2 := range le.frames {
+						if f2.deferred {
+							continue
+						}
+						for _, sk := range c03Mutators(f2.fn) {
+							if sk.op != "seek" || sk.c.Value() == nil || !c03ConstIs(sk.whence, 0) || !le.same(c03Val{f2, sk.h}, c03Val{ms.fr, mu.h}) {
+								continue
+							}
+							ss := c03Site{f2, sk.c.Instr}
+							if !fieldOf(ss, sk.off, d.rowOffset) {
+								continue
+							}
+							if ok, _ := le.succDom(ss, ms); ok {
+								return true
+							}
 						}
 					}
+					return false
+				})
+				if behindSeek {
+					return Discharged, false, "exactly row.size bytes are overwritten behind a successful Seek(row.offset, SeekStart) on the same handle"
 				}
 				return Violated, false, "row.size bytes are overwritten but not behind a successful Seek(row.offset, SeekStart) on the same handle: the wrong extent is zeroed"
 			case "hook":
-				if isOff(fr.off) && isLen(fr.n) {
+				if isField(fr.off, mu.off, d.rowOffset) && isField(fr.n, mu.n, d.rowSize) {
 					return Discharged, false, "the hook receives exactly (row.offset, row.size) of the removed blob"
 				}
 				return Violated, false, "the handle is handed on with an extent other than (row.offset, row.size) of the removed blob"
@@ -3807,7 +4779,7 @@ func c03RuleDDestroy(p *Program, r *Reporter, m *c03DestroyModel) {
 	nMut := 0
 	for _, fn := range p.FuncsIn(c03PkgDP) {
 		for _, mu := range c03Mutators(fn) {
-			if cl, _, _ := c03HandleClass(mu.h); (cl == 'R' || cl == 'T' || cl == 'U') && mu.op == "seek" {
+			if cl, _, _ := c03HandleClass(d, mu.h); (cl == 'R' || cl == 'T' || cl == 'U') && mu.op == "seek" {
 				continue // reader positioning
 			}
 			nMut++
@@ -3852,24 +4824,44 @@ func c03RuleDDestroy(p *Program, r *Reporter, m *c03DestroyModel) {
 			case !c03OnlyReachedFrom(p, fn, isRemoval, 0):
 				r.Violation(rule, construct, site, "an index row is deleted in a function that is not reached only from RemoveBlobs: an acknowledged, never removed blob disappears from stat/fetch/enumerate")
 			default:
-				var refs *ssa.Parameter
-				if isRemoval(top) {
-					for _, prm := range top.Params {
-						if sl, ok := prm.Type().Underlying().(*types.Slice); ok && IsNamed(sl.Elem(), "perkeep.org/pkg/blob", "Ref") {
-							refs = prm
-						}
+				// the key is String() of a ref that comes from the refs RemoveBlobs was given: directly, or through
+				// the ref/refs parameters of helpers all of whose callers pass such refs
+				isRefsParam := func(v ssa.Value) bool {
+					prm, ok := v.(*ssa.Parameter)
+					if !ok || !isRemoval(prm.Parent()) {
+						return false
 					}
+					sl, ok := prm.Type().Underlying().(*types.Slice)
+					return ok && IsNamed(sl.Elem(), "perkeep.org/pkg/blob", "Ref")
+				}
+				var fromRefs func(v ssa.Value, depth int) bool
+				fromRefs = func(v ssa.Value, depth int) bool {
+					return c03Depends(v, func(x ssa.Value) bool {
+						if isRefsParam(x) {
+							return true
+						}
+						prm, ok := x.(*ssa.Parameter)
+						if !ok || depth > 2 || isRemoval(prm.Parent()) {
+							return false
+						}
+						t := prm.Type()
+						if sl, isSl := t.Underlying().(*types.Slice); isSl {
+							t = sl.Elem()
+						}
+						if !IsNamed(t, "perkeep.org/pkg/blob", "Ref") {
+							return false
+						}
+						return c03ForAllCallers(p, prm, 0, func(o ssa.Value) bool {
+							if o == ssa.Value(prm) {
+								return false
+							}
+							return fromRefs(o, depth+1)
+						})
+					})
 				}
 				key := c03CallIs(c.Args()[1], "perkeep.org/pkg/blob", "Ref", "String")
-				ok := false
-				switch {
-				case key == nil:
-				case refs != nil:
-					ok = c03Depends(key.Call.Args[0], func(v ssa.Value) bool { return v == ssa.Value(refs) })
-				default:
-					// a helper below RemoveBlobs: the key must be its own ref parameter's
-					_, ok = originValue(key.Call.Args[0]).(*ssa.Parameter)
-				}
+				ok := key != nil && fromRefs(key.Call.Args[0], 0)
+				_ = top
 				r.Check(ok, rule, construct, site,
 					"the deleted key is String() of an element of the refs RemoveBlobs was asked to remove",
 					"the deleted index key is not String() of one of the refs RemoveBlobs was asked to remove: another blob's row is lost")
@@ -3877,7 +4869,7 @@ func c03RuleDDestroy(p *Program, r *Reporter, m *c03DestroyModel) {
 		}
 	}
 	if nDel == 0 {
-		r.Violation(rule, c03PkgDP+"#index.Delete", p.Pos(ap.Pos()), "no index row deletion found in package diskpacked (RemoveBlobs must delete the rows of the blobs it removes)")
+		r.Violation(rule, c03PkgDP+"#index.Delete", p.Pos(d.recvFn.Pos()), "no index row deletion found in package diskpacked (RemoveBlobs must delete the rows of the blobs it removes)")
 	}
 }
 
@@ -3899,7 +4891,7 @@ func c03OpWord(op string) string {
 
 // c03HandleEscapes: where else than into local calls and storage.writer a
 // freshly opened handle goes ("" = nowhere).
-func c03HandleEscapes(h ssa.Value) string {
+func c03HandleEscapes(d *c03DPAnch, h ssa.Value) string {
 	if h == nil || h.Referrers() == nil {
 		return ""
 	}
@@ -3909,7 +4901,7 @@ func c03HandleEscapes(h ssa.Value) string {
 			if x.Val != h {
 				continue
 			}
-			if fa, ok := x.Addr.(*ssa.FieldAddr); ok && fieldName(fa.X.Type(), fa.Field) == "writer" {
+			if fa, ok := x.Addr.(*ssa.FieldAddr); ok && fieldName(fa.X.Type(), fa.Field) == d.writerF {
 				continue
 			}
 			if al, ok := x.Addr.(*ssa.Alloc); ok && plainVariable(al) {
@@ -3925,4 +4917,1641 @@ func c03HandleEscapes(h ssa.Value) string {
 		}
 	}
 	return ""
+}
+
+// ===========================================================================
+// Effective bodies
+//
+// A rule that looks for a site "in function F" looks in F's effective body: F
+// plus, transitively, the unexported functions/methods of the same package and
+// the function literals that F calls statically (call or defer; a go statement
+// starts another thread of control and is not part of the body). Every static
+// call that is followed creates a frame; a site is an instruction in a frame,
+// so a helper called from two places contributes two sites. Values are
+// followed across frames (a helper's parameter stands for the caller's
+// argument, a followed call's result for the value every non-zero return
+// yields); ordering and success facts are carried across the call:
+//
+//   - "A precedes B": at the frame where the call chains of A and B part, the
+//     instruction leading to A precedes the one leading to B, and (when A lies
+//     deeper) every return of the helper entered there is preceded by A;
+//   - "A succeeded at B": likewise with success edges — the helper call's error
+//     is known nil at B and inside the helper every return that may report
+//     success (nil error; any return when it has no error result) is behind
+//     the success edge of A (or returns A's own error).
+//
+// A deferred helper runs at the exit of the function that defers it: sites in
+// it follow everything that precedes the defer statement and precede nothing.
+
+type c03Frame struct {
+	fn       *ssa.Function
+	call     ssa.CallInstruction // the instruction of parent.fn that enters this frame (nil for the root)
+	parent   *c03Frame
+	depth    int
+	deferred bool // this frame or one of its ancestors was entered by a defer statement
+	kids     map[ssa.Instruction]*c03Frame
+}
+
+type c03Eff struct {
+	p      *Program
+	root   *c03Frame
+	frames []*c03Frame
+	byFn   map[*ssa.Function][]*c03Frame
+}
+
+const (
+	c03EffDepth  = 5
+	c03EffFrames = 4000
+)
+
+var c03EffCache = map[*ssa.Function]*c03Eff{}
+
+// c03CacheGuard drops every cache of this file when another program is being
+// analysed (selftest and the thorough tier load several programs in one
+// process; keeping their functions alive would keep the programs alive).
+var c03CachedProgram *Program
+
+func c03CacheGuard(p *Program) {
+	if c03CachedProgram == p {
+		return
+	}
+	c03CachedProgram = p
+	c03EffCache = map[*ssa.Function]*c03Eff{}
+	c03RecvCache = map[*ssa.Function]*c03Recv{}
+	c03PublishCache = map[*ssa.Function]*c03Publish{}
+	c03DPCache = map[*ssa.Program]*c03DPAnch{}
+	c03InvokeCache = map[*ssa.Function]int{}
+}
+
+// c03EffOf builds (once) the effective body of fn.
+func c03EffOf(p *Program, fn *ssa.Function) *c03Eff {
+	c03CacheGuard(p)
+	if e, ok := c03EffCache[fn]; ok {
+		return e
+	}
+	e := &c03Eff{p: p, byFn: map[*ssa.Function][]*c03Frame{}}
+	e.root = &c03Frame{fn: fn, kids: map[ssa.Instruction]*c03Frame{}}
+	e.build(e.root)
+	c03EffCache[fn] = e
+	return e
+}
+
+// expandable: the callee of ci that belongs to the effective body (nil if none).
+func (e *c03Eff) expandable(fr *c03Frame, ci ssa.CallInstruction) *ssa.Function {
+	if _, isGo := ci.(*ssa.Go); isGo {
+		return nil
+	}
+	callee := (CallSite{fr.fn, ci}).Callee()
+	if callee == nil || len(callee.Blocks) == 0 {
+		return nil
+	}
+	top, rtop := TopFunc(callee), TopFunc(e.root.fn)
+	if top.Pkg == nil || top.Pkg != rtop.Pkg {
+		return nil
+	}
+	if callee.Parent() == nil && (callee.Synthetic != "" || token.IsExported(callee.Name())) {
+		return nil
+	}
+	for a := fr; a != nil; a = a.parent {
+		if a.fn == callee {
+			return nil // recursion: the body is already there
+		}
+	}
+	return callee
+}
+
+func (e *c03Eff) build(fr *c03Frame) {
+	e.frames = append(e.frames, fr)
+	e.byFn[fr.fn] = append(e.byFn[fr.fn], fr)
+	if fr.depth >= c03EffDepth || len(e.frames) > c03EffFrames {
+		return
+	}
+	for _, c := range CallsIn(fr.fn, false) {
+		callee := e.expandable(fr, c.Instr)
+		if callee == nil {
+			continue
+		}
+		_, isDefer := c.Instr.(*ssa.Defer)
+		kid := &c03Frame{fn: callee, call: c.Instr, parent: fr, depth: fr.depth + 1, deferred: fr.deferred || isDefer, kids: map[ssa.Instruction]*c03Frame{}}
+		fr.kids[c.Instr] = kid
+		e.build(kid)
+	}
+}
+
+// funcs lists the functions of the effective body; with deep, also the
+// function literals nested in them (whether or not they are called).
+func (e *c03Eff) funcs(deep bool) []*ssa.Function {
+	seen := map[*ssa.Function]bool{}
+	var out []*ssa.Function
+	var add func(f *ssa.Function)
+	add = func(f *ssa.Function) {
+		if seen[f] {
+			return
+		}
+		seen[f] = true
+		out = append(out, f)
+		if deep {
+			for _, a := range f.AnonFuncs {
+				add(a)
+			}
+		}
+	}
+	for _, fr := range e.frames {
+		add(fr.fn)
+	}
+	return out
+}
+
+// has: fn (or, lexically, the function it is nested in) is part of the body.
+func (e *c03Eff) has(fn *ssa.Function) bool {
+	for f := fn; f != nil; f = f.Parent() {
+		if len(e.byFn[f]) > 0 {
+			return true
+		}
+	}
+	return false
+}
+
+// A c03Site is an instruction in one frame of an effective body.
+type c03Site struct {
+	fr *c03Frame
+	in ssa.Instruction
+}
+
+func (s c03Site) valid() bool { return s.fr != nil && s.in != nil }
+
+func (s c03Site) call() CallSite {
+	ci, _ := s.in.(ssa.CallInstruction)
+	return CallSite{s.fr.fn, ci}
+}
+
+// value returns the *ssa.Call of a call site (nil for go/defer and non-calls).
+func (s c03Site) value() *ssa.Call { v, _ := s.in.(*ssa.Call); return v }
+
+func (s c03Site) chain() []c03Site {
+	var rev []c03Site
+	rev = append(rev, s)
+	for fr := s.fr; fr.parent != nil; fr = fr.parent {
+		rev = append(rev, c03Site{fr.parent, fr.call})
+	}
+	for i, j := 0, len(rev)-1; i < j; i, j = i+1, j-1 {
+		rev[i], rev[j] = rev[j], rev[i]
+	}
+	return rev
+}
+
+// calls lists the call instructions of all frames (with deferred, also of the
+// frames that run deferred). Calls that are themselves followed are included;
+// kid() tells them apart.
+func (e *c03Eff) calls(deferred bool) []c03Site {
+	var out []c03Site
+	for _, fr := range e.frames {
+		if fr.deferred && !deferred {
+			continue
+		}
+		for _, c := range CallsIn(fr.fn, false) {
+			out = append(out, c03Site{fr, c.Instr})
+		}
+	}
+	return out
+}
+
+// kid: the frame entered by the call at s (nil when the call is not followed).
+func (e *c03Eff) kid(s c03Site) *c03Frame {
+	if s.fr == nil {
+		return nil
+	}
+	return s.fr.kids[s.in]
+}
+
+// sitesOf lists the sites of instruction in (one per frame of its function).
+func (e *c03Eff) sitesOf(in ssa.Instruction) []c03Site {
+	var out []c03Site
+	for _, fr := range e.byFn[in.Parent()] {
+		out = append(out, c03Site{fr, in})
+	}
+	return out
+}
+
+func c03IsDeferOrGo(in ssa.Instruction) bool {
+	switch in.(type) {
+	case *ssa.Defer, *ssa.Go:
+		return true
+	}
+	return false
+}
+
+// c03SuccDom is SuccessDominates, with a path-sensitive second attempt for
+// error chaining (`err = a(); if err == nil { err = b() }; if err != nil {
+// return }`): there the call b does not dominate what follows and its error is
+// tested through a phi, but on every path on which the test lets control
+// through, b has run and returned nil.
+func c03SuccDom(c *ssa.Call, s ssa.Instruction) (bool, string) {
+	ok, why := SuccessDominates(c, s)
+	if c.Parent() != s.Parent() {
+		return ok, why
+	}
+	all, refuted := c03SucceededOnAllPaths(c, s)
+	if ok {
+		// SuccessDominates accepts a nil test of a phi that merges the call's error with other values; a
+		// path on which the error is known non-nil and the site is reached anyway (the error variable was
+		// reset) refutes it
+		if refuted {
+			return false, "the call's error is non-nil on a path that reaches the site (the error variable is overwritten before it is tested)"
+		}
+		return true, ""
+	}
+	if all {
+		return true, ""
+	}
+	return false, why
+}
+
+// c03SucceededOnAllPaths explores every CFG path from the function's entry to
+// instruction s, following only feasible branches as far as the nil-ness of the
+// call's error value (and of the phis it flows into) decides them, and reports
+// whether on each of them the call has executed and its error is nil at s.
+func c03SucceededOnAllPaths(c *ssa.Call, s ssa.Instruction) (all, refuted bool) {
+	ev, hasErr, discarded := ErrValue(c)
+	if !hasErr || discarded || ev == nil {
+		return false, false
+	}
+	fn := c.Parent()
+	if len(fn.Blocks) == 0 || len(fn.Blocks) > 400 {
+		return false, false
+	}
+	// tracked values: the error, the phis it (transitively) flows into, and what else those phis merge
+	tracked := map[ssa.Value]int{ev: 0}
+	order := []ssa.Value{ev}
+	for changed := true; changed; {
+		changed = false
+		for _, b := range fn.Blocks {
+			for _, in := range b.Instrs {
+				ph, ok := in.(*ssa.Phi)
+				if !ok {
+					break
+				}
+				if _, have := tracked[ph]; have {
+					// the other values the phi merges are tracked too: a branch on one of them decides
+					// which way the phi's own test can go
+					for _, e := range ph.Edges {
+						if _, t := tracked[e]; !t {
+							if _, isConst := e.(*ssa.Const); !isConst {
+								tracked[e] = len(order)
+								order = append(order, e)
+								changed = true
+							}
+						}
+					}
+					continue
+				}
+				for _, e := range ph.Edges {
+					if _, t := tracked[e]; t {
+						tracked[ph] = len(order)
+						order = append(order, ph)
+						changed = true
+						break
+					}
+				}
+			}
+		}
+	}
+	if len(order) > 12 {
+		return false, false
+	}
+	const (
+		unknown = 0
+		isNil   = 1
+		nonNil  = 2
+	)
+	type state struct {
+		passed bool
+		st     [12]int8 // nil-ness of each tracked value
+		alias  [12]int8 // for a phi: index of the tracked value it took on this path (-1: an untracked one)
+	}
+	// setNil records a refinement and propagates it along the alias chain
+	var setNil func(sv *state, i int, v int8)
+	setNil = func(sv *state, i int, v int8) {
+		for n := 0; n < 12 && i >= 0; n++ {
+			sv.st[i] = v
+			i = int(sv.alias[i])
+		}
+	}
+	type key struct {
+		b    *ssa.BasicBlock
+		from int
+		s    state
+	}
+	seen := map[key]bool{}
+	okAll, aborted, counter := true, false, false
+	steps := 0
+	var walk func(b *ssa.BasicBlock, pred *ssa.BasicBlock, sv state)
+	walk = func(b *ssa.BasicBlock, pred *ssa.BasicBlock, sv state) {
+		if aborted {
+			return
+		}
+		if pred != nil && b.Dominates(pred) {
+			// a back edge: what an earlier iteration established does not count for this one
+			sv = state{}
+			for i := range sv.alias {
+				sv.alias[i] = -1
+			}
+		}
+		steps++
+		if steps > 20000 {
+			okAll, aborted = false, true
+			return
+		}
+		pi := -1
+		for i, p := range b.Preds {
+			if p == pred {
+				pi = i
+			}
+		}
+		k := key{b, pi, sv}
+		if seen[k] {
+			return
+		}
+		seen[k] = true
+		for _, in := range b.Instrs {
+			if in == s {
+				if !(sv.passed && sv.st[0] == isNil) {
+					okAll = false
+				}
+				if sv.passed && sv.st[0] == nonNil {
+					counter = true
+				}
+				return
+			}
+			switch x := in.(type) {
+			case *ssa.Phi:
+				if i, t := tracked[x]; t && pi >= 0 {
+					sv.alias[i], sv.st[i] = -1, unknown
+					e := x.Edges[pi]
+					if j, tj := tracked[e]; tj {
+						sv.alias[i], sv.st[i] = int8(j), sv.st[j]
+					} else if IsNilConst(e) {
+						sv.st[i] = isNil
+					} else if isNonNilErrorExpr(e) {
+						sv.st[i] = nonNil
+					}
+				}
+			case *ssa.Call:
+				if x == c {
+					sv.passed = true
+					sv.st[0], sv.alias[0] = unknown, -1
+				}
+			case *ssa.Return, *ssa.Panic:
+				return
+			case *ssa.If:
+				// a nil test of a tracked value?
+				cond, neg := x.Cond, false
+				for {
+					if u, ok := cond.(*ssa.UnOp); ok && u.Op == token.NOT {
+						cond, neg = u.X, !neg
+						continue
+					}
+					break
+				}
+				ti := -1
+				eq := false
+				if bo, ok := cond.(*ssa.BinOp); ok && (bo.Op == token.EQL || bo.Op == token.NEQ) {
+					var other ssa.Value
+					if IsNilConst(bo.Y) {
+						other = bo.X
+					} else if IsNilConst(bo.X) {
+						other = bo.Y
+					}
+					if other != nil {
+						if i, t := tracked[other]; t {
+							ti, eq = i, (bo.Op == token.EQL) != neg
+						}
+					}
+				}
+				if ti < 0 || len(b.Succs) != 2 {
+					for _, sc := range b.Succs {
+						walk(sc, b, sv)
+					}
+					return
+				}
+				// Succs[0] is taken when cond is true: the value is nil iff eq
+				for si, sc := range b.Succs {
+					nilHere := (si == 0) == eq
+					if sv.st[ti] == isNil && !nilHere || sv.st[ti] == nonNil && nilHere {
+						continue // infeasible
+					}
+					nv := sv
+					if nilHere {
+						setNil(&nv, ti, isNil)
+					} else {
+						setNil(&nv, ti, nonNil)
+					}
+					walk(sc, b, nv)
+				}
+				return
+			}
+		}
+		for _, sc := range b.Succs {
+			walk(sc, b, sv)
+		}
+	}
+	var init state
+	for i := range init.alias {
+		init.alias[i] = -1
+	}
+	walk(fn.Blocks[0], nil, init)
+	// s must be reachable at all for the claim to mean something
+	reached := false
+	for k := range seen {
+		if k.b == s.Block() {
+			reached = true
+		}
+	}
+	return okAll && reached, counter && !aborted
+}
+
+// order decides "a precedes b" (success=false) or "a, a call, has succeeded at
+// b" (success=true) across frames.
+func (e *c03Eff) order(a, b c03Site, success bool) (bool, string) {
+	if !a.valid() || !b.valid() {
+		return false, "site not in the effective body"
+	}
+	ca, cb := a.chain(), b.chain()
+	i := 0
+	for i < len(ca)-1 && i < len(cb)-1 && ca[i].in == cb[i].in {
+		i++
+	}
+	if ca[i].fr != cb[i].fr {
+		return false, "sites are not comparable"
+	}
+	x, y := ca[i].in, cb[i].in
+	if x == y {
+		return false, "the site is the call itself"
+	}
+	if c03IsDeferOrGo(x) {
+		return false, "the call runs deferred (at function exit) or in another goroutine"
+	}
+	if i == len(ca)-1 {
+		if !success {
+			if Precedes(x, y) {
+				return true, ""
+			}
+			return false, "call does not dominate the site"
+		}
+		xc, ok := x.(*ssa.Call)
+		if !ok {
+			return false, "not a call"
+		}
+		return c03SuccDom(xc, y)
+	}
+	// x enters the helper that contains a
+	var yield *bool
+	if success {
+		xc, ok := x.(*ssa.Call)
+		if !ok {
+			return false, "not a call"
+		}
+		if ok, why := c03SuccDom(xc, y); !ok {
+			return false, "helper " + FuncKey(ca[i+1].fr.fn) + ": " + why
+		}
+		// a predicate helper: only the returns that yield the boolean known at the site matter
+		if res := xc.Call.Signature().Results(); res.Len() == 1 {
+			if b, isB := res.At(0).Type().Underlying().(*types.Basic); isB && b.Kind() == types.Bool {
+				for _, f := range FactsAt(y.Block()) {
+					c, v := f.Cond, f.Val
+					for {
+						if u, ok := c.(*ssa.UnOp); ok && u.Op == token.NOT {
+							c, v = u.X, !v
+							continue
+						}
+						break
+					}
+					if originValue(c) == ssa.Value(xc) {
+						v := v
+						yield = &v
+					}
+				}
+			}
+		}
+	} else if !Precedes(x, y) {
+		return false, "the call of helper " + FuncKey(ca[i+1].fr.fn) + " does not dominate the site"
+	}
+	return e.summaryY(ca[i+1:], success, yield)
+}
+
+// c03YieldingExits: the points (a return, or the end of the predecessor block
+// feeding a phi) at which a one-result boolean helper is about to return val.
+func c03YieldingExits(fn *ssa.Function, val bool) []ssa.Instruction {
+	var out []ssa.Instruction
+	var visit func(x ssa.Value, at ssa.Instruction, depth int)
+	visit = func(x ssa.Value, at ssa.Instruction, depth int) {
+		switch t := x.(type) {
+		case *ssa.Const:
+			if t.Value != nil && t.Value.Kind() == constant.Bool && constant.BoolVal(t.Value) != val {
+				return
+			}
+		case *ssa.Phi:
+			if depth < 6 {
+				for j, edge := range t.Edges {
+					visit(edge, c03Last(t.Block().Preds[j]), depth+1)
+				}
+				return
+			}
+		}
+		out = append(out, at)
+	}
+	for _, ri := range Returns(fn) {
+		if len(ri.Results) == 1 {
+			visit(ri.Results[0], ri.Ret, 0)
+		} else {
+			out = append(out, ri.Ret)
+		}
+	}
+	return out
+}
+
+func (e *c03Eff) summary(rest []c03Site, success bool) (bool, string) {
+	return e.summaryY(rest, success, nil)
+}
+
+// summary: every return of the helper rest[0].fr.fn (with success: every return
+// that may report success) lies behind rest's target.
+func (e *c03Eff) summaryY(rest []c03Site, success bool, yield *bool) (bool, string) {
+	fr, x := rest[0].fr, rest[0].in
+	if c03IsDeferOrGo(x) {
+		return false, "inside helper " + FuncKey(fr.fn) + " the call runs deferred or in another goroutine"
+	}
+	xc, _ := x.(*ssa.Call)
+	deeper := func() (bool, string) {
+		if len(rest) > 1 {
+			return e.summary(rest[1:], success)
+		}
+		return true, ""
+	}
+	local := func(at ssa.Instruction) (bool, string) {
+		if success {
+			if xc == nil {
+				return false, "not a call"
+			}
+			if ok, why := c03SuccDom(xc, at); !ok {
+				return false, why
+			}
+		} else if !Precedes(x, at) {
+			return false, "call does not dominate the return"
+		}
+		return deeper()
+	}
+	line := func(pos token.Pos) string { return fmt.Sprint(c03Line(e.p, pos)) }
+	if success && ErrResultIndex(fr.fn) >= 0 {
+		for _, nr := range e.maybeNilReturns(fr) {
+			at := ssa.Instruction(nr.Ret)
+			if nr.From != nil && nr.From != nr.Ret.Block() {
+				at = c03Last(nr.From)
+			}
+			ok, why := local(at)
+			if ok {
+				continue
+			}
+			// the helper returns the inner call's own error
+			if xc != nil {
+				if ev, has, _ := ErrValue(xc); has && ev != nil && originValue(nr.Val) == originValue(ev) {
+					if ok2, _ := deeper(); ok2 {
+						continue
+					}
+				}
+			}
+			return false, "helper " + FuncKey(fr.fn) + " may report success at line " + line(nr.Ret.Pos()) + " without it (" + why + ")"
+		}
+		return true, ""
+	}
+	if yield != nil {
+		for _, at := range c03YieldingExits(fr.fn, *yield) {
+			if ok, why := local(at); !ok {
+				return false, fmt.Sprintf("helper %s can return %v at line %s without it (%s)", FuncKey(fr.fn), *yield, line(at.Pos()), why)
+			}
+		}
+		return true, ""
+	}
+	for _, ri := range Returns(fr.fn) {
+		if ok, why := local(ri.Ret); !ok {
+			return false, "helper " + FuncKey(fr.fn) + " can return at line " + line(ri.Ret.Pos()) + " without it (" + why + ")"
+		}
+	}
+	return true, ""
+}
+
+func (e *c03Eff) precedes(a, b c03Site) bool { ok, _ := e.order(a, b, false); return ok }
+
+func (e *c03Eff) succDom(a, b c03Site) (bool, string) { return e.order(a, b, true) }
+
+// maybeNilReturns lists the returns of frame fr's function whose error may be
+// nil. Beyond MaybeNilErrorReturns, an error operand that is the result of a
+// followed helper is resolved to what the helper returns: a helper that hands
+// back its (non-nil) error argument or a freshly made error does not make the
+// return a success return.
+func (e *c03Eff) maybeNilReturns(fr *c03Frame) []NilReturn {
+	var out []NilReturn
+	for _, nr := range MaybeNilErrorReturns(fr.fn) {
+		blk := nr.Ret.Block()
+		if nr.From != nil {
+			blk = nr.From
+		}
+		if e.knownNonNil(c03Val{fr, nr.Val}, blk, 0) {
+			continue
+		}
+		out = append(out, nr)
+	}
+	return out
+}
+
+// knownNonNil: the error value v (of frame v.fr; blk is the block of v.fr.fn at
+// which it is used) is known not to be nil.
+func (e *c03Eff) knownNonNil(v c03Val, blk *ssa.BasicBlock, depth int) bool {
+	if v.v == nil || IsNilConst(v.v) || depth > 4 {
+		return false
+	}
+	if isNonNilErrorExpr(v.v) {
+		return true
+	}
+	if blk != nil && blk.Parent() == c03ValueFn(v.v) || blk != nil && c03ValueFn(v.v) == nil {
+		if k, isNil := NilFact(blk, v.v); k && !isNil {
+			return true
+		}
+	}
+	o := originValue(v.v)
+	var call *ssa.Call
+	idx := 0
+	switch t := o.(type) {
+	case *ssa.Extract:
+		call, _ = t.Tuple.(*ssa.Call)
+		idx = t.Index
+	case *ssa.Call:
+		call = t
+	case *ssa.Parameter:
+		// a helper's error parameter: non-nil if the argument is, at the call
+		if v.fr != nil && v.fr.fn == t.Parent() && v.fr.call != nil {
+			if i := c03ParamIndex(t); i >= 0 && i < len(v.fr.call.Common().Args) {
+				return e.knownNonNil(c03Val{v.fr.parent, v.fr.call.Common().Args[i]}, v.fr.call.Block(), depth+1)
+			}
+		}
+		return false
+	}
+	if call == nil || v.fr == nil {
+		return false
+	}
+	kid := v.fr.kids[call]
+	if kid == nil {
+		return false
+	}
+	for _, ri := range Returns(kid.fn) {
+		if idx >= len(ri.Results) || !e.knownNonNil(c03Val{kid, ri.Results[idx]}, ri.Ret.Block(), depth+1) {
+			return false
+		}
+	}
+	return true
+}
+
+// ---- values across frames
+
+type c03Val struct {
+	fr *c03Frame
+	v  ssa.Value
+}
+
+// c03ValueFn: the function a value lives in (nil for constants, globals, functions).
+func c03ValueFn(v ssa.Value) *ssa.Function {
+	switch x := v.(type) {
+	case *ssa.Parameter:
+		return x.Parent()
+	case *ssa.FreeVar:
+		return x.Parent()
+	case ssa.Instruction:
+		return x.Parent()
+	}
+	return nil
+}
+
+// frameOf relocates to the enclosing frame that owns v (a value reached through
+// a captured variable lives in the function that declares the variable).
+func (e *c03Eff) frameOf(fr *c03Frame, v ssa.Value) *c03Frame {
+	own := c03ValueFn(v)
+	if own == nil || fr == nil || fr.fn == own {
+		return fr
+	}
+	for a := fr.parent; a != nil; a = a.parent {
+		if a.fn == own {
+			return a
+		}
+	}
+	return fr
+}
+
+func c03IsZeroConst(v ssa.Value) bool {
+	c, ok := v.(*ssa.Const)
+	if !ok {
+		return false
+	}
+	if c.Value == nil {
+		return true
+	}
+	switch c.Value.Kind() {
+	case constant.Bool:
+		return !constant.BoolVal(c.Value)
+	case constant.String:
+		return constant.StringVal(c.Value) == ""
+	case constant.Int, constant.Float:
+		return constant.Sign(c.Value) == 0
+	}
+	return false
+}
+
+// origin resolves a value as far as it can be named: through originValue, from
+// a helper's parameter to the caller's argument, and (descend) from the result
+// of a followed call to the value all its non-zero returns yield.
+func (e *c03Eff) origin(x c03Val, descend bool) c03Val {
+	for i := 0; i < 48 && x.v != nil; i++ {
+		v := originValue(x.v)
+		x = c03Val{e.frameOf(x.fr, v), v}
+		switch t := v.(type) {
+		case *ssa.Parameter:
+			if x.fr != nil && x.fr.fn == t.Parent() && x.fr.call != nil {
+				idx := c03ParamIndex(t)
+				args := x.fr.call.Common().Args
+				if idx >= 0 && idx < len(args) {
+					x = c03Val{x.fr.parent, args[idx]}
+					continue
+				}
+			}
+			return x
+		case *ssa.Extract:
+			if descend {
+				if y, ok := e.resultOf(x.fr, t.Tuple, t.Index); ok {
+					x = y
+					continue
+				}
+			}
+			return x
+		case *ssa.Call:
+			if descend && t.Call.Signature().Results().Len() == 1 {
+				if y, ok := e.resultOf(x.fr, t, 0); ok {
+					x = y
+					continue
+				}
+			}
+			return x
+		case *ssa.UnOp:
+			// a struct variable whose fields are read in place (so go/ssa keeps it in memory) but which is
+			// assigned as a whole exactly once
+			if t.Op == token.MUL {
+				if al, ok := t.X.(*ssa.Alloc); ok {
+					if sv := c03SoleStructStore(al); sv != nil {
+						x = c03Val{x.fr, sv}
+						continue
+					}
+				}
+			}
+			return x
+		default:
+			return x
+		}
+	}
+	return x
+}
+
+// c03SoleStructStore: the value of a local struct variable that is stored as a
+// whole exactly once, never through its fields, and whose address is used only
+// to load it or its fields. nil otherwise.
+func c03SoleStructStore(al *ssa.Alloc) ssa.Value {
+	if _, isStruct := al.Type().Underlying().(*types.Pointer).Elem().Underlying().(*types.Struct); !isStruct {
+		return nil
+	}
+	refs := al.Referrers()
+	if refs == nil {
+		return nil
+	}
+	var val ssa.Value
+	for _, u := range *refs {
+		switch x := u.(type) {
+		case *ssa.DebugRef:
+		case *ssa.UnOp:
+			if x.Op != token.MUL {
+				return nil
+			}
+		case *ssa.Store:
+			if x.Addr != ssa.Value(al) || val != nil {
+				return nil
+			}
+			val = x.Val
+		case *ssa.FieldAddr:
+			if fr := x.Referrers(); fr != nil {
+				for _, fu := range *fr {
+					switch y := fu.(type) {
+					case *ssa.DebugRef:
+					case *ssa.UnOp:
+						if y.Op != token.MUL {
+							return nil
+						}
+					default:
+						return nil
+					}
+				}
+			}
+		default:
+			return nil
+		}
+	}
+	return val
+}
+
+// resultOf: the value result idx of the followed call has, when every return of
+// the helper that does not yield the zero value yields the same one.
+func (e *c03Eff) resultOf(fr *c03Frame, tuple ssa.Value, idx int) (c03Val, bool) {
+	call, ok := tuple.(*ssa.Call)
+	if !ok || fr == nil {
+		return c03Val{}, false
+	}
+	kid := fr.kids[call]
+	if kid == nil {
+		return c03Val{}, false
+	}
+	var got *c03Val
+	for _, ri := range Returns(kid.fn) {
+		if idx >= len(ri.Results) {
+			return c03Val{}, false
+		}
+		rv := ri.Results[idx]
+		if c03IsZeroConst(rv) {
+			continue
+		}
+		o := e.origin(c03Val{kid, rv}, true)
+		if got == nil {
+			got = &o
+		} else if got.v != o.v || got.fr != o.fr {
+			return c03Val{}, false
+		}
+	}
+	if got == nil {
+		return c03Val{}, false
+	}
+	return *got, true
+}
+
+// same: the two values denote the same run-time value.
+func (e *c03Eff) same(a, b c03Val) bool {
+	if a.v == nil || b.v == nil {
+		return false
+	}
+	oa, ob := e.origin(a, true), e.origin(b, true)
+	if oa.v == ob.v && (oa.fr == ob.fr || c03ValueFn(oa.v) == nil) {
+		return true
+	}
+	return oa.fr == ob.fr && sameOrigin(oa.v, ob.v)
+}
+
+// depends is c03Depends across frames: the backward slice of x (operands,
+// stores into local variables and composites, caller's arguments for
+// parameters, returned values for followed calls) contains a value satisfying target.
+func (e *c03Eff) depends(x c03Val, target func(c03Val) bool) bool {
+	type key struct {
+		fr *c03Frame
+		v  ssa.Value
+	}
+	seen := map[key]bool{}
+	var walk func(x c03Val, d int) bool
+	walk = func(x c03Val, d int) bool {
+		if x.v == nil || d > 90 {
+			return false
+		}
+		x.fr = e.frameOf(x.fr, x.v)
+		k := key{x.fr, x.v}
+		if seen[k] {
+			return false
+		}
+		seen[k] = true
+		if target(x) {
+			return true
+		}
+		switch t := x.v.(type) {
+		case *ssa.Parameter:
+			if x.fr != nil && x.fr.fn == t.Parent() && x.fr.call != nil {
+				idx := c03ParamIndex(t)
+				if args := x.fr.call.Common().Args; idx >= 0 && idx < len(args) {
+					return walk(c03Val{x.fr.parent, args[idx]}, d+1)
+				}
+			}
+			return false
+		case *ssa.UnOp:
+			if t.Op == token.MUL {
+				if al := c03RootAlloc(t.X); al != nil {
+					for _, st := range c03StoresInto(al) {
+						if walk(c03Val{x.fr, st.Val}, d+1) {
+							return true
+						}
+					}
+				}
+				if cell, ok := varOf(t.X); ok {
+					for _, st := range storesTo(cell) {
+						if walk(c03Val{x.fr, st.Val}, d+1) {
+							return true
+						}
+					}
+				}
+			}
+		case *ssa.Slice:
+			if al := c03RootAlloc(t.X); al != nil {
+				for _, st := range c03StoresInto(al) {
+					if walk(c03Val{x.fr, st.Val}, d+1) {
+						return true
+					}
+				}
+			}
+		case *ssa.Extract:
+			if call, ok := t.Tuple.(*ssa.Call); ok && x.fr != nil {
+				if kid := x.fr.kids[call]; kid != nil {
+					for _, ri := range Returns(kid.fn) {
+						if t.Index < len(ri.Results) && walk(c03Val{kid, ri.Results[t.Index]}, d+1) {
+							return true
+						}
+					}
+				}
+			}
+		case *ssa.Call:
+			if x.fr != nil {
+				if kid := x.fr.kids[t]; kid != nil && t.Call.Signature().Results().Len() == 1 {
+					for _, ri := range Returns(kid.fn) {
+						if len(ri.Results) == 1 && walk(c03Val{kid, ri.Results[0]}, d+1) {
+							return true
+						}
+					}
+				}
+			}
+		}
+		if in, ok := x.v.(ssa.Instruction); ok {
+			for _, op := range in.Operands(nil) {
+				if *op != nil && walk(c03Val{x.fr, *op}, d+1) {
+					return true
+				}
+			}
+		}
+		return false
+	}
+	return walk(x, 0)
+}
+
+// envOf renders a frame chain as the parameter environment of the linear forms.
+func (e *c03Eff) envOf(fr *c03Frame) *c03Env {
+	if fr == nil || fr.call == nil {
+		return nil
+	}
+	env := &c03Env{m: map[*ssa.Parameter]ssa.Value{}, up: e.envOf(fr.parent)}
+	args := fr.call.Common().Args
+	for i, prm := range fr.fn.Params {
+		if i < len(args) {
+			env.m[prm] = args[i]
+		}
+	}
+	return env
+}
+
+// ---- facts across frames
+
+type c03Fact struct {
+	fr   *c03Frame
+	cond ssa.Value
+	val  bool
+}
+
+// factsAt lists the branch conditions known at a site: those of its own
+// function, those known at the call sites up its call chain, and — for a
+// condition that is the boolean result of a followed helper — the conditions
+// known at every return of the helper that may yield that result.
+func (e *c03Eff) factsAt(s c03Site) []c03Fact {
+	var out []c03Fact
+	for _, lv := range s.chain() {
+		for _, f := range FactsAt(lv.in.Block()) {
+			out = append(out, e.expandFact(lv.fr, f.Cond, f.Val, 0)...)
+		}
+	}
+	return out
+}
+
+func (e *c03Eff) expandFact(fr *c03Frame, cond ssa.Value, val bool, depth int) []c03Fact {
+	out := []c03Fact{{fr, cond, val}}
+	c := cond
+	for {
+		if u, ok := c.(*ssa.UnOp); ok && u.Op == token.NOT {
+			c, val = u.X, !val
+			continue
+		}
+		break
+	}
+	if c != cond {
+		out = append(out, c03Fact{fr, c, val})
+	}
+	if depth > 3 || fr == nil {
+		return out
+	}
+	// err == nil for the error result of a followed helper: what is known at every return of the helper
+	// that may report success
+	if b, ok := c.(*ssa.BinOp); ok && (b.Op == token.EQL || b.Op == token.NEQ) && (IsNilConst(b.X) || IsNilConst(b.Y)) && (b.Op == token.EQL) == val {
+		other := b.X
+		if IsNilConst(b.X) {
+			other = b.Y
+		}
+		var hc *ssa.Call
+		switch t := originValue(other).(type) {
+		case *ssa.Call:
+			hc = t
+		case *ssa.Extract:
+			hc, _ = t.Tuple.(*ssa.Call)
+		}
+		if hc != nil {
+			if kid := fr.kids[hc]; kid != nil {
+				if ev, has, _ := ErrValue(hc); has && ev != nil && originValue(ev) == originValue(other) {
+					var sets [][]c03Fact
+					for _, nr := range e.maybeNilReturns(kid) {
+						blk := nr.Ret.Block()
+						var set []c03Fact
+						if nr.From != nil && nr.From != blk {
+							blk = nr.From
+							if ifi, ok := c03Last(blk).(*ssa.If); ok && len(blk.Succs) == 2 && blk.Succs[0] != blk.Succs[1] {
+								for si, s := range blk.Succs {
+									if s == nr.Ret.Block() || s.Dominates(nr.Ret.Block()) {
+										set = append(set, e.expandFact(kid, ifi.Cond, si == 0, depth+1)...)
+										break
+									}
+								}
+							}
+						}
+						for _, f := range FactsAt(blk) {
+							set = append(set, e.expandFact(kid, f.Cond, f.Val, depth+1)...)
+						}
+						sets = append(sets, set)
+					}
+					out = append(out, c03CommonFacts(sets)...)
+				}
+			}
+		}
+		return out
+	}
+	call, ok := originValue(c).(*ssa.Call)
+	if !ok {
+		return out
+	}
+	kid := fr.kids[call]
+	if kid == nil {
+		return out
+	}
+	res := call.Call.Signature().Results()
+	if res.Len() != 1 {
+		return out
+	}
+	if b, ok := res.At(0).Type().Underlying().(*types.Basic); !ok || b.Kind() != types.Bool {
+		return out
+	}
+	var sets [][]c03Fact
+	for _, ri := range Returns(kid.fn) {
+		if len(ri.Results) != 1 {
+			return out
+		}
+		sets = append(sets, e.mayYield(kid, ri.Results[0], ri.Ret.Block(), nil, val, depth)...)
+	}
+	return append(out, c03CommonFacts(sets)...)
+}
+
+// c03CommonFacts: the facts present in every set.
+func c03CommonFacts(sets [][]c03Fact) []c03Fact {
+	var out []c03Fact
+	if len(sets) == 0 {
+		return nil
+	}
+	for _, f := range sets[0] {
+		all := true
+		for _, s := range sets[1:] {
+			found := false
+			for _, g := range s {
+				if g.fr == f.fr && g.cond == f.cond && g.val == f.val {
+					found = true
+					break
+				}
+			}
+			if !found {
+				all = false
+				break
+			}
+		}
+		if all {
+			out = append(out, f)
+		}
+	}
+	return out
+}
+
+// mayYield: for a helper's returned boolean x (evaluated on the way to block
+// blk), the fact sets of the ways in which it may equal val.
+func (e *c03Eff) mayYield(kid *c03Frame, x ssa.Value, blk *ssa.BasicBlock, extra []c03Fact, val bool, depth int) [][]c03Fact {
+	base := append([]c03Fact{}, extra...)
+	for _, f := range FactsAt(blk) {
+		base = append(base, e.expandFact(kid, f.Cond, f.Val, depth+1)...)
+	}
+	switch t := x.(type) {
+	case *ssa.Const:
+		if t.Value != nil && t.Value.Kind() == constant.Bool && constant.BoolVal(t.Value) == val {
+			return [][]c03Fact{base}
+		}
+		return nil
+	case *ssa.Phi:
+		if depth > 5 {
+			return [][]c03Fact{nil}
+		}
+		var sets [][]c03Fact
+		pb := t.Block()
+		for j, edge := range t.Edges {
+			pred := pb.Preds[j]
+			var ef []c03Fact
+			if ifi, ok := c03Last(pred).(*ssa.If); ok && len(pred.Succs) == 2 && pred.Succs[0] != pred.Succs[1] {
+				ef = e.expandFact(kid, ifi.Cond, pb == pred.Succs[0], depth+1)
+			}
+			sets = append(sets, e.mayYield(kid, edge, pred, ef, val, depth+1)...)
+		}
+		return sets
+	}
+	return [][]c03Fact{append(base, e.expandFact(kid, x, val, depth+1)...)}
+}
+
+// boolCallFact: a call satisfying pred is known to have returned val at s.
+func (e *c03Eff) boolCallFact(s c03Site, pred func(CallSite) bool) (known, val bool, call c03Site) {
+	for _, f := range e.factsAt(s) {
+		if c, ok := originValue(f.cond).(*ssa.Call); ok {
+			fr := e.frameOf(f.fr, c)
+			cs := CallSite{c.Parent(), c}
+			if pred(cs) {
+				return true, f.val, c03Site{fr, c}
+			}
+		}
+	}
+	return false, false, c03Site{}
+}
+
+// ---- success exits reachable after a site
+
+// successAfter: once control has reached s, a return of the root that may
+// report success (nil error) can still be reached. line names such a return.
+func (e *c03Eff) successAfter(s c03Site) (bool, int) {
+	return e.successFrom(s.fr, s.in, nil)
+}
+
+func (e *c03Eff) successFrom(fr *c03Frame, at ssa.Instruction, nonNil ssa.Value) (bool, int) {
+	hasErr := ErrResultIndex(fr.fn) >= 0
+	visited := map[*ssa.BasicBlock]bool{}
+	var rets []*ssa.Return
+	var walk func(b *ssa.BasicBlock, from int)
+	walk = func(b *ssa.BasicBlock, from int) {
+		for i := from; i < len(b.Instrs); i++ {
+			switch t := b.Instrs[i].(type) {
+			case *ssa.Return:
+				rets = append(rets, t)
+				return
+			case *ssa.Panic:
+				return
+			case *ssa.If:
+				if nonNil != nil {
+					if k, nilWhenTrue := condSaysNil(t.Cond, true, nonNil); k {
+						s := b.Succs[0]
+						if nilWhenTrue {
+							s = b.Succs[1]
+						}
+						if !visited[s] {
+							visited[s] = true
+							walk(s, 0)
+						}
+						return
+					}
+				}
+			}
+		}
+		for _, s := range b.Succs {
+			if !visited[s] {
+				visited[s] = true
+				walk(s, 0)
+			}
+		}
+	}
+	start := at.Block()
+	walk(start, instrIndex(at)+1)
+	anySuccess, anyFail := false, false
+	line := 0
+	var maybe []NilReturn
+	if hasErr {
+		maybe = e.maybeNilReturns(fr)
+	}
+	idx := ErrResultIndex(fr.fn)
+	for _, ret := range rets {
+		if !hasErr {
+			anySuccess, line = true, c03Line(e.p, ret.Pos())
+			continue
+		}
+		ok := false
+		for _, nr := range maybe {
+			if nr.Ret != ret {
+				continue
+			}
+			if nonNil != nil && sameOrigin(nr.Val, nonNil) {
+				continue
+			}
+			if nr.From == nil || nr.From == ret.Block() || visited[nr.From] || nr.From == start {
+				ok = true
+			}
+		}
+		_ = idx
+		if ok {
+			anySuccess, line = true, c03Line(e.p, ret.Pos())
+		} else {
+			anyFail = true
+		}
+	}
+	if fr.parent == nil {
+		return anySuccess, line
+	}
+	if fr.deferred {
+		return true, c03Line(e.p, at.Pos()) // the enclosing function's own exits are not followed from a deferred call
+	}
+	if anySuccess {
+		if ok, ln := e.successFrom(fr.parent, fr.call, nil); ok {
+			return true, ln
+		}
+	}
+	if anyFail {
+		var ev ssa.Value
+		if c, ok := fr.call.(*ssa.Call); ok {
+			ev, _, _ = ErrValue(c)
+		}
+		if ok, ln := e.successFrom(fr.parent, fr.call, ev); ok {
+			return true, ln
+		}
+	}
+	return false, 0
+}
+
+// ---- callers (context-free): who-may rules
+
+var c03InvokeCache = map[*ssa.Function]int{}
+
+func c03InvokeCount(p *Program, fn *ssa.Function) int {
+	c03CacheGuard(p)
+	if n, ok := c03InvokeCache[fn]; ok {
+		return n
+	}
+	n := len(p.InvokeSites(fn))
+	c03InvokeCache[fn] = n
+	return n
+}
+
+// c03ForAllCallers: v satisfies pred, or v is a parameter of a function whose
+// callers can all be enumerated (never used as a value, not reachable through an
+// interface) and the corresponding argument at every static call site does
+// (transitively); results of module helpers are followed to the values their
+// non-zero returns yield.
+func c03ForAllCallers(p *Program, v ssa.Value, depth int, pred func(ssa.Value) bool) bool {
+	o := originValue(v)
+	if pred(o) {
+		return true
+	}
+	if depth > 3 {
+		return false
+	}
+	switch t := o.(type) {
+	case *ssa.Parameter:
+		fn := t.Parent()
+		if len(p.FuncValueUses(fn)) > 0 || fn.Parent() == nil && c03InvokeCount(p, fn) > 0 {
+			return false
+		}
+		callers := p.StaticCallers(fn)
+		if len(callers) == 0 {
+			return false
+		}
+		idx := c03ParamIndex(t)
+		for _, cs := range callers {
+			args := cs.Common().Args
+			if cs.Common().IsInvoke() || idx < 0 || idx >= len(args) {
+				return false
+			}
+			if !c03ForAllCallers(p, args[idx], depth+1, pred) {
+				return false
+			}
+		}
+		return true
+	case *ssa.Extract:
+		if c, ok := t.Tuple.(*ssa.Call); ok {
+			return c03HelperYields(p, c, t.Index, depth, pred)
+		}
+	case *ssa.Call:
+		if t.Call.Signature().Results().Len() == 1 {
+			return c03HelperYields(p, t, 0, depth, pred)
+		}
+	}
+	return false
+}
+
+func c03HelperYields(p *Program, c *ssa.Call, idx, depth int, pred func(ssa.Value) bool) bool {
+	callee := c.Call.StaticCallee()
+	if callee == nil || len(callee.Blocks) == 0 || !InModule(TopFunc(callee)) {
+		return false
+	}
+	n := 0
+	for _, ri := range Returns(callee) {
+		if idx >= len(ri.Results) {
+			return false
+		}
+		if c03IsZeroConst(ri.Results[idx]) {
+			continue
+		}
+		n++
+		// a value of the helper's own frame: its parameters are not mapped back (context-free), so only
+		// values the helper itself produces qualify
+		o := originValue(ri.Results[idx])
+		if _, isPrm := o.(*ssa.Parameter); isPrm || !c03ForAllCallers(p, o, depth+1, pred) {
+			return false
+		}
+	}
+	return n > 0
+}
+
+// c03CellUses lists the loads and stores of a local variable, followed through
+// function literals that capture it and through module functions that receive
+// its address as an argument. escapes != "" when the address goes anywhere else.
+func c03CellUses(p *Program, al *ssa.Alloc) (loads []*ssa.UnOp, stores []*ssa.Store, escapes string) {
+	seen := map[ssa.Value]bool{}
+	var walk func(addr ssa.Value, d int)
+	walk = func(addr ssa.Value, d int) {
+		if seen[addr] || d > 8 {
+			return
+		}
+		seen[addr] = true
+		refs := addr.Referrers()
+		if refs == nil {
+			return
+		}
+		for _, u := range *refs {
+			switch x := u.(type) {
+			case *ssa.DebugRef:
+			case *ssa.UnOp:
+				if x.Op == token.MUL {
+					loads = append(loads, x)
+				} else {
+					escapes = "is used in an expression"
+				}
+			case *ssa.Store:
+				if x.Addr == addr {
+					stores = append(stores, x)
+				} else {
+					escapes = "is stored"
+				}
+			case *ssa.MakeClosure:
+				fn := x.Fn.(*ssa.Function)
+				for i, b := range x.Bindings {
+					if b == addr {
+						walk(fn.FreeVars[i], d+1)
+					}
+				}
+			case ssa.CallInstruction:
+				cs := CallSite{x.Parent(), x}
+				callee := cs.Callee()
+				if callee == nil || len(callee.Blocks) == 0 || !InModule(TopFunc(callee)) || cs.Common().IsInvoke() {
+					escapes = "is passed to " + cs.CalleeKey()
+					continue
+				}
+				for i, a := range cs.Common().Args {
+					if a == addr && i < len(callee.Params) {
+						walk(callee.Params[i], d+1)
+					}
+				}
+			default:
+				escapes = fmt.Sprintf("is used by %T", u)
+			}
+		}
+	}
+	walk(al, 0)
+	return
+}
+
+// ===========================================================================
+// Path expressions
+//
+// A path is rendered as an expression tree over designated leaves (the
+// receiver, "the" blob ref / pack number), constants, field reads of the
+// receiver and calls. Module helpers that consist of one basic block and one
+// return are inlined, so `ds.blobPath(ref)` and its body spelled out at the use
+// site render identically; other helpers are opaque calls compared by identity
+// of the callee. Two sites "use the same path function" when their renderings
+// are equal — whatever the helper is called and whether or not it exists.
+
+type c03Expr struct {
+	op   string // "const", "leaf", "field", "call", "invoke", "+", "slice", "conv", "?"
+	k    string
+	args []*c03Expr
+}
+
+func (x *c03Expr) String() string {
+	if x == nil {
+		return "<nil>"
+	}
+	var sb strings.Builder
+	sb.WriteString(x.op)
+	if x.k != "" {
+		sb.WriteString(":" + x.k)
+	}
+	if len(x.args) > 0 {
+		sb.WriteString("(")
+		for i, a := range x.args {
+			if i > 0 {
+				sb.WriteString(", ")
+			}
+			sb.WriteString(a.String())
+		}
+		sb.WriteString(")")
+	}
+	return sb.String()
+}
+
+// pure: no part of the expression is unknown to the renderer.
+func (x *c03Expr) pure() bool {
+	if x == nil || x.op == "?" {
+		return false
+	}
+	for _, a := range x.args {
+		if !a.pure() {
+			return false
+		}
+	}
+	return true
+}
+
+type c03Render struct {
+	p      *Program
+	leafOf func(v ssa.Value) string // "" = not a leaf
+	leaves map[string][]ssa.Value   // the values rendered as each leaf
+	funcs  map[*ssa.Function]bool   // module functions met (inlined or opaque)
+	fields map[string]bool          // receiver fields read
+}
+
+func c03NewRender(p *Program, leafOf func(ssa.Value) string) *c03Render {
+	return &c03Render{p: p, leafOf: leafOf, leaves: map[string][]ssa.Value{}, funcs: map[*ssa.Function]bool{}, fields: map[string]bool{}}
+}
+
+func c03IsReceiverParam(v ssa.Value) bool {
+	prm, ok := v.(*ssa.Parameter)
+	if !ok {
+		return false
+	}
+	fn := prm.Parent()
+	return fn.Signature.Recv() != nil && len(fn.Params) > 0 && fn.Params[0] == prm
+}
+
+func (rd *c03Render) expr(v ssa.Value, env map[*ssa.Parameter]*c03Expr, depth int) *c03Expr {
+	unknown := func() *c03Expr {
+		fn := ""
+		if f := c03ValueFn(v); f != nil {
+			fn = FuncKey(f)
+		}
+		return &c03Expr{op: "?", k: v.Name() + "@" + fn}
+	}
+	if v == nil || depth > 24 {
+		return &c03Expr{op: "?", k: "deep"}
+	}
+	o := originValue(v)
+	if prm, ok := o.(*ssa.Parameter); ok && env != nil {
+		if x, ok := env[prm]; ok {
+			return x
+		}
+	}
+	if name := rd.leafOf(o); name != "" {
+		rd.leaves[name] = append(rd.leaves[name], o)
+		return &c03Expr{op: "leaf", k: name}
+	}
+	switch t := o.(type) {
+	case *ssa.Const:
+		if t.Value == nil {
+			return &c03Expr{op: "const", k: "nil"}
+		}
+		return &c03Expr{op: "const", k: t.Value.ExactString()}
+	case *ssa.BinOp:
+		if t.Op == token.ADD {
+			return &c03Expr{op: "+", args: []*c03Expr{rd.expr(t.X, env, depth+1), rd.expr(t.Y, env, depth+1)}}
+		}
+	case *ssa.Convert:
+		return &c03Expr{op: "conv", k: types.TypeString(t.Type(), nil), args: []*c03Expr{rd.expr(t.X, env, depth+1)}}
+	case *ssa.Slice:
+		x := &c03Expr{op: "slice", args: []*c03Expr{rd.expr(t.X, env, depth+1)}}
+		for _, b := range []ssa.Value{t.Low, t.High} {
+			if b == nil {
+				x.args = append(x.args, &c03Expr{op: "const", k: "-"})
+			} else {
+				x.args = append(x.args, rd.expr(b, env, depth+1))
+			}
+		}
+		return x
+	case *ssa.UnOp:
+		if t.Op == token.MUL {
+			if fa, ok := t.X.(*ssa.FieldAddr); ok {
+				base := rd.expr(fa.X, env, depth+1)
+				name := fieldName(fa.X.Type(), fa.Field)
+				if base.op == "leaf" && base.k == "RECV" {
+					rd.fields[name] = true
+				}
+				return &c03Expr{op: "field", k: name, args: []*c03Expr{base}}
+			}
+		}
+	case *ssa.Field:
+		return &c03Expr{op: "field", k: fieldName(t.X.Type(), t.Field), args: []*c03Expr{rd.expr(t.X, env, depth+1)}}
+	case *ssa.Call:
+		var args []*c03Expr
+		addArgs := func(vals []ssa.Value, variadic bool) {
+			for i, a := range vals {
+				if variadic && i == len(vals)-1 {
+					if el := c03VarargElems(a); el != nil {
+						for _, x := range el {
+							args = append(args, rd.expr(x, env, depth+1))
+						}
+						continue
+					}
+				}
+				args = append(args, rd.expr(a, env, depth+1))
+			}
+		}
+		if t.Call.IsInvoke() {
+			addArgs(append([]ssa.Value{t.Call.Value}, t.Call.Args...), false)
+			return &c03Expr{op: "invoke", k: t.Call.Method.Name(), args: args}
+		}
+		f := t.Call.StaticCallee()
+		if f == nil {
+			return unknown()
+		}
+		addArgs(t.Call.Args, f.Signature.Variadic())
+		if home := c03ValueFn(o); home != nil && TopFunc(f).Pkg != nil && TopFunc(f).Pkg == TopFunc(home).Pkg {
+			rd.funcs[f] = true
+			// inline one-block, one-result helpers of the same package
+			if len(f.Blocks) == 1 && f.Signature.Results().Len() == 1 && !f.Signature.Variadic() && len(f.Params) == len(t.Call.Args) {
+				if rets := Returns(f); len(rets) == 1 && len(rets[0].Results) == 1 {
+					sub := map[*ssa.Parameter]*c03Expr{}
+					for i, prm := range f.Params {
+						sub[prm] = args[i]
+					}
+					return rd.expr(rets[0].Results[0], sub, depth+1)
+				}
+			}
+		}
+		return &c03Expr{op: "call", k: FuncKeyAny(f), args: args}
+	}
+	return unknown()
+}
+
+// oneLeaf: all values rendered as leaf name are the same value; returns it.
+func (rd *c03Render) oneLeaf(name string) (ssa.Value, bool) {
+	vs := rd.leaves[name]
+	if len(vs) == 0 {
+		return nil, false
+	}
+	for _, v := range vs[1:] {
+		if !sameOrigin(v, vs[0]) {
+			return nil, false
+		}
+	}
+	return vs[0], true
+}
+
+// c03TrailingConst: the constant text every value of a string expression ends
+// in: a constant, the right operand of a concatenation, or what follows the
+// last verb of a constant fmt.Sprintf format.
+func c03TrailingConst(x *c03Expr) (string, bool) {
+	for i := 0; i < 16 && x != nil; i++ {
+		switch {
+		case x.op == "+" && len(x.args) == 2:
+			x = x.args[1]
+		case x.op == "const":
+			s, err := strconv.Unquote(x.k)
+			return s, err == nil
+		case x.op == "call" && x.k == "fmt.Sprintf" && len(x.args) > 0 && x.args[0].op == "const":
+			f, err := strconv.Unquote(x.args[0].k)
+			if err != nil {
+				return "", false
+			}
+			lits, _, ok := c03Format(f)
+			if !ok || len(lits) == 0 {
+				return "", false
+			}
+			return lits[len(lits)-1], true
+		default:
+			return "", false
+		}
+	}
+	return "", false
+}
+
+// c03LastPathElem: the last element of a (nested) filepath.Join.
+func c03LastPathElem(x *c03Expr) *c03Expr {
+	for x != nil && x.op == "call" && (x.k == "path/filepath.Join" || x.k == "path.Join") && len(x.args) > 0 {
+		x = x.args[len(x.args)-1]
+	}
+	return x
 }
